@@ -68,6 +68,7 @@ variables
   gfired = {},
   gwaker = [g \in Gates |-> NoW],
   gthreads = [g \in Gates |-> {}],
+  gwhist = [g \in Gates |-> << >>],
   dwSt = [d \in DWs |-> "NotWoken"],
   dwW  = [d \in DWs |-> NoW],
   dblTaken = [d \in DWs |-> FALSE],
@@ -279,7 +280,7 @@ z_wk_ret:    \* (not a tail call: PlusCal does not restore the parameters of a r
 
 \* ---- the harness closure / future body of an operation, or (bown = 0) the program of a caller thread
 procedure RunOps(rsq, bown, bwk)
-  variables bi = 0, bcur = 0, bw = NoW; {
+  variables bi = 0, bcur = 0, bw = NoW, bsp = << >>; {
 rb_step:     \* [begin] / [body] / [ret] / [resumed]
   if (bown # 0 /\ jaw[bown] > 0) {
     \* resumed after the awaited gate fired: go on to the next await; a nested future is polled now
@@ -304,7 +305,7 @@ z_finish:
     with (k = jaw[bown] + 1) {
       jaw[bown] := k;
       if (Aw(bown)[k] < 0 \/ Aw(bown)[k] \in gfired) { bi := Len(rsq) + 1; goto rb_step; }
-      else { gwaker[Aw(bown)[k]] := bwk; rv[self] := 5; return; }
+      else { gwaker[Aw(bown)[k]] := bwk; gwhist[Aw(bown)[k]] := Append(gwhist[Aw(bown)[k]], bwk); rv[self] := 5; return; }
     }
   }
   else if (OpTab[bown].panic) {
@@ -372,6 +373,7 @@ z_dispatch:
     else { call PollFuture(OpTab[bcur].f, NoW); goto z_polled; }
   }
   else if (K(bcur) = "wait_sync") { call WaitSync(OpTab[bcur].f, bcur); goto rb_step; }
+  else if (K(bcur) = "spur") { bsp := gwhist[OpTab[bcur].g]; rv[self] := 0; goto z_spur; }
   else if (K(bcur) = "block_on") {
     \* the harness thread waits for an external event (used to order operations of different threads)
     rv[self] := 0;
@@ -392,6 +394,14 @@ pp_setdepth: \* [pcore]
   ppDepth[OpTab[bcur].p] := OpTab[bcur].n;
   rv[self] := 0;
   goto rb_step;
+z_spur:      \* the adversary invokes every waker the event source was ever given, one after the other
+  if (bsp = << >>) { goto rb_step; }
+  else {
+    bw := Head(bsp);
+    bsp := Tail(bsp);
+    if (IsLocking(bw)) { call Wake(bw); goto z_spur; }
+    else { parkTok := Unpark(parkTok, TaskOf(bw)); goto z_spur; }
+  };
 rb_wait:     \* [park]
   await parkTok[self];
   parkTok[self] := FALSE;
@@ -411,11 +421,11 @@ z_rj:
   else if (K(jj) = "fdesync") {
     if (jaw[jj] = 0) { h := ObsStart(h, self, jj); call RunOps(Body(jj), jj, jwk); goto z_rj_ret; }
     else if (AwReady(jj)) { call RunOps(Body(jj), jj, jwk); goto z_rj_ret; }
-    else { gwaker[AwItem(jj)] := jwk; rv[self] := 5; return; }
+    else { gwaker[AwItem(jj)] := jwk; gwhist[AwItem(jj)] := Append(gwhist[AwItem(jj)], jwk); rv[self] := 5; return; }
   }
   else if (K(jj) = "after") {
     if (OpTab[jj].g \in gfired) { h := ObsStart(h, self, jj); call RunOps(Body(jj), jj, jwk); goto z_rj_ret; }
-    else { gwaker[OpTab[jj].g] := jwk; rv[self] := 5; return; }
+    else { gwaker[OpTab[jj].g] := jwk; gwhist[OpTab[jj].g] := Append(gwhist[OpTab[jj].g], jwk); rv[self] := 5; return; }
   }
   else if (K(jj) \in {"pipe", "pipe_in"}) {
     \* the empty closure of the sync() that ends pipe()/pipe_in()
@@ -716,7 +726,7 @@ procedure PollSync(sf, sctx) {
 z_ps:
   if (sfst[sf] = "WFQ") { call PollFuture(sf, sctx); }
   else if (sfst[sf] = "WFF") {
-    if (jaw[sf] > 0 /\ ~AwReady(sf)) { gwaker[AwItem(sf)] := sctx; rv[self] := 5; return; }
+    if (jaw[sf] > 0 /\ ~AwReady(sf)) { gwaker[AwItem(sf)] := sctx; gwhist[AwItem(sf)] := Append(gwhist[AwItem(sf)], sctx); rv[self] := 5; return; }
     else { call RunOps(Body(sf), sf, sctx); goto z_ps_f; }
   }
   else if (sfst[sf] = "WFS") { goto z_ps_s; }
@@ -1009,12 +1019,12 @@ CONSTANT defaultInitValue
 VARIABLES pc, qstate, qpoll, jobs, wakeBlocked, schedule, pthreads, nspawned, 
           palive, busy, busyLocked, inbox, chanOpen, pfin, thrHeld, 
           maxThreads, jkind, jaw, fres, fwaker, gfired, gwaker, gthreads, 
-          dwSt, dwW, dblTaken, dblW1, dblW2, nextDW, ready, cwait, cnotif, 
-          cvHeld, sdres, jpanic, sfst, slotSt, qrSent, qrWaker, dnState, 
-          dnWaker, parkTok, rv, rwb, rneed, dsl, atomic, strong, ppPending, 
-          ppClosed, ppNotify, ppNC, ppBP, ppDepth, ppAlive, ppHeld, inItems, 
-          inClosed, inWaker, pollFn, chuteFn, pwTaken, nextPoll, ppItem, h, 
-          stack
+          gwhist, dwSt, dwW, dblTaken, dblW1, dblW2, nextDW, ready, cwait, 
+          cnotif, cvHeld, sdres, jpanic, sfst, slotSt, qrSent, qrWaker, 
+          dnState, dnWaker, parkTok, rv, rwb, rneed, dsl, atomic, strong, 
+          ppPending, ppClosed, ppNotify, ppNC, ppBP, ppDepth, ppAlive, ppHeld, 
+          inItems, inClosed, inWaker, pollFn, chuteFn, pwTaken, nextPoll, 
+          ppItem, h, stack
 
 (* define statement *)
 RECURSIVE NTR(_)
@@ -1051,23 +1061,23 @@ CtxAlive(p) == \/ HoldsCtx(inWaker[p])
                \/ (CoreAlive(p) /\ (HoldsCtx(ppNC[p]) \/ HoldsCtx(ppBP[p])))
                \/ \E j \in PollJobs(p) : jkind[j] = "fut" /\ fres[j] = "none"
 
-VARIABLES dead, sti, rq, sq, sj, ww, rsq, bown, bwk, bi, bcur, bw, jq, jj, 
-          jwk, fj, dq, dj, oq, oop, omode, oj, yq, yop, tq, top, af, wf, wop, 
-          sf, sctx, xf, cop, kj, pp, np, nbp, nres, dp, pf, pctx, pq, pj, pd, 
-          nq
+VARIABLES dead, sti, rq, sq, sj, ww, rsq, bown, bwk, bi, bcur, bw, bsp, jq, 
+          jj, jwk, fj, dq, dj, oq, oop, omode, oj, yq, yop, tq, top, af, wf, 
+          wop, sf, sctx, xf, cop, kj, pp, np, nbp, nres, dp, pf, pctx, pq, pj, 
+          pd, nq
 
 vars == << pc, qstate, qpoll, jobs, wakeBlocked, schedule, pthreads, nspawned, 
            palive, busy, busyLocked, inbox, chanOpen, pfin, thrHeld, 
            maxThreads, jkind, jaw, fres, fwaker, gfired, gwaker, gthreads, 
-           dwSt, dwW, dblTaken, dblW1, dblW2, nextDW, ready, cwait, cnotif, 
-           cvHeld, sdres, jpanic, sfst, slotSt, qrSent, qrWaker, dnState, 
-           dnWaker, parkTok, rv, rwb, rneed, dsl, atomic, strong, ppPending, 
-           ppClosed, ppNotify, ppNC, ppBP, ppDepth, ppAlive, ppHeld, inItems, 
-           inClosed, inWaker, pollFn, chuteFn, pwTaken, nextPoll, ppItem, h, 
-           stack, dead, sti, rq, sq, sj, ww, rsq, bown, bwk, bi, bcur, bw, jq, 
-           jj, jwk, fj, dq, dj, oq, oop, omode, oj, yq, yop, tq, top, af, wf, 
-           wop, sf, sctx, xf, cop, kj, pp, np, nbp, nres, dp, pf, pctx, pq, 
-           pj, pd, nq >>
+           gwhist, dwSt, dwW, dblTaken, dblW1, dblW2, nextDW, ready, cwait, 
+           cnotif, cvHeld, sdres, jpanic, sfst, slotSt, qrSent, qrWaker, 
+           dnState, dnWaker, parkTok, rv, rwb, rneed, dsl, atomic, strong, 
+           ppPending, ppClosed, ppNotify, ppNC, ppBP, ppDepth, ppAlive, 
+           ppHeld, inItems, inClosed, inWaker, pollFn, chuteFn, pwTaken, 
+           nextPoll, ppItem, h, stack, dead, sti, rq, sq, sj, ww, rsq, bown, 
+           bwk, bi, bcur, bw, bsp, jq, jj, jwk, fj, dq, dj, oq, oop, omode, 
+           oj, yq, yop, tq, top, af, wf, wop, sf, sctx, xf, cop, kj, pp, np, 
+           nbp, nres, dp, pf, pctx, pq, pj, pd, nq >>
 
 ProcSet == (Threads) \cup (PoolSet)
 
@@ -1094,6 +1104,7 @@ Init == (* Global variables *)
         /\ gfired = {}
         /\ gwaker = [g \in Gates |-> NoW]
         /\ gthreads = [g \in Gates |-> {}]
+        /\ gwhist = [g \in Gates |-> << >>]
         /\ dwSt = [d \in DWs |-> "NotWoken"]
         /\ dwW = [d \in DWs |-> NoW]
         /\ dblTaken = [d \in DWs |-> FALSE]
@@ -1153,6 +1164,7 @@ Init == (* Global variables *)
         /\ bi = [ self \in ProcSet |-> 0]
         /\ bcur = [ self \in ProcSet |-> 0]
         /\ bw = [ self \in ProcSet |-> NoW]
+        /\ bsp = [ self \in ProcSet |-> << >>]
         (* Procedure RunJob *)
         /\ jq = [ self \in ProcSet |-> defaultInitValue]
         /\ jj = [ self \in ProcSet |-> defaultInitValue]
@@ -1217,18 +1229,19 @@ st_reap(self) == /\ pc[self] = "st_reap"
                                  nspawned, palive, busy, busyLocked, inbox, 
                                  chanOpen, pfin, thrHeld, maxThreads, jkind, 
                                  jaw, fres, fwaker, gfired, gwaker, gthreads, 
-                                 dwSt, dwW, dblTaken, dblW1, dblW2, nextDW, 
-                                 ready, cwait, cnotif, cvHeld, sdres, jpanic, 
-                                 sfst, slotSt, qrSent, qrWaker, dnState, 
-                                 dnWaker, parkTok, rv, rwb, rneed, dsl, atomic, 
-                                 strong, ppPending, ppClosed, ppNotify, ppNC, 
-                                 ppBP, ppDepth, ppAlive, ppHeld, inItems, 
-                                 inClosed, inWaker, pollFn, chuteFn, pwTaken, 
-                                 nextPoll, ppItem, h, stack, sti, rq, sq, sj, 
-                                 ww, rsq, bown, bwk, bi, bcur, bw, jq, jj, jwk, 
-                                 fj, dq, dj, oq, oop, omode, oj, yq, yop, tq, 
-                                 top, af, wf, wop, sf, sctx, xf, cop, kj, pp, 
-                                 np, nbp, nres, dp, pf, pctx, pq, pj, pd, nq >>
+                                 gwhist, dwSt, dwW, dblTaken, dblW1, dblW2, 
+                                 nextDW, ready, cwait, cnotif, cvHeld, sdres, 
+                                 jpanic, sfst, slotSt, qrSent, qrWaker, 
+                                 dnState, dnWaker, parkTok, rv, rwb, rneed, 
+                                 dsl, atomic, strong, ppPending, ppClosed, 
+                                 ppNotify, ppNC, ppBP, ppDepth, ppAlive, 
+                                 ppHeld, inItems, inClosed, inWaker, pollFn, 
+                                 chuteFn, pwTaken, nextPoll, ppItem, h, stack, 
+                                 sti, rq, sq, sj, ww, rsq, bown, bwk, bi, bcur, 
+                                 bw, bsp, jq, jj, jwk, fj, dq, dj, oq, oop, 
+                                 omode, oj, yq, yop, tq, top, af, wf, wop, sf, 
+                                 sctx, xf, cop, kj, pp, np, nbp, nres, dp, pf, 
+                                 pctx, pq, pj, pd, nq >>
 
 st_join(self) == /\ pc[self] = "st_join"
                  /\ dead' = [dead EXCEPT ![self] = Tail(dead[self])]
@@ -1239,19 +1252,19 @@ st_join(self) == /\ pc[self] = "st_join"
                                  pthreads, nspawned, palive, busy, busyLocked, 
                                  inbox, chanOpen, pfin, thrHeld, maxThreads, 
                                  jkind, jaw, fres, fwaker, gfired, gwaker, 
-                                 gthreads, dwSt, dwW, dblTaken, dblW1, dblW2, 
-                                 nextDW, ready, cwait, cnotif, cvHeld, sdres, 
-                                 jpanic, sfst, slotSt, qrSent, qrWaker, 
+                                 gthreads, gwhist, dwSt, dwW, dblTaken, dblW1, 
+                                 dblW2, nextDW, ready, cwait, cnotif, cvHeld, 
+                                 sdres, jpanic, sfst, slotSt, qrSent, qrWaker, 
                                  dnState, dnWaker, parkTok, rv, rwb, rneed, 
                                  dsl, atomic, strong, ppPending, ppClosed, 
                                  ppNotify, ppNC, ppBP, ppDepth, ppAlive, 
                                  ppHeld, inItems, inClosed, inWaker, pollFn, 
                                  chuteFn, pwTaken, nextPoll, ppItem, h, stack, 
                                  sti, rq, sq, sj, ww, rsq, bown, bwk, bi, bcur, 
-                                 bw, jq, jj, jwk, fj, dq, dj, oq, oop, omode, 
-                                 oj, yq, yop, tq, top, af, wf, wop, sf, sctx, 
-                                 xf, cop, kj, pp, np, nbp, nres, dp, pf, pctx, 
-                                 pq, pj, pd, nq >>
+                                 bw, bsp, jq, jj, jwk, fj, dq, dj, oq, oop, 
+                                 omode, oj, yq, yop, tq, top, af, wf, wop, sf, 
+                                 sctx, xf, cop, kj, pp, np, nbp, nres, dp, pf, 
+                                 pctx, pq, pj, pd, nq >>
 
 st_dormant(self) == /\ pc[self] = "st_dormant"
                     /\ (thrHeld = "" \/ thrHeld = self) /\ (thrHeld = self => ~busyLocked[pthreads[sti[self]]])
@@ -1276,19 +1289,20 @@ st_dormant(self) == /\ pc[self] = "st_dormant"
                                     pthreads, nspawned, palive, busyLocked, 
                                     chanOpen, pfin, maxThreads, jkind, jaw, 
                                     fres, fwaker, gfired, gwaker, gthreads, 
-                                    dwSt, dwW, dblTaken, dblW1, dblW2, nextDW, 
-                                    ready, cwait, cnotif, cvHeld, sdres, 
-                                    jpanic, sfst, slotSt, qrSent, qrWaker, 
-                                    dnState, dnWaker, parkTok, rv, rwb, rneed, 
-                                    dsl, atomic, strong, ppPending, ppClosed, 
-                                    ppNotify, ppNC, ppBP, ppDepth, ppAlive, 
-                                    ppHeld, inItems, inClosed, inWaker, pollFn, 
-                                    chuteFn, pwTaken, nextPoll, ppItem, h, rq, 
-                                    sq, sj, ww, rsq, bown, bwk, bi, bcur, bw, 
-                                    jq, jj, jwk, fj, dq, dj, oq, oop, omode, 
-                                    oj, yq, yop, tq, top, af, wf, wop, sf, 
-                                    sctx, xf, cop, kj, pp, np, nbp, nres, dp, 
-                                    pf, pctx, pq, pj, pd, nq >>
+                                    gwhist, dwSt, dwW, dblTaken, dblW1, dblW2, 
+                                    nextDW, ready, cwait, cnotif, cvHeld, 
+                                    sdres, jpanic, sfst, slotSt, qrSent, 
+                                    qrWaker, dnState, dnWaker, parkTok, rv, 
+                                    rwb, rneed, dsl, atomic, strong, ppPending, 
+                                    ppClosed, ppNotify, ppNC, ppBP, ppDepth, 
+                                    ppAlive, ppHeld, inItems, inClosed, 
+                                    inWaker, pollFn, chuteFn, pwTaken, 
+                                    nextPoll, ppItem, h, rq, sq, sj, ww, rsq, 
+                                    bown, bwk, bi, bcur, bw, bsp, jq, jj, jwk, 
+                                    fj, dq, dj, oq, oop, omode, oj, yq, yop, 
+                                    tq, top, af, wf, wop, sf, sctx, xf, cop, 
+                                    kj, pp, np, nbp, nres, dp, pf, pctx, pq, 
+                                    pj, pd, nq >>
 
 st_max(self) == /\ pc[self] = "st_max"
                 /\ TRUE
@@ -1297,19 +1311,19 @@ st_max(self) == /\ pc[self] = "st_max"
                                 pthreads, nspawned, palive, busy, busyLocked, 
                                 inbox, chanOpen, pfin, thrHeld, maxThreads, 
                                 jkind, jaw, fres, fwaker, gfired, gwaker, 
-                                gthreads, dwSt, dwW, dblTaken, dblW1, dblW2, 
-                                nextDW, ready, cwait, cnotif, cvHeld, sdres, 
-                                jpanic, sfst, slotSt, qrSent, qrWaker, dnState, 
-                                dnWaker, parkTok, rv, rwb, rneed, dsl, atomic, 
-                                strong, ppPending, ppClosed, ppNotify, ppNC, 
-                                ppBP, ppDepth, ppAlive, ppHeld, inItems, 
+                                gthreads, gwhist, dwSt, dwW, dblTaken, dblW1, 
+                                dblW2, nextDW, ready, cwait, cnotif, cvHeld, 
+                                sdres, jpanic, sfst, slotSt, qrSent, qrWaker, 
+                                dnState, dnWaker, parkTok, rv, rwb, rneed, dsl, 
+                                atomic, strong, ppPending, ppClosed, ppNotify, 
+                                ppNC, ppBP, ppDepth, ppAlive, ppHeld, inItems, 
                                 inClosed, inWaker, pollFn, chuteFn, pwTaken, 
                                 nextPoll, ppItem, h, stack, dead, sti, rq, sq, 
-                                sj, ww, rsq, bown, bwk, bi, bcur, bw, jq, jj, 
-                                jwk, fj, dq, dj, oq, oop, omode, oj, yq, yop, 
-                                tq, top, af, wf, wop, sf, sctx, xf, cop, kj, 
-                                pp, np, nbp, nres, dp, pf, pctx, pq, pj, pd, 
-                                nq >>
+                                sj, ww, rsq, bown, bwk, bi, bcur, bw, bsp, jq, 
+                                jj, jwk, fj, dq, dj, oq, oop, omode, oj, yq, 
+                                yop, tq, top, af, wf, wop, sf, sctx, xf, cop, 
+                                kj, pp, np, nbp, nres, dp, pf, pctx, pq, pj, 
+                                pd, nq >>
 
 st_spawn(self) == /\ pc[self] = "st_spawn"
                   /\ thrHeld = ""
@@ -1330,19 +1344,19 @@ st_spawn(self) == /\ pc[self] = "st_spawn"
                   /\ UNCHANGED << qstate, qpoll, jobs, wakeBlocked, schedule, 
                                   busy, busyLocked, inbox, pfin, thrHeld, 
                                   maxThreads, jkind, jaw, fres, fwaker, gfired, 
-                                  gwaker, gthreads, dwSt, dwW, dblTaken, dblW1, 
-                                  dblW2, nextDW, ready, cwait, cnotif, cvHeld, 
-                                  sdres, jpanic, sfst, slotSt, qrSent, qrWaker, 
-                                  dnState, dnWaker, parkTok, rv, rwb, rneed, 
-                                  dsl, atomic, strong, ppPending, ppClosed, 
-                                  ppNotify, ppNC, ppBP, ppDepth, ppAlive, 
-                                  ppHeld, inItems, inClosed, inWaker, pollFn, 
-                                  chuteFn, pwTaken, nextPoll, ppItem, rq, sq, 
-                                  sj, ww, rsq, bown, bwk, bi, bcur, bw, jq, jj, 
-                                  jwk, fj, dq, dj, oq, oop, omode, oj, yq, yop, 
-                                  tq, top, af, wf, wop, sf, sctx, xf, cop, kj, 
-                                  pp, np, nbp, nres, dp, pf, pctx, pq, pj, pd, 
-                                  nq >>
+                                  gwaker, gthreads, gwhist, dwSt, dwW, 
+                                  dblTaken, dblW1, dblW2, nextDW, ready, cwait, 
+                                  cnotif, cvHeld, sdres, jpanic, sfst, slotSt, 
+                                  qrSent, qrWaker, dnState, dnWaker, parkTok, 
+                                  rv, rwb, rneed, dsl, atomic, strong, 
+                                  ppPending, ppClosed, ppNotify, ppNC, ppBP, 
+                                  ppDepth, ppAlive, ppHeld, inItems, inClosed, 
+                                  inWaker, pollFn, chuteFn, pwTaken, nextPoll, 
+                                  ppItem, rq, sq, sj, ww, rsq, bown, bwk, bi, 
+                                  bcur, bw, bsp, jq, jj, jwk, fj, dq, dj, oq, 
+                                  oop, omode, oj, yq, yop, tq, top, af, wf, 
+                                  wop, sf, sctx, xf, cop, kj, pp, np, nbp, 
+                                  nres, dp, pf, pctx, pq, pj, pd, nq >>
 
 ScheduleThread(self) == st_reap(self) \/ st_join(self) \/ st_dormant(self)
                            \/ st_max(self) \/ st_spawn(self)
@@ -1373,18 +1387,19 @@ rq_core(self) == /\ pc[self] = "rq_core"
                  /\ UNCHANGED << qpoll, jobs, schedule, pthreads, nspawned, 
                                  palive, busy, busyLocked, inbox, chanOpen, 
                                  pfin, thrHeld, maxThreads, jkind, jaw, fres, 
-                                 fwaker, gfired, gwaker, gthreads, dwSt, dwW, 
-                                 dblTaken, dblW1, dblW2, nextDW, ready, cwait, 
-                                 cvHeld, sdres, jpanic, sfst, slotSt, qrSent, 
-                                 qrWaker, dnState, dnWaker, parkTok, rv, dsl, 
-                                 atomic, strong, ppPending, ppClosed, ppNotify, 
-                                 ppNC, ppBP, ppDepth, ppAlive, ppHeld, inItems, 
-                                 inClosed, inWaker, pollFn, chuteFn, pwTaken, 
-                                 nextPoll, ppItem, h, dead, sti, sq, sj, ww, 
-                                 rsq, bown, bwk, bi, bcur, bw, jq, jj, jwk, fj, 
-                                 dq, dj, oq, oop, omode, oj, yq, yop, tq, top, 
-                                 af, wf, wop, sf, sctx, xf, cop, kj, pp, np, 
-                                 nbp, nres, dp, pf, pctx, pq, pj, pd, nq >>
+                                 fwaker, gfired, gwaker, gthreads, gwhist, 
+                                 dwSt, dwW, dblTaken, dblW1, dblW2, nextDW, 
+                                 ready, cwait, cvHeld, sdres, jpanic, sfst, 
+                                 slotSt, qrSent, qrWaker, dnState, dnWaker, 
+                                 parkTok, rv, dsl, atomic, strong, ppPending, 
+                                 ppClosed, ppNotify, ppNC, ppBP, ppDepth, 
+                                 ppAlive, ppHeld, inItems, inClosed, inWaker, 
+                                 pollFn, chuteFn, pwTaken, nextPoll, ppItem, h, 
+                                 dead, sti, sq, sj, ww, rsq, bown, bwk, bi, 
+                                 bcur, bw, bsp, jq, jj, jwk, fj, dq, dj, oq, 
+                                 oop, omode, oj, yq, yop, tq, top, af, wf, wop, 
+                                 sf, sctx, xf, cop, kj, pp, np, nbp, nres, dp, 
+                                 pf, pctx, pq, pj, pd, nq >>
 
 rq_notify(self) == /\ pc[self] = "rq_notify"
                    /\ cnotif' = [cnotif EXCEPT ![Head(rwb[self])] = cwait[Head(rwb[self])]]
@@ -1402,7 +1417,7 @@ rq_notify(self) == /\ pc[self] = "rq_notify"
                                    pthreads, nspawned, palive, busy, 
                                    busyLocked, inbox, chanOpen, pfin, thrHeld, 
                                    maxThreads, jkind, jaw, fres, fwaker, 
-                                   gfired, gwaker, gthreads, dwSt, dwW, 
+                                   gfired, gwaker, gthreads, gwhist, dwSt, dwW, 
                                    dblTaken, dblW1, dblW2, nextDW, ready, 
                                    cwait, cvHeld, sdres, jpanic, sfst, slotSt, 
                                    qrSent, qrWaker, dnState, dnWaker, parkTok, 
@@ -1411,9 +1426,9 @@ rq_notify(self) == /\ pc[self] = "rq_notify"
                                    ppAlive, ppHeld, inItems, inClosed, inWaker, 
                                    pollFn, chuteFn, pwTaken, nextPoll, ppItem, 
                                    h, dead, sti, sq, sj, ww, rsq, bown, bwk, 
-                                   bi, bcur, bw, jq, jj, jwk, fj, dq, dj, oq, 
-                                   oop, omode, oj, yq, yop, tq, top, af, wf, 
-                                   wop, sf, sctx, xf, cop, kj, pp, np, nbp, 
+                                   bi, bcur, bw, bsp, jq, jj, jwk, fj, dq, dj, 
+                                   oq, oop, omode, oj, yq, yop, tq, top, af, 
+                                   wf, wop, sf, sctx, xf, cop, kj, pp, np, nbp, 
                                    nres, dp, pf, pctx, pq, pj, pd, nq >>
 
 rq_sched(self) == /\ pc[self] = "rq_sched"
@@ -1430,19 +1445,19 @@ rq_sched(self) == /\ pc[self] = "rq_sched"
                                   nspawned, palive, busy, busyLocked, inbox, 
                                   chanOpen, pfin, thrHeld, maxThreads, jkind, 
                                   jaw, fres, fwaker, gfired, gwaker, gthreads, 
-                                  dwSt, dwW, dblTaken, dblW1, dblW2, nextDW, 
-                                  ready, cwait, cnotif, cvHeld, sdres, jpanic, 
-                                  sfst, slotSt, qrSent, qrWaker, dnState, 
-                                  dnWaker, parkTok, rv, rwb, rneed, dsl, 
-                                  atomic, strong, ppPending, ppClosed, 
+                                  gwhist, dwSt, dwW, dblTaken, dblW1, dblW2, 
+                                  nextDW, ready, cwait, cnotif, cvHeld, sdres, 
+                                  jpanic, sfst, slotSt, qrSent, qrWaker, 
+                                  dnState, dnWaker, parkTok, rv, rwb, rneed, 
+                                  dsl, atomic, strong, ppPending, ppClosed, 
                                   ppNotify, ppNC, ppBP, ppDepth, ppAlive, 
                                   ppHeld, inItems, inClosed, inWaker, pollFn, 
                                   chuteFn, pwTaken, nextPoll, ppItem, h, rq, 
-                                  sq, sj, ww, rsq, bown, bwk, bi, bcur, bw, jq, 
-                                  jj, jwk, fj, dq, dj, oq, oop, omode, oj, yq, 
-                                  yop, tq, top, af, wf, wop, sf, sctx, xf, cop, 
-                                  kj, pp, np, nbp, nres, dp, pf, pctx, pq, pj, 
-                                  pd, nq >>
+                                  sq, sj, ww, rsq, bown, bwk, bi, bcur, bw, 
+                                  bsp, jq, jj, jwk, fj, dq, dj, oq, oop, omode, 
+                                  oj, yq, yop, tq, top, af, wf, wop, sf, sctx, 
+                                  xf, cop, kj, pp, np, nbp, nres, dp, pf, pctx, 
+                                  pq, pj, pd, nq >>
 
 Reschedule(self) == rq_core(self) \/ rq_notify(self) \/ rq_sched(self)
 
@@ -1468,18 +1483,18 @@ sj_push(self) == /\ pc[self] = "sj_push"
                                  nspawned, palive, busy, busyLocked, inbox, 
                                  chanOpen, pfin, thrHeld, maxThreads, jkind, 
                                  jaw, fres, fwaker, gfired, gwaker, gthreads, 
-                                 dwSt, dwW, dblTaken, dblW1, dblW2, nextDW, 
-                                 ready, cwait, cnotif, cvHeld, sdres, jpanic, 
-                                 sfst, slotSt, qrSent, qrWaker, dnState, 
-                                 dnWaker, parkTok, rwb, rneed, dsl, atomic, 
-                                 strong, ppPending, ppClosed, ppNotify, ppNC, 
-                                 ppBP, ppDepth, ppAlive, ppHeld, inItems, 
+                                 gwhist, dwSt, dwW, dblTaken, dblW1, dblW2, 
+                                 nextDW, ready, cwait, cnotif, cvHeld, sdres, 
+                                 jpanic, sfst, slotSt, qrSent, qrWaker, 
+                                 dnState, dnWaker, parkTok, rwb, rneed, dsl, 
+                                 atomic, strong, ppPending, ppClosed, ppNotify, 
+                                 ppNC, ppBP, ppDepth, ppAlive, ppHeld, inItems, 
                                  inClosed, inWaker, pollFn, chuteFn, pwTaken, 
                                  nextPoll, ppItem, h, dead, sti, rq, ww, rsq, 
-                                 bown, bwk, bi, bcur, bw, jq, jj, jwk, fj, dq, 
-                                 dj, oq, oop, omode, oj, yq, yop, tq, top, af, 
-                                 wf, wop, sf, sctx, xf, cop, kj, pp, np, nbp, 
-                                 nres, dp, pf, pctx, pq, pj, pd, nq >>
+                                 bown, bwk, bi, bcur, bw, bsp, jq, jj, jwk, fj, 
+                                 dq, dj, oq, oop, omode, oj, yq, yop, tq, top, 
+                                 af, wf, wop, sf, sctx, xf, cop, kj, pp, np, 
+                                 nbp, nres, dp, pf, pctx, pq, pj, pd, nq >>
 
 sj_sched(self) == /\ pc[self] = "sj_sched"
                   /\ schedule' = Append(schedule, sq[self])
@@ -1495,19 +1510,19 @@ sj_sched(self) == /\ pc[self] = "sj_sched"
                                   nspawned, palive, busy, busyLocked, inbox, 
                                   chanOpen, pfin, thrHeld, maxThreads, jkind, 
                                   jaw, fres, fwaker, gfired, gwaker, gthreads, 
-                                  dwSt, dwW, dblTaken, dblW1, dblW2, nextDW, 
-                                  ready, cwait, cnotif, cvHeld, sdres, jpanic, 
-                                  sfst, slotSt, qrSent, qrWaker, dnState, 
-                                  dnWaker, parkTok, rv, rwb, rneed, dsl, 
-                                  atomic, strong, ppPending, ppClosed, 
+                                  gwhist, dwSt, dwW, dblTaken, dblW1, dblW2, 
+                                  nextDW, ready, cwait, cnotif, cvHeld, sdres, 
+                                  jpanic, sfst, slotSt, qrSent, qrWaker, 
+                                  dnState, dnWaker, parkTok, rv, rwb, rneed, 
+                                  dsl, atomic, strong, ppPending, ppClosed, 
                                   ppNotify, ppNC, ppBP, ppDepth, ppAlive, 
                                   ppHeld, inItems, inClosed, inWaker, pollFn, 
                                   chuteFn, pwTaken, nextPoll, ppItem, h, rq, 
-                                  sq, sj, ww, rsq, bown, bwk, bi, bcur, bw, jq, 
-                                  jj, jwk, fj, dq, dj, oq, oop, omode, oj, yq, 
-                                  yop, tq, top, af, wf, wop, sf, sctx, xf, cop, 
-                                  kj, pp, np, nbp, nres, dp, pf, pctx, pq, pj, 
-                                  pd, nq >>
+                                  sq, sj, ww, rsq, bown, bwk, bi, bcur, bw, 
+                                  bsp, jq, jj, jwk, fj, dq, dj, oq, oop, omode, 
+                                  oj, yq, yop, tq, top, af, wf, wop, sf, sctx, 
+                                  xf, cop, kj, pp, np, nbp, nres, dp, pf, pctx, 
+                                  pq, pj, pd, nq >>
 
 z_sj_ret(self) == /\ pc[self] = "z_sj_ret"
                   /\ rv' = [rv EXCEPT ![self] = 0]
@@ -1519,19 +1534,19 @@ z_sj_ret(self) == /\ pc[self] = "z_sj_ret"
                                   pthreads, nspawned, palive, busy, busyLocked, 
                                   inbox, chanOpen, pfin, thrHeld, maxThreads, 
                                   jkind, jaw, fres, fwaker, gfired, gwaker, 
-                                  gthreads, dwSt, dwW, dblTaken, dblW1, dblW2, 
-                                  nextDW, ready, cwait, cnotif, cvHeld, sdres, 
-                                  jpanic, sfst, slotSt, qrSent, qrWaker, 
+                                  gthreads, gwhist, dwSt, dwW, dblTaken, dblW1, 
+                                  dblW2, nextDW, ready, cwait, cnotif, cvHeld, 
+                                  sdres, jpanic, sfst, slotSt, qrSent, qrWaker, 
                                   dnState, dnWaker, parkTok, rwb, rneed, dsl, 
                                   atomic, strong, ppPending, ppClosed, 
                                   ppNotify, ppNC, ppBP, ppDepth, ppAlive, 
                                   ppHeld, inItems, inClosed, inWaker, pollFn, 
                                   chuteFn, pwTaken, nextPoll, ppItem, h, dead, 
                                   sti, rq, ww, rsq, bown, bwk, bi, bcur, bw, 
-                                  jq, jj, jwk, fj, dq, dj, oq, oop, omode, oj, 
-                                  yq, yop, tq, top, af, wf, wop, sf, sctx, xf, 
-                                  cop, kj, pp, np, nbp, nres, dp, pf, pctx, pq, 
-                                  pj, pd, nq >>
+                                  bsp, jq, jj, jwk, fj, dq, dj, oq, oop, omode, 
+                                  oj, yq, yop, tq, top, af, wf, wop, sf, sctx, 
+                                  xf, cop, kj, pp, np, nbp, nres, dp, pf, pctx, 
+                                  pq, pj, pd, nq >>
 
 ScheduleJob(self) == sj_push(self) \/ sj_sched(self) \/ z_sj_ret(self)
 
@@ -1654,18 +1669,18 @@ wk_lock(self) == /\ pc[self] = "wk_lock"
                  /\ UNCHANGED << qpoll, jobs, wakeBlocked, schedule, pthreads, 
                                  nspawned, palive, busy, busyLocked, inbox, 
                                  chanOpen, pfin, thrHeld, maxThreads, jaw, 
-                                 fres, fwaker, gfired, gwaker, gthreads, dblW1, 
-                                 dblW2, nextDW, ready, cwait, cnotif, cvHeld, 
-                                 sdres, jpanic, sfst, slotSt, qrSent, qrWaker, 
-                                 dnState, dnWaker, rv, rwb, rneed, dsl, atomic, 
-                                 ppPending, ppClosed, ppNotify, ppNC, ppBP, 
-                                 ppDepth, ppAlive, ppHeld, inItems, inClosed, 
-                                 inWaker, pollFn, chuteFn, ppItem, h, dead, 
-                                 sti, rsq, bown, bwk, bi, bcur, bw, jq, jj, 
-                                 jwk, fj, dq, dj, oq, oop, omode, oj, yq, yop, 
-                                 tq, top, af, wf, wop, sf, sctx, xf, cop, kj, 
-                                 pp, np, nbp, nres, dp, pf, pctx, pq, pj, pd, 
-                                 nq >>
+                                 fres, fwaker, gfired, gwaker, gthreads, 
+                                 gwhist, dblW1, dblW2, nextDW, ready, cwait, 
+                                 cnotif, cvHeld, sdres, jpanic, sfst, slotSt, 
+                                 qrSent, qrWaker, dnState, dnWaker, rv, rwb, 
+                                 rneed, dsl, atomic, ppPending, ppClosed, 
+                                 ppNotify, ppNC, ppBP, ppDepth, ppAlive, 
+                                 ppHeld, inItems, inClosed, inWaker, pollFn, 
+                                 chuteFn, ppItem, h, dead, sti, rsq, bown, bwk, 
+                                 bi, bcur, bw, bsp, jq, jj, jwk, fj, dq, dj, 
+                                 oq, oop, omode, oj, yq, yop, tq, top, af, wf, 
+                                 wop, sf, sctx, xf, cop, kj, pp, np, nbp, nres, 
+                                 dp, pf, pctx, pq, pj, pd, nq >>
 
 z_wk_second(self) == /\ pc[self] = "z_wk_second"
                      /\ IF IsLocking(dblW2[ww[self].d])
@@ -1680,8 +1695,8 @@ z_wk_second(self) == /\ pc[self] = "z_wk_second"
                                      schedule, pthreads, nspawned, palive, 
                                      busy, busyLocked, inbox, chanOpen, pfin, 
                                      thrHeld, maxThreads, jkind, jaw, fres, 
-                                     fwaker, gfired, gwaker, gthreads, dwSt, 
-                                     dwW, dblTaken, dblW1, dblW2, nextDW, 
+                                     fwaker, gfired, gwaker, gthreads, gwhist, 
+                                     dwSt, dwW, dblTaken, dblW1, dblW2, nextDW, 
                                      ready, cwait, cnotif, cvHeld, sdres, 
                                      jpanic, sfst, slotSt, qrSent, qrWaker, 
                                      dnState, dnWaker, rv, rwb, rneed, dsl, 
@@ -1690,11 +1705,11 @@ z_wk_second(self) == /\ pc[self] = "z_wk_second"
                                      ppHeld, inItems, inClosed, inWaker, 
                                      pollFn, chuteFn, pwTaken, nextPoll, 
                                      ppItem, h, dead, sti, rq, sq, sj, rsq, 
-                                     bown, bwk, bi, bcur, bw, jq, jj, jwk, fj, 
-                                     dq, dj, oq, oop, omode, oj, yq, yop, tq, 
-                                     top, af, wf, wop, sf, sctx, xf, cop, kj, 
-                                     pp, np, nbp, nres, dp, pf, pctx, pq, pj, 
-                                     pd, nq >>
+                                     bown, bwk, bi, bcur, bw, bsp, jq, jj, jwk, 
+                                     fj, dq, dj, oq, oop, omode, oj, yq, yop, 
+                                     tq, top, af, wf, wop, sf, sctx, xf, cop, 
+                                     kj, pp, np, nbp, nres, dp, pf, pctx, pq, 
+                                     pj, pd, nq >>
 
 z_pw_after(self) == /\ pc[self] = "z_pw_after"
                     /\ strong' = [strong EXCEPT ![O(ww[self].d)] = strong[O(ww[self].d)] - 1]
@@ -1716,8 +1731,8 @@ z_pw_after(self) == /\ pc[self] = "z_pw_after"
                                     pthreads, nspawned, palive, busy, 
                                     busyLocked, inbox, chanOpen, pfin, thrHeld, 
                                     maxThreads, jkind, jaw, fres, fwaker, 
-                                    gfired, gwaker, gthreads, dwSt, dwW, 
-                                    dblTaken, dblW1, dblW2, nextDW, ready, 
+                                    gfired, gwaker, gthreads, gwhist, dwSt, 
+                                    dwW, dblTaken, dblW1, dblW2, nextDW, ready, 
                                     cwait, cnotif, cvHeld, sdres, jpanic, sfst, 
                                     slotSt, qrSent, qrWaker, dnState, dnWaker, 
                                     parkTok, rv, rwb, rneed, dsl, atomic, 
@@ -1726,10 +1741,10 @@ z_pw_after(self) == /\ pc[self] = "z_pw_after"
                                     inClosed, inWaker, pollFn, chuteFn, 
                                     pwTaken, nextPoll, ppItem, h, dead, sti, 
                                     rq, sq, sj, rsq, bown, bwk, bi, bcur, bw, 
-                                    jq, jj, jwk, fj, dq, dj, oq, oop, omode, 
-                                    oj, tq, top, af, wf, wop, sf, sctx, xf, 
-                                    cop, kj, pp, np, nbp, nres, dp, pf, pctx, 
-                                    pq, pj, pd, nq >>
+                                    bsp, jq, jj, jwk, fj, dq, dj, oq, oop, 
+                                    omode, oj, tq, top, af, wf, wop, sf, sctx, 
+                                    xf, cop, kj, pp, np, nbp, nres, dp, pf, 
+                                    pctx, pq, pj, pd, nq >>
 
 pw_take(self) == /\ pc[self] = "pw_take"
                  /\ chuteFn' = [chuteFn EXCEPT ![OpTab[ww[self].d].p] = pollFn[OpTab[ww[self].d].p]]
@@ -1747,18 +1762,18 @@ pw_take(self) == /\ pc[self] = "pw_take"
                                  pthreads, nspawned, palive, busy, busyLocked, 
                                  inbox, chanOpen, pfin, thrHeld, maxThreads, 
                                  jaw, fres, fwaker, gfired, gwaker, gthreads, 
-                                 dwSt, dwW, dblTaken, dblW1, dblW2, nextDW, 
-                                 ready, cwait, cnotif, cvHeld, sdres, jpanic, 
-                                 sfst, slotSt, qrSent, qrWaker, dnState, 
-                                 dnWaker, parkTok, rv, rwb, rneed, dsl, atomic, 
-                                 strong, ppPending, ppClosed, ppNotify, ppNC, 
-                                 ppBP, ppDepth, ppAlive, ppHeld, inItems, 
-                                 inClosed, inWaker, pwTaken, nextPoll, ppItem, 
-                                 h, dead, sti, rq, ww, rsq, bown, bwk, bi, 
-                                 bcur, bw, jq, jj, jwk, fj, dq, dj, oq, oop, 
-                                 omode, oj, yq, yop, tq, top, af, wf, wop, sf, 
-                                 sctx, xf, cop, kj, pp, np, nbp, nres, dp, pf, 
-                                 pctx, pq, pj, pd, nq >>
+                                 gwhist, dwSt, dwW, dblTaken, dblW1, dblW2, 
+                                 nextDW, ready, cwait, cnotif, cvHeld, sdres, 
+                                 jpanic, sfst, slotSt, qrSent, qrWaker, 
+                                 dnState, dnWaker, parkTok, rv, rwb, rneed, 
+                                 dsl, atomic, strong, ppPending, ppClosed, 
+                                 ppNotify, ppNC, ppBP, ppDepth, ppAlive, 
+                                 ppHeld, inItems, inClosed, inWaker, pwTaken, 
+                                 nextPoll, ppItem, h, dead, sti, rq, ww, rsq, 
+                                 bown, bwk, bi, bcur, bw, bsp, jq, jj, jwk, fj, 
+                                 dq, dj, oq, oop, omode, oj, yq, yop, tq, top, 
+                                 af, wf, wop, sf, sctx, xf, cop, kj, pp, np, 
+                                 nbp, nres, dp, pf, pctx, pq, pj, pd, nq >>
 
 z_wk_ret(self) == /\ pc[self] = "z_wk_ret"
                   /\ pc' = [pc EXCEPT ![self] = Head(stack[self]).pc]
@@ -1768,19 +1783,19 @@ z_wk_ret(self) == /\ pc[self] = "z_wk_ret"
                                   pthreads, nspawned, palive, busy, busyLocked, 
                                   inbox, chanOpen, pfin, thrHeld, maxThreads, 
                                   jkind, jaw, fres, fwaker, gfired, gwaker, 
-                                  gthreads, dwSt, dwW, dblTaken, dblW1, dblW2, 
-                                  nextDW, ready, cwait, cnotif, cvHeld, sdres, 
-                                  jpanic, sfst, slotSt, qrSent, qrWaker, 
+                                  gthreads, gwhist, dwSt, dwW, dblTaken, dblW1, 
+                                  dblW2, nextDW, ready, cwait, cnotif, cvHeld, 
+                                  sdres, jpanic, sfst, slotSt, qrSent, qrWaker, 
                                   dnState, dnWaker, parkTok, rv, rwb, rneed, 
                                   dsl, atomic, strong, ppPending, ppClosed, 
                                   ppNotify, ppNC, ppBP, ppDepth, ppAlive, 
                                   ppHeld, inItems, inClosed, inWaker, pollFn, 
                                   chuteFn, pwTaken, nextPoll, ppItem, h, dead, 
                                   sti, rq, sq, sj, rsq, bown, bwk, bi, bcur, 
-                                  bw, jq, jj, jwk, fj, dq, dj, oq, oop, omode, 
-                                  oj, yq, yop, tq, top, af, wf, wop, sf, sctx, 
-                                  xf, cop, kj, pp, np, nbp, nres, dp, pf, pctx, 
-                                  pq, pj, pd, nq >>
+                                  bw, bsp, jq, jj, jwk, fj, dq, dj, oq, oop, 
+                                  omode, oj, yq, yop, tq, top, af, wf, wop, sf, 
+                                  sctx, xf, cop, kj, pp, np, nbp, nres, dp, pf, 
+                                  pctx, pq, pj, pd, nq >>
 
 Wake(self) == wk_lock(self) \/ z_wk_second(self) \/ z_pw_after(self)
                  \/ pw_take(self) \/ z_wk_ret(self)
@@ -1807,19 +1822,19 @@ rb_step(self) == /\ pc[self] = "rb_step"
                                  pthreads, nspawned, palive, busy, busyLocked, 
                                  inbox, chanOpen, pfin, thrHeld, maxThreads, 
                                  jkind, jaw, fres, fwaker, gfired, gwaker, 
-                                 gthreads, dwSt, dwW, dblTaken, dblW1, dblW2, 
-                                 nextDW, ready, cwait, cnotif, cvHeld, sdres, 
-                                 jpanic, sfst, slotSt, qrSent, qrWaker, 
+                                 gthreads, gwhist, dwSt, dwW, dblTaken, dblW1, 
+                                 dblW2, nextDW, ready, cwait, cnotif, cvHeld, 
+                                 sdres, jpanic, sfst, slotSt, qrSent, qrWaker, 
                                  dnState, dnWaker, parkTok, rv, rwb, rneed, 
                                  dsl, atomic, strong, ppPending, ppClosed, 
                                  ppNotify, ppNC, ppBP, ppDepth, ppAlive, 
                                  ppHeld, inItems, inClosed, inWaker, pollFn, 
                                  chuteFn, pwTaken, nextPoll, ppItem, stack, 
                                  dead, sti, rq, sq, sj, ww, rsq, bown, bwk, bw, 
-                                 jq, jj, jwk, fj, dq, dj, oq, oop, omode, oj, 
-                                 yq, yop, tq, top, af, wf, wop, sf, sctx, xf, 
-                                 cop, kj, pp, np, nbp, nres, dp, pf, pctx, pq, 
-                                 pj, pd, nq >>
+                                 bsp, jq, jj, jwk, fj, dq, dj, oq, oop, omode, 
+                                 oj, yq, yop, tq, top, af, wf, wop, sf, sctx, 
+                                 xf, cop, kj, pp, np, nbp, nres, dp, pf, pctx, 
+                                 pq, pj, pd, nq >>
 
 z_finish(self) == /\ pc[self] = "z_finish"
                   /\ IF bown[self] = 0
@@ -1827,19 +1842,20 @@ z_finish(self) == /\ pc[self] = "z_finish"
                              /\ bi' = [bi EXCEPT ![self] = Head(stack[self]).bi]
                              /\ bcur' = [bcur EXCEPT ![self] = Head(stack[self]).bcur]
                              /\ bw' = [bw EXCEPT ![self] = Head(stack[self]).bw]
+                             /\ bsp' = [bsp EXCEPT ![self] = Head(stack[self]).bsp]
                              /\ rsq' = [rsq EXCEPT ![self] = Head(stack[self]).rsq]
                              /\ bown' = [bown EXCEPT ![self] = Head(stack[self]).bown]
                              /\ bwk' = [bwk EXCEPT ![self] = Head(stack[self]).bwk]
                              /\ stack' = [stack EXCEPT ![self] = Tail(stack[self])]
-                             /\ UNCHANGED << jaw, gwaker, gthreads, sdres, 
-                                             jpanic, rv, h >>
+                             /\ UNCHANGED << jaw, gwaker, gthreads, gwhist, 
+                                             sdres, jpanic, rv, h >>
                         ELSE /\ IF OpTab[bown[self]].block # 0 /\ OpTab[bown[self]].block \notin gfired
                                    THEN /\ gthreads' = [gthreads EXCEPT ![OpTab[bown[self]].block] = gthreads[OpTab[bown[self]].block] \cup {self}]
                                         /\ pc' = [pc EXCEPT ![self] = "rb_block"]
-                                        /\ UNCHANGED << jaw, gwaker, sdres, 
-                                                        jpanic, rv, h, stack, 
-                                                        rsq, bown, bwk, bi, 
-                                                        bcur, bw >>
+                                        /\ UNCHANGED << jaw, gwaker, gwhist, 
+                                                        sdres, jpanic, rv, h, 
+                                                        stack, rsq, bown, bwk, 
+                                                        bi, bcur, bw, bsp >>
                                    ELSE /\ IF jaw[bown[self]] < Len(Aw(bown[self]))
                                               THEN /\ LET k == jaw[bown[self]] + 1 IN
                                                         /\ jaw' = [jaw EXCEPT ![bown[self]] = k]
@@ -1847,19 +1863,23 @@ z_finish(self) == /\ pc[self] = "z_finish"
                                                               THEN /\ bi' = [bi EXCEPT ![self] = Len(rsq[self]) + 1]
                                                                    /\ pc' = [pc EXCEPT ![self] = "rb_step"]
                                                                    /\ UNCHANGED << gwaker, 
+                                                                                   gwhist, 
                                                                                    rv, 
                                                                                    stack, 
                                                                                    rsq, 
                                                                                    bown, 
                                                                                    bwk, 
                                                                                    bcur, 
-                                                                                   bw >>
+                                                                                   bw, 
+                                                                                   bsp >>
                                                               ELSE /\ gwaker' = [gwaker EXCEPT ![Aw(bown[self])[k]] = bwk[self]]
+                                                                   /\ gwhist' = [gwhist EXCEPT ![Aw(bown[self])[k]] = Append(gwhist[Aw(bown[self])[k]], bwk[self])]
                                                                    /\ rv' = [rv EXCEPT ![self] = 5]
                                                                    /\ pc' = [pc EXCEPT ![self] = Head(stack[self]).pc]
                                                                    /\ bi' = [bi EXCEPT ![self] = Head(stack[self]).bi]
                                                                    /\ bcur' = [bcur EXCEPT ![self] = Head(stack[self]).bcur]
                                                                    /\ bw' = [bw EXCEPT ![self] = Head(stack[self]).bw]
+                                                                   /\ bsp' = [bsp EXCEPT ![self] = Head(stack[self]).bsp]
                                                                    /\ rsq' = [rsq EXCEPT ![self] = Head(stack[self]).rsq]
                                                                    /\ bown' = [bown EXCEPT ![self] = Head(stack[self]).bown]
                                                                    /\ bwk' = [bwk EXCEPT ![self] = Head(stack[self]).bwk]
@@ -1874,6 +1894,7 @@ z_finish(self) == /\ pc[self] = "z_finish"
                                                               /\ bi' = [bi EXCEPT ![self] = Head(stack[self]).bi]
                                                               /\ bcur' = [bcur EXCEPT ![self] = Head(stack[self]).bcur]
                                                               /\ bw' = [bw EXCEPT ![self] = Head(stack[self]).bw]
+                                                              /\ bsp' = [bsp EXCEPT ![self] = Head(stack[self]).bsp]
                                                               /\ rsq' = [rsq EXCEPT ![self] = Head(stack[self]).rsq]
                                                               /\ bown' = [bown EXCEPT ![self] = Head(stack[self]).bown]
                                                               /\ bwk' = [bwk EXCEPT ![self] = Head(stack[self]).bwk]
@@ -1889,12 +1910,14 @@ z_finish(self) == /\ pc[self] = "z_finish"
                                                               /\ bi' = [bi EXCEPT ![self] = Head(stack[self]).bi]
                                                               /\ bcur' = [bcur EXCEPT ![self] = Head(stack[self]).bcur]
                                                               /\ bw' = [bw EXCEPT ![self] = Head(stack[self]).bw]
+                                                              /\ bsp' = [bsp EXCEPT ![self] = Head(stack[self]).bsp]
                                                               /\ rsq' = [rsq EXCEPT ![self] = Head(stack[self]).rsq]
                                                               /\ bown' = [bown EXCEPT ![self] = Head(stack[self]).bown]
                                                               /\ bwk' = [bwk EXCEPT ![self] = Head(stack[self]).bwk]
                                                               /\ stack' = [stack EXCEPT ![self] = Tail(stack[self])]
                                                               /\ UNCHANGED jpanic
-                                                   /\ UNCHANGED << jaw, gwaker >>
+                                                   /\ UNCHANGED << jaw, gwaker, 
+                                                                   gwhist >>
                                         /\ UNCHANGED gthreads
                   /\ UNCHANGED << qstate, qpoll, jobs, wakeBlocked, schedule, 
                                   pthreads, nspawned, palive, busy, busyLocked, 
@@ -1942,18 +1965,18 @@ z_pollaw(self) == /\ pc[self] = "z_pollaw"
                                   pthreads, nspawned, palive, busy, busyLocked, 
                                   inbox, chanOpen, pfin, thrHeld, maxThreads, 
                                   jkind, jaw, fres, fwaker, gfired, gwaker, 
-                                  gthreads, dwSt, dwW, dblTaken, dblW1, dblW2, 
-                                  nextDW, ready, cwait, cnotif, cvHeld, sdres, 
-                                  jpanic, sfst, slotSt, qrSent, qrWaker, 
+                                  gthreads, gwhist, dwSt, dwW, dblTaken, dblW1, 
+                                  dblW2, nextDW, ready, cwait, cnotif, cvHeld, 
+                                  sdres, jpanic, sfst, slotSt, qrSent, qrWaker, 
                                   dnState, dnWaker, parkTok, rv, rwb, rneed, 
                                   dsl, atomic, strong, ppPending, ppClosed, 
                                   ppNotify, ppNC, ppBP, ppDepth, ppAlive, 
                                   ppHeld, inItems, inClosed, inWaker, pollFn, 
                                   chuteFn, pwTaken, nextPoll, ppItem, h, dead, 
                                   sti, rq, sq, sj, ww, rsq, bown, bwk, bi, 
-                                  bcur, bw, jq, jj, jwk, fj, dq, dj, oq, oop, 
-                                  omode, oj, yq, yop, tq, top, af, wf, wop, xf, 
-                                  cop, kj, pp, np, nbp, nres, dp, nq >>
+                                  bcur, bw, bsp, jq, jj, jwk, fj, dq, dj, oq, 
+                                  oop, omode, oj, yq, yop, tq, top, af, wf, 
+                                  wop, xf, cop, kj, pp, np, nbp, nres, dp, nq >>
 
 z_pollaw_after(self) == /\ pc[self] = "z_pollaw_after"
                         /\ IF rv[self] = 5
@@ -1961,6 +1984,7 @@ z_pollaw_after(self) == /\ pc[self] = "z_pollaw_after"
                                    /\ bi' = [bi EXCEPT ![self] = Head(stack[self]).bi]
                                    /\ bcur' = [bcur EXCEPT ![self] = Head(stack[self]).bcur]
                                    /\ bw' = [bw EXCEPT ![self] = Head(stack[self]).bw]
+                                   /\ bsp' = [bsp EXCEPT ![self] = Head(stack[self]).bsp]
                                    /\ rsq' = [rsq EXCEPT ![self] = Head(stack[self]).rsq]
                                    /\ bown' = [bown EXCEPT ![self] = Head(stack[self]).bown]
                                    /\ bwk' = [bwk EXCEPT ![self] = Head(stack[self]).bwk]
@@ -1972,19 +1996,19 @@ z_pollaw_after(self) == /\ pc[self] = "z_pollaw_after"
                                          ELSE /\ pc' = [pc EXCEPT ![self] = "z_finish"]
                                               /\ h' = h
                                    /\ UNCHANGED << stack, rsq, bown, bwk, bi, 
-                                                   bcur, bw >>
+                                                   bcur, bw, bsp >>
                         /\ UNCHANGED << qstate, qpoll, jobs, wakeBlocked, 
                                         schedule, pthreads, nspawned, palive, 
                                         busy, busyLocked, inbox, chanOpen, 
                                         pfin, thrHeld, maxThreads, jkind, jaw, 
                                         fres, fwaker, gfired, gwaker, gthreads, 
-                                        dwSt, dwW, dblTaken, dblW1, dblW2, 
-                                        nextDW, ready, cwait, cnotif, cvHeld, 
-                                        sdres, jpanic, sfst, slotSt, qrSent, 
-                                        qrWaker, dnState, dnWaker, parkTok, rv, 
-                                        rwb, rneed, dsl, atomic, strong, 
-                                        ppPending, ppClosed, ppNotify, ppNC, 
-                                        ppBP, ppDepth, ppAlive, ppHeld, 
+                                        gwhist, dwSt, dwW, dblTaken, dblW1, 
+                                        dblW2, nextDW, ready, cwait, cnotif, 
+                                        cvHeld, sdres, jpanic, sfst, slotSt, 
+                                        qrSent, qrWaker, dnState, dnWaker, 
+                                        parkTok, rv, rwb, rneed, dsl, atomic, 
+                                        strong, ppPending, ppClosed, ppNotify, 
+                                        ppNC, ppBP, ppDepth, ppAlive, ppHeld, 
                                         inItems, inClosed, inWaker, pollFn, 
                                         chuteFn, pwTaken, nextPoll, ppItem, 
                                         dead, sti, rq, sq, sj, ww, jq, jj, jwk, 
@@ -2001,17 +2025,17 @@ rb_block(self) == /\ pc[self] = "rb_block"
                                   pthreads, nspawned, palive, busy, busyLocked, 
                                   inbox, chanOpen, pfin, thrHeld, maxThreads, 
                                   jkind, jaw, fres, fwaker, gfired, gwaker, 
-                                  gthreads, dwSt, dwW, dblTaken, dblW1, dblW2, 
-                                  nextDW, ready, cwait, cnotif, cvHeld, sdres, 
-                                  jpanic, sfst, slotSt, qrSent, qrWaker, 
+                                  gthreads, gwhist, dwSt, dwW, dblTaken, dblW1, 
+                                  dblW2, nextDW, ready, cwait, cnotif, cvHeld, 
+                                  sdres, jpanic, sfst, slotSt, qrSent, qrWaker, 
                                   dnState, dnWaker, rv, rwb, rneed, dsl, 
                                   atomic, strong, ppPending, ppClosed, 
                                   ppNotify, ppNC, ppBP, ppDepth, ppAlive, 
                                   ppHeld, inItems, inClosed, inWaker, pollFn, 
                                   chuteFn, pwTaken, nextPoll, ppItem, h, stack, 
                                   dead, sti, rq, sq, sj, ww, rsq, bown, bwk, 
-                                  bi, bcur, bw, jq, jj, jwk, fj, dq, dj, oq, 
-                                  oop, omode, oj, yq, yop, tq, top, af, wf, 
+                                  bi, bcur, bw, bsp, jq, jj, jwk, fj, dq, dj, 
+                                  oq, oop, omode, oj, yq, yop, tq, top, af, wf, 
                                   wop, sf, sctx, xf, cop, kj, pp, np, nbp, 
                                   nres, dp, pf, pctx, pq, pj, pd, nq >>
 
@@ -2029,8 +2053,8 @@ z_dispatch(self) == /\ pc[self] = "z_dispatch"
                                /\ UNCHANGED << gfired, gwaker, gthreads, 
                                                parkTok, rv, strong, inItems, 
                                                inClosed, inWaker, h, ww, bw, 
-                                               yq, yop, tq, top, af, wf, wop, 
-                                               sf, sctx, xf, cop, np, nbp, 
+                                               bsp, yq, yop, tq, top, af, wf, 
+                                               wop, sf, sctx, xf, cop, np, nbp, 
                                                nres, dp, pf, pctx, pq, pj, pd >>
                           ELSE /\ IF K(bcur[self]) = "sync"
                                      THEN /\ /\ stack' = [stack EXCEPT ![self] = << [ procedure |->  "Sync",
@@ -2046,11 +2070,11 @@ z_dispatch(self) == /\ pc[self] = "z_dispatch"
                                                           parkTok, rv, strong, 
                                                           inItems, inClosed, 
                                                           inWaker, h, sq, sj, 
-                                                          ww, bw, tq, top, af, 
-                                                          wf, wop, sf, sctx, 
-                                                          xf, cop, np, nbp, 
-                                                          nres, dp, pf, pctx, 
-                                                          pq, pj, pd >>
+                                                          ww, bw, bsp, tq, top, 
+                                                          af, wf, wop, sf, 
+                                                          sctx, xf, cop, np, 
+                                                          nbp, nres, dp, pf, 
+                                                          pctx, pq, pj, pd >>
                                      ELSE /\ IF K(bcur[self]) = "drop_obj"
                                                 THEN /\ strong' = [strong EXCEPT ![O(bcur[self])] = strong[O(bcur[self])] - 1]
                                                      /\ IF strong'[O(bcur[self])] = 1 - 1
@@ -2078,15 +2102,16 @@ z_dispatch(self) == /\ pc[self] = "z_dispatch"
                                                                      inWaker, 
                                                                      h, sq, sj, 
                                                                      ww, bw, 
-                                                                     tq, top, 
-                                                                     af, wf, 
-                                                                     wop, sf, 
-                                                                     sctx, xf, 
-                                                                     cop, np, 
-                                                                     nbp, nres, 
-                                                                     dp, pf, 
-                                                                     pctx, pq, 
-                                                                     pj, pd >>
+                                                                     bsp, tq, 
+                                                                     top, af, 
+                                                                     wf, wop, 
+                                                                     sf, sctx, 
+                                                                     xf, cop, 
+                                                                     np, nbp, 
+                                                                     nres, dp, 
+                                                                     pf, pctx, 
+                                                                     pq, pj, 
+                                                                     pd >>
                                                 ELSE /\ IF K(bcur[self]) \in {"pipe", "pipe_in"}
                                                            THEN /\ /\ cop' = [cop EXCEPT ![self] = bcur[self]]
                                                                    /\ stack' = [stack EXCEPT ![self] = << [ procedure |->  "PipeCreate",
@@ -2108,6 +2133,7 @@ z_dispatch(self) == /\ pc[self] = "z_dispatch"
                                                                                 sj, 
                                                                                 ww, 
                                                                                 bw, 
+                                                                                bsp, 
                                                                                 tq, 
                                                                                 top, 
                                                                                 af, 
@@ -2152,6 +2178,7 @@ z_dispatch(self) == /\ pc[self] = "z_dispatch"
                                                                                            parkTok, 
                                                                                            sq, 
                                                                                            sj, 
+                                                                                           bsp, 
                                                                                            tq, 
                                                                                            top, 
                                                                                            af, 
@@ -2191,6 +2218,7 @@ z_dispatch(self) == /\ pc[self] = "z_dispatch"
                                                                                                       sj, 
                                                                                                       ww, 
                                                                                                       bw, 
+                                                                                                      bsp, 
                                                                                                       tq, 
                                                                                                       top, 
                                                                                                       af, 
@@ -2223,6 +2251,7 @@ z_dispatch(self) == /\ pc[self] = "z_dispatch"
                                                                                                                  sj, 
                                                                                                                  ww, 
                                                                                                                  bw, 
+                                                                                                                 bsp, 
                                                                                                                  tq, 
                                                                                                                  top, 
                                                                                                                  af, 
@@ -2250,6 +2279,7 @@ z_dispatch(self) == /\ pc[self] = "z_dispatch"
                                                                                                                             sj, 
                                                                                                                             ww, 
                                                                                                                             bw, 
+                                                                                                                            bsp, 
                                                                                                                             tq, 
                                                                                                                             top, 
                                                                                                                             af, 
@@ -2283,6 +2313,7 @@ z_dispatch(self) == /\ pc[self] = "z_dispatch"
                                                                                                                                        sj, 
                                                                                                                                        ww, 
                                                                                                                                        bw, 
+                                                                                                                                       bsp, 
                                                                                                                                        af, 
                                                                                                                                        wf, 
                                                                                                                                        wop, 
@@ -2312,6 +2343,7 @@ z_dispatch(self) == /\ pc[self] = "z_dispatch"
                                                                                                                                                   h, 
                                                                                                                                                   ww, 
                                                                                                                                                   bw, 
+                                                                                                                                                  bsp, 
                                                                                                                                                   af, 
                                                                                                                                                   wf, 
                                                                                                                                                   wop, 
@@ -2341,6 +2373,7 @@ z_dispatch(self) == /\ pc[self] = "z_dispatch"
                                                                                                                                                              h, 
                                                                                                                                                              ww, 
                                                                                                                                                              bw, 
+                                                                                                                                                             bsp, 
                                                                                                                                                              af, 
                                                                                                                                                              wf, 
                                                                                                                                                              wop, 
@@ -2370,6 +2403,7 @@ z_dispatch(self) == /\ pc[self] = "z_dispatch"
                                                                                                                                                                         h, 
                                                                                                                                                                         ww, 
                                                                                                                                                                         bw, 
+                                                                                                                                                                        bsp, 
                                                                                                                                                                         af, 
                                                                                                                                                                         wf, 
                                                                                                                                                                         wop, 
@@ -2396,6 +2430,7 @@ z_dispatch(self) == /\ pc[self] = "z_dispatch"
                                                                                                                                                                                    h, 
                                                                                                                                                                                    ww, 
                                                                                                                                                                                    bw, 
+                                                                                                                                                                                   bsp, 
                                                                                                                                                                                    af, 
                                                                                                                                                                                    wf, 
                                                                                                                                                                                    wop, 
@@ -2424,6 +2459,7 @@ z_dispatch(self) == /\ pc[self] = "z_dispatch"
                                                                                                                                                                                          /\ UNCHANGED << stack, 
                                                                                                                                                                                                          ww >>
                                                                                                                                                                               /\ UNCHANGED << gthreads, 
+                                                                                                                                                                                              bsp, 
                                                                                                                                                                                               af, 
                                                                                                                                                                                               wf, 
                                                                                                                                                                                               wop, 
@@ -2443,6 +2479,7 @@ z_dispatch(self) == /\ pc[self] = "z_dispatch"
                                                                                                                                                                                          /\ pc' = [pc EXCEPT ![self] = "z_aw_poll"]
                                                                                                                                                                                          /\ UNCHANGED << gthreads, 
                                                                                                                                                                                                          rv, 
+                                                                                                                                                                                                         bsp, 
                                                                                                                                                                                                          wf, 
                                                                                                                                                                                                          wop, 
                                                                                                                                                                                                          sf, 
@@ -2485,6 +2522,7 @@ z_dispatch(self) == /\ pc[self] = "z_dispatch"
                                                                                                                                                                                                                                sctx >>
                                                                                                                                                                                                     /\ UNCHANGED << gthreads, 
                                                                                                                                                                                                                     rv, 
+                                                                                                                                                                                                                    bsp, 
                                                                                                                                                                                                                     wf, 
                                                                                                                                                                                                                     wop >>
                                                                                                                                                                                                ELSE /\ IF K(bcur[self]) = "wait_sync"
@@ -2497,29 +2535,37 @@ z_dispatch(self) == /\ pc[self] = "z_dispatch"
                                                                                                                                                                                                                   /\ wop' = [wop EXCEPT ![self] = bcur[self]]
                                                                                                                                                                                                                /\ pc' = [pc EXCEPT ![self] = "fs_take"]
                                                                                                                                                                                                                /\ UNCHANGED << gthreads, 
-                                                                                                                                                                                                                               rv >>
-                                                                                                                                                                                                          ELSE /\ IF K(bcur[self]) = "block_on"
-                                                                                                                                                                                                                     THEN /\ rv' = [rv EXCEPT ![self] = 0]
-                                                                                                                                                                                                                          /\ IF OpTab[bcur[self]].g \in gfired
-                                                                                                                                                                                                                                THEN /\ pc' = [pc EXCEPT ![self] = "rb_step"]
+                                                                                                                                                                                                                               rv, 
+                                                                                                                                                                                                                               bsp >>
+                                                                                                                                                                                                          ELSE /\ IF K(bcur[self]) = "spur"
+                                                                                                                                                                                                                     THEN /\ bsp' = [bsp EXCEPT ![self] = gwhist[OpTab[bcur[self]].g]]
+                                                                                                                                                                                                                          /\ rv' = [rv EXCEPT ![self] = 0]
+                                                                                                                                                                                                                          /\ pc' = [pc EXCEPT ![self] = "z_spur"]
+                                                                                                                                                                                                                          /\ UNCHANGED << gthreads, 
+                                                                                                                                                                                                                                          stack >>
+                                                                                                                                                                                                                     ELSE /\ IF K(bcur[self]) = "block_on"
+                                                                                                                                                                                                                                THEN /\ rv' = [rv EXCEPT ![self] = 0]
+                                                                                                                                                                                                                                     /\ IF OpTab[bcur[self]].g \in gfired
+                                                                                                                                                                                                                                           THEN /\ pc' = [pc EXCEPT ![self] = "rb_step"]
+                                                                                                                                                                                                                                                /\ UNCHANGED gthreads
+                                                                                                                                                                                                                                           ELSE /\ gthreads' = [gthreads EXCEPT ![OpTab[bcur[self]].g] = gthreads[OpTab[bcur[self]].g] \cup {self}]
+                                                                                                                                                                                                                                                /\ pc' = [pc EXCEPT ![self] = "rb_wait"]
+                                                                                                                                                                                                                                     /\ stack' = stack
+                                                                                                                                                                                                                                ELSE /\ IF K(bcur[self]) = "set_max"
+                                                                                                                                                                                                                                           THEN /\ pc' = [pc EXCEPT ![self] = "mx_set"]
+                                                                                                                                                                                                                                                /\ UNCHANGED << rv, 
+                                                                                                                                                                                                                                                                stack >>
+                                                                                                                                                                                                                                           ELSE /\ IF K(bcur[self]) = "despawn"
+                                                                                                                                                                                                                                                      THEN /\ stack' = [stack EXCEPT ![self] = << [ procedure |->  "Despawn",
+                                                                                                                                                                                                                                                                                                    pc        |->  "rb_step" ] >>
+                                                                                                                                                                                                                                                                                                \o stack[self]]
+                                                                                                                                                                                                                                                           /\ pc' = [pc EXCEPT ![self] = "ds_max"]
+                                                                                                                                                                                                                                                           /\ rv' = rv
+                                                                                                                                                                                                                                                      ELSE /\ rv' = [rv EXCEPT ![self] = 0]
+                                                                                                                                                                                                                                                           /\ pc' = [pc EXCEPT ![self] = "rb_step"]
+                                                                                                                                                                                                                                                           /\ stack' = stack
                                                                                                                                                                                                                                      /\ UNCHANGED gthreads
-                                                                                                                                                                                                                                ELSE /\ gthreads' = [gthreads EXCEPT ![OpTab[bcur[self]].g] = gthreads[OpTab[bcur[self]].g] \cup {self}]
-                                                                                                                                                                                                                                     /\ pc' = [pc EXCEPT ![self] = "rb_wait"]
-                                                                                                                                                                                                                          /\ stack' = stack
-                                                                                                                                                                                                                     ELSE /\ IF K(bcur[self]) = "set_max"
-                                                                                                                                                                                                                                THEN /\ pc' = [pc EXCEPT ![self] = "mx_set"]
-                                                                                                                                                                                                                                     /\ UNCHANGED << rv, 
-                                                                                                                                                                                                                                                     stack >>
-                                                                                                                                                                                                                                ELSE /\ IF K(bcur[self]) = "despawn"
-                                                                                                                                                                                                                                           THEN /\ stack' = [stack EXCEPT ![self] = << [ procedure |->  "Despawn",
-                                                                                                                                                                                                                                                                                         pc        |->  "rb_step" ] >>
-                                                                                                                                                                                                                                                                                     \o stack[self]]
-                                                                                                                                                                                                                                                /\ pc' = [pc EXCEPT ![self] = "ds_max"]
-                                                                                                                                                                                                                                                /\ rv' = rv
-                                                                                                                                                                                                                                           ELSE /\ rv' = [rv EXCEPT ![self] = 0]
-                                                                                                                                                                                                                                                /\ pc' = [pc EXCEPT ![self] = "rb_step"]
-                                                                                                                                                                                                                                                /\ stack' = stack
-                                                                                                                                                                                                                          /\ UNCHANGED gthreads
+                                                                                                                                                                                                                          /\ bsp' = bsp
                                                                                                                                                                                                                /\ UNCHANGED << wf, 
                                                                                                                                                                                                                                wop >>
                                                                                                                                                                                                     /\ UNCHANGED << sf, 
@@ -2555,16 +2601,16 @@ z_dispatch(self) == /\ pc[self] = "z_dispatch"
                     /\ UNCHANGED << qstate, qpoll, jobs, wakeBlocked, schedule, 
                                     pthreads, nspawned, palive, busy, 
                                     busyLocked, inbox, chanOpen, pfin, thrHeld, 
-                                    maxThreads, jaw, fres, fwaker, dwSt, dwW, 
-                                    dblTaken, dblW1, dblW2, nextDW, ready, 
-                                    cwait, cnotif, cvHeld, sdres, jpanic, sfst, 
-                                    slotSt, qrSent, qrWaker, dnState, dnWaker, 
-                                    rwb, rneed, dsl, atomic, ppPending, 
-                                    ppClosed, ppNotify, ppNC, ppBP, ppDepth, 
-                                    ppAlive, ppHeld, pollFn, chuteFn, pwTaken, 
-                                    nextPoll, ppItem, dead, sti, rq, rsq, bown, 
-                                    bwk, bi, bcur, jq, jj, jwk, fj, dq, dj, oq, 
-                                    oop, omode, oj, kj, pp, nq >>
+                                    maxThreads, jaw, fres, fwaker, gwhist, 
+                                    dwSt, dwW, dblTaken, dblW1, dblW2, nextDW, 
+                                    ready, cwait, cnotif, cvHeld, sdres, 
+                                    jpanic, sfst, slotSt, qrSent, qrWaker, 
+                                    dnState, dnWaker, rwb, rneed, dsl, atomic, 
+                                    ppPending, ppClosed, ppNotify, ppNC, ppBP, 
+                                    ppDepth, ppAlive, ppHeld, pollFn, chuteFn, 
+                                    pwTaken, nextPoll, ppItem, dead, sti, rq, 
+                                    rsq, bown, bwk, bi, bcur, jq, jj, jwk, fj, 
+                                    dq, dj, oq, oop, omode, oj, kj, pp, nq >>
 
 z_then(self) == /\ pc[self] = "z_then"
                 /\ IF rv[self] = 0 /\ OpTab[bcur[self]].then = "await"
@@ -2589,18 +2635,18 @@ z_then(self) == /\ pc[self] = "z_then"
                                 pthreads, nspawned, palive, busy, busyLocked, 
                                 inbox, chanOpen, pfin, thrHeld, maxThreads, 
                                 jkind, jaw, fres, fwaker, gfired, gwaker, 
-                                gthreads, dwSt, dwW, dblTaken, dblW1, dblW2, 
-                                nextDW, ready, cwait, cnotif, cvHeld, sdres, 
-                                jpanic, sfst, slotSt, qrSent, qrWaker, dnState, 
-                                dnWaker, parkTok, rv, rwb, rneed, dsl, atomic, 
-                                strong, ppPending, ppClosed, ppNotify, ppNC, 
-                                ppBP, ppDepth, ppAlive, ppHeld, inItems, 
+                                gthreads, gwhist, dwSt, dwW, dblTaken, dblW1, 
+                                dblW2, nextDW, ready, cwait, cnotif, cvHeld, 
+                                sdres, jpanic, sfst, slotSt, qrSent, qrWaker, 
+                                dnState, dnWaker, parkTok, rv, rwb, rneed, dsl, 
+                                atomic, strong, ppPending, ppClosed, ppNotify, 
+                                ppNC, ppBP, ppDepth, ppAlive, ppHeld, inItems, 
                                 inClosed, inWaker, pollFn, chuteFn, pwTaken, 
                                 nextPoll, ppItem, h, dead, sti, rq, sq, sj, ww, 
-                                rsq, bown, bwk, bi, bcur, bw, jq, jj, jwk, fj, 
-                                dq, dj, oq, oop, omode, oj, yq, yop, tq, top, 
-                                wf, wop, sf, sctx, cop, kj, pp, np, nbp, nres, 
-                                dp, pf, pctx, pq, pj, pd, nq >>
+                                rsq, bown, bwk, bi, bcur, bw, bsp, jq, jj, jwk, 
+                                fj, dq, dj, oq, oop, omode, oj, yq, yop, tq, 
+                                top, wf, wop, sf, sctx, cop, kj, pp, np, nbp, 
+                                nres, dp, pf, pctx, pq, pj, pd, nq >>
 
 z_polled(self) == /\ pc[self] = "z_polled"
                   /\ IF rv[self] \in {0, 3, 4}
@@ -2612,17 +2658,17 @@ z_polled(self) == /\ pc[self] = "z_polled"
                                   pthreads, nspawned, palive, busy, busyLocked, 
                                   inbox, chanOpen, pfin, thrHeld, maxThreads, 
                                   jkind, jaw, fres, fwaker, gfired, gwaker, 
-                                  gthreads, dwSt, dwW, dblTaken, dblW1, dblW2, 
-                                  nextDW, ready, cwait, cnotif, cvHeld, sdres, 
-                                  jpanic, sfst, slotSt, qrSent, qrWaker, 
+                                  gthreads, gwhist, dwSt, dwW, dblTaken, dblW1, 
+                                  dblW2, nextDW, ready, cwait, cnotif, cvHeld, 
+                                  sdres, jpanic, sfst, slotSt, qrSent, qrWaker, 
                                   dnState, dnWaker, parkTok, rv, rwb, rneed, 
                                   dsl, atomic, strong, ppPending, ppClosed, 
                                   ppNotify, ppNC, ppBP, ppDepth, ppAlive, 
                                   ppHeld, inItems, inClosed, inWaker, pollFn, 
                                   chuteFn, pwTaken, nextPoll, ppItem, stack, 
                                   dead, sti, rq, sq, sj, ww, rsq, bown, bwk, 
-                                  bi, bcur, bw, jq, jj, jwk, fj, dq, dj, oq, 
-                                  oop, omode, oj, yq, yop, tq, top, af, wf, 
+                                  bi, bcur, bw, bsp, jq, jj, jwk, fj, dq, dj, 
+                                  oq, oop, omode, oj, yq, yop, tq, top, af, wf, 
                                   wop, sf, sctx, xf, cop, kj, pp, np, nbp, 
                                   nres, dp, pf, pctx, pq, pj, pd, nq >>
 
@@ -2634,8 +2680,8 @@ pp_setdepth(self) == /\ pc[self] = "pp_setdepth"
                                      schedule, pthreads, nspawned, palive, 
                                      busy, busyLocked, inbox, chanOpen, pfin, 
                                      thrHeld, maxThreads, jkind, jaw, fres, 
-                                     fwaker, gfired, gwaker, gthreads, dwSt, 
-                                     dwW, dblTaken, dblW1, dblW2, nextDW, 
+                                     fwaker, gfired, gwaker, gthreads, gwhist, 
+                                     dwSt, dwW, dblTaken, dblW1, dblW2, nextDW, 
                                      ready, cwait, cnotif, cvHeld, sdres, 
                                      jpanic, sfst, slotSt, qrSent, qrWaker, 
                                      dnState, dnWaker, parkTok, rwb, rneed, 
@@ -2644,11 +2690,45 @@ pp_setdepth(self) == /\ pc[self] = "pp_setdepth"
                                      inItems, inClosed, inWaker, pollFn, 
                                      chuteFn, pwTaken, nextPoll, ppItem, h, 
                                      stack, dead, sti, rq, sq, sj, ww, rsq, 
-                                     bown, bwk, bi, bcur, bw, jq, jj, jwk, fj, 
-                                     dq, dj, oq, oop, omode, oj, yq, yop, tq, 
-                                     top, af, wf, wop, sf, sctx, xf, cop, kj, 
-                                     pp, np, nbp, nres, dp, pf, pctx, pq, pj, 
-                                     pd, nq >>
+                                     bown, bwk, bi, bcur, bw, bsp, jq, jj, jwk, 
+                                     fj, dq, dj, oq, oop, omode, oj, yq, yop, 
+                                     tq, top, af, wf, wop, sf, sctx, xf, cop, 
+                                     kj, pp, np, nbp, nres, dp, pf, pctx, pq, 
+                                     pj, pd, nq >>
+
+z_spur(self) == /\ pc[self] = "z_spur"
+                /\ IF bsp[self] = << >>
+                      THEN /\ pc' = [pc EXCEPT ![self] = "rb_step"]
+                           /\ UNCHANGED << parkTok, stack, ww, bw, bsp >>
+                      ELSE /\ bw' = [bw EXCEPT ![self] = Head(bsp[self])]
+                           /\ bsp' = [bsp EXCEPT ![self] = Tail(bsp[self])]
+                           /\ IF IsLocking(bw'[self])
+                                 THEN /\ /\ stack' = [stack EXCEPT ![self] = << [ procedure |->  "Wake",
+                                                                                  pc        |->  "z_spur",
+                                                                                  ww        |->  ww[self] ] >>
+                                                                              \o stack[self]]
+                                         /\ ww' = [ww EXCEPT ![self] = bw'[self]]
+                                      /\ pc' = [pc EXCEPT ![self] = "wk_lock"]
+                                      /\ UNCHANGED parkTok
+                                 ELSE /\ parkTok' = Unpark(parkTok, TaskOf(bw'[self]))
+                                      /\ pc' = [pc EXCEPT ![self] = "z_spur"]
+                                      /\ UNCHANGED << stack, ww >>
+                /\ UNCHANGED << qstate, qpoll, jobs, wakeBlocked, schedule, 
+                                pthreads, nspawned, palive, busy, busyLocked, 
+                                inbox, chanOpen, pfin, thrHeld, maxThreads, 
+                                jkind, jaw, fres, fwaker, gfired, gwaker, 
+                                gthreads, gwhist, dwSt, dwW, dblTaken, dblW1, 
+                                dblW2, nextDW, ready, cwait, cnotif, cvHeld, 
+                                sdres, jpanic, sfst, slotSt, qrSent, qrWaker, 
+                                dnState, dnWaker, rv, rwb, rneed, dsl, atomic, 
+                                strong, ppPending, ppClosed, ppNotify, ppNC, 
+                                ppBP, ppDepth, ppAlive, ppHeld, inItems, 
+                                inClosed, inWaker, pollFn, chuteFn, pwTaken, 
+                                nextPoll, ppItem, h, dead, sti, rq, sq, sj, 
+                                rsq, bown, bwk, bi, bcur, jq, jj, jwk, fj, dq, 
+                                dj, oq, oop, omode, oj, yq, yop, tq, top, af, 
+                                wf, wop, sf, sctx, xf, cop, kj, pp, np, nbp, 
+                                nres, dp, pf, pctx, pq, pj, pd, nq >>
 
 rb_wait(self) == /\ pc[self] = "rb_wait"
                  /\ parkTok[self]
@@ -2662,18 +2742,19 @@ rb_wait(self) == /\ pc[self] = "rb_wait"
                                  pthreads, nspawned, palive, busy, busyLocked, 
                                  inbox, chanOpen, pfin, thrHeld, maxThreads, 
                                  jkind, jaw, fres, fwaker, gfired, gwaker, 
-                                 dwSt, dwW, dblTaken, dblW1, dblW2, nextDW, 
-                                 ready, cwait, cnotif, cvHeld, sdres, jpanic, 
-                                 sfst, slotSt, qrSent, qrWaker, dnState, 
-                                 dnWaker, rv, rwb, rneed, dsl, atomic, strong, 
-                                 ppPending, ppClosed, ppNotify, ppNC, ppBP, 
-                                 ppDepth, ppAlive, ppHeld, inItems, inClosed, 
-                                 inWaker, pollFn, chuteFn, pwTaken, nextPoll, 
-                                 ppItem, h, stack, dead, sti, rq, sq, sj, ww, 
-                                 rsq, bown, bwk, bi, bcur, bw, jq, jj, jwk, fj, 
-                                 dq, dj, oq, oop, omode, oj, yq, yop, tq, top, 
-                                 af, wf, wop, sf, sctx, xf, cop, kj, pp, np, 
-                                 nbp, nres, dp, pf, pctx, pq, pj, pd, nq >>
+                                 gwhist, dwSt, dwW, dblTaken, dblW1, dblW2, 
+                                 nextDW, ready, cwait, cnotif, cvHeld, sdres, 
+                                 jpanic, sfst, slotSt, qrSent, qrWaker, 
+                                 dnState, dnWaker, rv, rwb, rneed, dsl, atomic, 
+                                 strong, ppPending, ppClosed, ppNotify, ppNC, 
+                                 ppBP, ppDepth, ppAlive, ppHeld, inItems, 
+                                 inClosed, inWaker, pollFn, chuteFn, pwTaken, 
+                                 nextPoll, ppItem, h, stack, dead, sti, rq, sq, 
+                                 sj, ww, rsq, bown, bwk, bi, bcur, bw, bsp, jq, 
+                                 jj, jwk, fj, dq, dj, oq, oop, omode, oj, yq, 
+                                 yop, tq, top, af, wf, wop, sf, sctx, xf, cop, 
+                                 kj, pp, np, nbp, nres, dp, pf, pctx, pq, pj, 
+                                 pd, nq >>
 
 mx_set(self) == /\ pc[self] = "mx_set"
                 /\ maxThreads' = OpTab[bcur[self]].n
@@ -2683,24 +2764,26 @@ mx_set(self) == /\ pc[self] = "mx_set"
                 /\ UNCHANGED << qstate, qpoll, jobs, wakeBlocked, schedule, 
                                 pthreads, nspawned, palive, busy, busyLocked, 
                                 inbox, chanOpen, pfin, thrHeld, jkind, jaw, 
-                                fres, fwaker, gfired, gwaker, gthreads, dwSt, 
-                                dwW, dblTaken, dblW1, dblW2, nextDW, ready, 
-                                cwait, cnotif, cvHeld, sdres, jpanic, sfst, 
-                                slotSt, qrSent, qrWaker, dnState, dnWaker, 
-                                parkTok, rwb, rneed, dsl, atomic, strong, 
-                                ppPending, ppClosed, ppNotify, ppNC, ppBP, 
-                                ppDepth, ppAlive, ppHeld, inItems, inClosed, 
-                                inWaker, pollFn, chuteFn, pwTaken, nextPoll, 
-                                ppItem, stack, dead, sti, rq, sq, sj, ww, rsq, 
-                                bown, bwk, bi, bcur, bw, jq, jj, jwk, fj, dq, 
-                                dj, oq, oop, omode, oj, yq, yop, tq, top, af, 
-                                wf, wop, sf, sctx, xf, cop, kj, pp, np, nbp, 
-                                nres, dp, pf, pctx, pq, pj, pd, nq >>
+                                fres, fwaker, gfired, gwaker, gthreads, gwhist, 
+                                dwSt, dwW, dblTaken, dblW1, dblW2, nextDW, 
+                                ready, cwait, cnotif, cvHeld, sdres, jpanic, 
+                                sfst, slotSt, qrSent, qrWaker, dnState, 
+                                dnWaker, parkTok, rwb, rneed, dsl, atomic, 
+                                strong, ppPending, ppClosed, ppNotify, ppNC, 
+                                ppBP, ppDepth, ppAlive, ppHeld, inItems, 
+                                inClosed, inWaker, pollFn, chuteFn, pwTaken, 
+                                nextPoll, ppItem, stack, dead, sti, rq, sq, sj, 
+                                ww, rsq, bown, bwk, bi, bcur, bw, bsp, jq, jj, 
+                                jwk, fj, dq, dj, oq, oop, omode, oj, yq, yop, 
+                                tq, top, af, wf, wop, sf, sctx, xf, cop, kj, 
+                                pp, np, nbp, nres, dp, pf, pctx, pq, pj, pd, 
+                                nq >>
 
 RunOps(self) == rb_step(self) \/ z_finish(self) \/ z_pollaw(self)
                    \/ z_pollaw_after(self) \/ rb_block(self)
                    \/ z_dispatch(self) \/ z_then(self) \/ z_polled(self)
-                   \/ pp_setdepth(self) \/ rb_wait(self) \/ mx_set(self)
+                   \/ pp_setdepth(self) \/ z_spur(self) \/ rb_wait(self)
+                   \/ mx_set(self)
 
 z_rj(self) == /\ pc[self] = "z_rj"
               /\ IF K(jj[self]) \in {"desync", "sync", "try_sync"}
@@ -2713,6 +2796,7 @@ z_rj(self) == /\ pc[self] = "z_rj"
                                                                      bi        |->  bi[self],
                                                                      bcur      |->  bcur[self],
                                                                      bw        |->  bw[self],
+                                                                     bsp       |->  bsp[self],
                                                                      rsq       |->  rsq[self],
                                                                      bown      |->  bown[self],
                                                                      bwk       |->  bwk[self] ] >>
@@ -2720,8 +2804,9 @@ z_rj(self) == /\ pc[self] = "z_rj"
                          /\ bi' = [bi EXCEPT ![self] = 0]
                          /\ bcur' = [bcur EXCEPT ![self] = 0]
                          /\ bw' = [bw EXCEPT ![self] = NoW]
+                         /\ bsp' = [bsp EXCEPT ![self] = << >>]
                          /\ pc' = [pc EXCEPT ![self] = "rb_step"]
-                         /\ UNCHANGED << gwaker, sdres, slotSt, qrSent, 
+                         /\ UNCHANGED << gwaker, gwhist, sdres, slotSt, qrSent, 
                                          parkTok, rv, strong, chuteFn, ww, jq, 
                                          jj, jwk, yq, yop, kj, pp >>
                     ELSE /\ IF K(jj[self]) = "fdesync"
@@ -2735,6 +2820,7 @@ z_rj(self) == /\ pc[self] = "z_rj"
                                                                                            bi        |->  bi[self],
                                                                                            bcur      |->  bcur[self],
                                                                                            bw        |->  bw[self],
+                                                                                           bsp       |->  bsp[self],
                                                                                            rsq       |->  rsq[self],
                                                                                            bown      |->  bown[self],
                                                                                            bwk       |->  bwk[self] ] >>
@@ -2742,9 +2828,10 @@ z_rj(self) == /\ pc[self] = "z_rj"
                                                /\ bi' = [bi EXCEPT ![self] = 0]
                                                /\ bcur' = [bcur EXCEPT ![self] = 0]
                                                /\ bw' = [bw EXCEPT ![self] = NoW]
+                                               /\ bsp' = [bsp EXCEPT ![self] = << >>]
                                                /\ pc' = [pc EXCEPT ![self] = "rb_step"]
-                                               /\ UNCHANGED << gwaker, rv, jq, 
-                                                               jj, jwk >>
+                                               /\ UNCHANGED << gwaker, gwhist, 
+                                                               rv, jq, jj, jwk >>
                                           ELSE /\ IF AwReady(jj[self])
                                                      THEN /\ /\ bown' = [bown EXCEPT ![self] = jj[self]]
                                                              /\ bwk' = [bwk EXCEPT ![self] = jwk[self]]
@@ -2754,6 +2841,7 @@ z_rj(self) == /\ pc[self] = "z_rj"
                                                                                                       bi        |->  bi[self],
                                                                                                       bcur      |->  bcur[self],
                                                                                                       bw        |->  bw[self],
+                                                                                                      bsp       |->  bsp[self],
                                                                                                       rsq       |->  rsq[self],
                                                                                                       bown      |->  bown[self],
                                                                                                       bwk       |->  bwk[self] ] >>
@@ -2761,13 +2849,16 @@ z_rj(self) == /\ pc[self] = "z_rj"
                                                           /\ bi' = [bi EXCEPT ![self] = 0]
                                                           /\ bcur' = [bcur EXCEPT ![self] = 0]
                                                           /\ bw' = [bw EXCEPT ![self] = NoW]
+                                                          /\ bsp' = [bsp EXCEPT ![self] = << >>]
                                                           /\ pc' = [pc EXCEPT ![self] = "rb_step"]
                                                           /\ UNCHANGED << gwaker, 
+                                                                          gwhist, 
                                                                           rv, 
                                                                           jq, 
                                                                           jj, 
                                                                           jwk >>
                                                      ELSE /\ gwaker' = [gwaker EXCEPT ![AwItem(jj[self])] = jwk[self]]
+                                                          /\ gwhist' = [gwhist EXCEPT ![AwItem(jj[self])] = Append(gwhist[AwItem(jj[self])], jwk[self])]
                                                           /\ rv' = [rv EXCEPT ![self] = 5]
                                                           /\ pc' = [pc EXCEPT ![self] = Head(stack[self]).pc]
                                                           /\ jq' = [jq EXCEPT ![self] = Head(stack[self]).jq]
@@ -2779,7 +2870,8 @@ z_rj(self) == /\ pc[self] = "z_rj"
                                                                           bwk, 
                                                                           bi, 
                                                                           bcur, 
-                                                                          bw >>
+                                                                          bw, 
+                                                                          bsp >>
                                                /\ h' = h
                                     /\ UNCHANGED << sdres, slotSt, qrSent, 
                                                     parkTok, strong, chuteFn, 
@@ -2795,6 +2887,7 @@ z_rj(self) == /\ pc[self] = "z_rj"
                                                                                                       bi        |->  bi[self],
                                                                                                       bcur      |->  bcur[self],
                                                                                                       bw        |->  bw[self],
+                                                                                                      bsp       |->  bsp[self],
                                                                                                       rsq       |->  rsq[self],
                                                                                                       bown      |->  bown[self],
                                                                                                       bwk       |->  bwk[self] ] >>
@@ -2802,13 +2895,16 @@ z_rj(self) == /\ pc[self] = "z_rj"
                                                           /\ bi' = [bi EXCEPT ![self] = 0]
                                                           /\ bcur' = [bcur EXCEPT ![self] = 0]
                                                           /\ bw' = [bw EXCEPT ![self] = NoW]
+                                                          /\ bsp' = [bsp EXCEPT ![self] = << >>]
                                                           /\ pc' = [pc EXCEPT ![self] = "rb_step"]
                                                           /\ UNCHANGED << gwaker, 
+                                                                          gwhist, 
                                                                           rv, 
                                                                           jq, 
                                                                           jj, 
                                                                           jwk >>
                                                      ELSE /\ gwaker' = [gwaker EXCEPT ![OpTab[jj[self]].g] = jwk[self]]
+                                                          /\ gwhist' = [gwhist EXCEPT ![OpTab[jj[self]].g] = Append(gwhist[OpTab[jj[self]].g], jwk[self])]
                                                           /\ rv' = [rv EXCEPT ![self] = 5]
                                                           /\ pc' = [pc EXCEPT ![self] = Head(stack[self]).pc]
                                                           /\ jq' = [jq EXCEPT ![self] = Head(stack[self]).jq]
@@ -2821,7 +2917,8 @@ z_rj(self) == /\ pc[self] = "z_rj"
                                                                           bwk, 
                                                                           bi, 
                                                                           bcur, 
-                                                                          bw >>
+                                                                          bw, 
+                                                                          bsp >>
                                                /\ UNCHANGED << sdres, slotSt, 
                                                                qrSent, parkTok, 
                                                                strong, chuteFn, 
@@ -3017,8 +3114,9 @@ z_rj(self) == /\ pc[self] = "z_rj"
                                                                                 /\ UNCHANGED chuteFn
                                                                      /\ UNCHANGED << kj, 
                                                                                      pp >>
-                                               /\ UNCHANGED << rsq, bown, bwk, 
-                                                               bi, bcur, bw >>
+                                               /\ UNCHANGED << gwhist, rsq, 
+                                                               bown, bwk, bi, 
+                                                               bcur, bw, bsp >>
               /\ UNCHANGED << qstate, qpoll, jobs, wakeBlocked, schedule, 
                               pthreads, nspawned, palive, busy, busyLocked, 
                               inbox, chanOpen, pfin, thrHeld, maxThreads, 
@@ -3043,19 +3141,19 @@ z_rj_ret(self) == /\ pc[self] = "z_rj_ret"
                                   pthreads, nspawned, palive, busy, busyLocked, 
                                   inbox, chanOpen, pfin, thrHeld, maxThreads, 
                                   jkind, jaw, fres, fwaker, gfired, gwaker, 
-                                  gthreads, dwSt, dwW, dblTaken, dblW1, dblW2, 
-                                  nextDW, ready, cwait, cnotif, cvHeld, sdres, 
-                                  jpanic, sfst, slotSt, qrSent, qrWaker, 
+                                  gthreads, gwhist, dwSt, dwW, dblTaken, dblW1, 
+                                  dblW2, nextDW, ready, cwait, cnotif, cvHeld, 
+                                  sdres, jpanic, sfst, slotSt, qrSent, qrWaker, 
                                   dnState, dnWaker, parkTok, rv, rwb, rneed, 
                                   dsl, atomic, strong, ppPending, ppClosed, 
                                   ppNotify, ppNC, ppBP, ppDepth, ppAlive, 
                                   ppHeld, inItems, inClosed, inWaker, pollFn, 
                                   chuteFn, pwTaken, nextPoll, ppItem, h, dead, 
                                   sti, rq, sq, sj, ww, rsq, bown, bwk, bi, 
-                                  bcur, bw, fj, dq, dj, oq, oop, omode, oj, yq, 
-                                  yop, tq, top, af, wf, wop, sf, sctx, xf, cop, 
-                                  kj, pp, np, nbp, nres, dp, pf, pctx, pq, pj, 
-                                  pd, nq >>
+                                  bcur, bw, bsp, fj, dq, dj, oq, oop, omode, 
+                                  oj, yq, yop, tq, top, af, wf, wop, sf, sctx, 
+                                  xf, cop, kj, pp, np, nbp, nres, dp, pf, pctx, 
+                                  pq, pj, pd, nq >>
 
 z_rj_ok(self) == /\ pc[self] = "z_rj_ok"
                  /\ rv' = [rv EXCEPT ![self] = 0]
@@ -3068,18 +3166,18 @@ z_rj_ok(self) == /\ pc[self] = "z_rj_ok"
                                  pthreads, nspawned, palive, busy, busyLocked, 
                                  inbox, chanOpen, pfin, thrHeld, maxThreads, 
                                  jkind, jaw, fres, fwaker, gfired, gwaker, 
-                                 gthreads, dwSt, dwW, dblTaken, dblW1, dblW2, 
-                                 nextDW, ready, cwait, cnotif, cvHeld, sdres, 
-                                 jpanic, sfst, slotSt, qrSent, qrWaker, 
+                                 gthreads, gwhist, dwSt, dwW, dblTaken, dblW1, 
+                                 dblW2, nextDW, ready, cwait, cnotif, cvHeld, 
+                                 sdres, jpanic, sfst, slotSt, qrSent, qrWaker, 
                                  dnState, dnWaker, parkTok, rwb, rneed, dsl, 
                                  atomic, strong, ppPending, ppClosed, ppNotify, 
                                  ppNC, ppBP, ppDepth, ppAlive, ppHeld, inItems, 
                                  inClosed, inWaker, pollFn, chuteFn, pwTaken, 
                                  nextPoll, ppItem, h, dead, sti, rq, sq, sj, 
-                                 ww, rsq, bown, bwk, bi, bcur, bw, fj, dq, dj, 
-                                 oq, oop, omode, oj, yq, yop, tq, top, af, wf, 
-                                 wop, sf, sctx, xf, cop, kj, pp, np, nbp, nres, 
-                                 dp, pf, pctx, pq, pj, pd, nq >>
+                                 ww, rsq, bown, bwk, bi, bcur, bw, bsp, fj, dq, 
+                                 dj, oq, oop, omode, oj, yq, yop, tq, top, af, 
+                                 wf, wop, sf, sctx, xf, cop, kj, pp, np, nbp, 
+                                 nres, dp, pf, pctx, pq, pj, pd, nq >>
 
 z_pp_gc(self) == /\ pc[self] = "z_pp_gc"
                  /\ IF pollFn[OpTab[jj[self]].p] /\ rv[self] = 0 /\ ~(\/ HoldsCtx(inWaker[OpTab[jj[self]].p])
@@ -3098,18 +3196,18 @@ z_pp_gc(self) == /\ pc[self] = "z_pp_gc"
                                  pthreads, nspawned, palive, busy, busyLocked, 
                                  inbox, chanOpen, pfin, thrHeld, maxThreads, 
                                  jkind, jaw, fres, fwaker, gfired, gwaker, 
-                                 gthreads, dwSt, dwW, dblTaken, dblW1, dblW2, 
-                                 nextDW, ready, cwait, cnotif, cvHeld, sdres, 
-                                 jpanic, sfst, slotSt, qrSent, qrWaker, 
+                                 gthreads, gwhist, dwSt, dwW, dblTaken, dblW1, 
+                                 dblW2, nextDW, ready, cwait, cnotif, cvHeld, 
+                                 sdres, jpanic, sfst, slotSt, qrSent, qrWaker, 
                                  dnState, dnWaker, parkTok, rv, rwb, rneed, 
                                  dsl, atomic, strong, ppPending, ppClosed, 
                                  ppNotify, ppNC, ppBP, ppDepth, ppAlive, 
                                  ppHeld, inItems, inClosed, inWaker, chuteFn, 
                                  pwTaken, nextPoll, ppItem, dead, sti, rq, sq, 
-                                 sj, ww, rsq, bown, bwk, bi, bcur, bw, fj, dq, 
-                                 dj, oq, oop, omode, oj, yq, yop, tq, top, af, 
-                                 wf, wop, sf, sctx, xf, cop, kj, pp, np, nbp, 
-                                 nres, dp, pf, pctx, pq, pj, pd, nq >>
+                                 sj, ww, rsq, bown, bwk, bi, bcur, bw, bsp, fj, 
+                                 dq, dj, oq, oop, omode, oj, yq, yop, tq, top, 
+                                 af, wf, wop, sf, sctx, xf, cop, kj, pp, np, 
+                                 nbp, nres, dp, pf, pctx, pq, pj, pd, nq >>
 
 z_slot2(self) == /\ pc[self] = "z_slot2"
                  /\ IF dnState[jj[self]] # "open"
@@ -3131,18 +3229,18 @@ z_slot2(self) == /\ pc[self] = "z_slot2"
                                  pthreads, nspawned, palive, busy, busyLocked, 
                                  inbox, chanOpen, pfin, thrHeld, maxThreads, 
                                  jkind, jaw, fres, fwaker, gfired, gwaker, 
-                                 gthreads, dwSt, dwW, dblTaken, dblW1, dblW2, 
-                                 nextDW, ready, cwait, cnotif, cvHeld, sdres, 
-                                 jpanic, sfst, slotSt, qrSent, qrWaker, 
+                                 gthreads, gwhist, dwSt, dwW, dblTaken, dblW1, 
+                                 dblW2, nextDW, ready, cwait, cnotif, cvHeld, 
+                                 sdres, jpanic, sfst, slotSt, qrSent, qrWaker, 
                                  dnState, parkTok, rwb, rneed, dsl, atomic, 
                                  strong, ppPending, ppClosed, ppNotify, ppNC, 
                                  ppBP, ppDepth, ppAlive, ppHeld, inItems, 
                                  inClosed, inWaker, pollFn, chuteFn, pwTaken, 
                                  nextPoll, ppItem, h, dead, sti, rq, sq, sj, 
-                                 ww, rsq, bown, bwk, bi, bcur, bw, fj, dq, dj, 
-                                 oq, oop, omode, oj, yq, yop, tq, top, af, wf, 
-                                 wop, sf, sctx, xf, cop, kj, pp, np, nbp, nres, 
-                                 dp, pf, pctx, pq, pj, pd, nq >>
+                                 ww, rsq, bown, bwk, bi, bcur, bw, bsp, fj, dq, 
+                                 dj, oq, oop, omode, oj, yq, yop, tq, top, af, 
+                                 wf, wop, sf, sctx, xf, cop, kj, pp, np, nbp, 
+                                 nres, dp, pf, pctx, pq, pj, pd, nq >>
 
 sus_signal(self) == /\ pc[self] = "sus_signal"
                     /\ LET w == fwaker[jj[self]] IN
@@ -3163,8 +3261,8 @@ sus_signal(self) == /\ pc[self] = "sus_signal"
                                     pthreads, nspawned, palive, busy, 
                                     busyLocked, inbox, chanOpen, pfin, thrHeld, 
                                     maxThreads, jkind, jaw, gfired, gwaker, 
-                                    gthreads, dwSt, dwW, dblTaken, dblW1, 
-                                    dblW2, nextDW, ready, cwait, cnotif, 
+                                    gthreads, gwhist, dwSt, dwW, dblTaken, 
+                                    dblW1, dblW2, nextDW, ready, cwait, cnotif, 
                                     cvHeld, sdres, jpanic, sfst, slotSt, 
                                     qrSent, qrWaker, dnState, dnWaker, rv, rwb, 
                                     rneed, dsl, atomic, strong, ppPending, 
@@ -3172,11 +3270,11 @@ sus_signal(self) == /\ pc[self] = "sus_signal"
                                     ppAlive, ppHeld, inItems, inClosed, 
                                     inWaker, pollFn, chuteFn, pwTaken, 
                                     nextPoll, ppItem, h, dead, sti, rq, sq, sj, 
-                                    rsq, bown, bwk, bi, bcur, bw, jq, jj, jwk, 
-                                    fj, dq, dj, oq, oop, omode, oj, yq, yop, 
-                                    tq, top, af, wf, wop, sf, sctx, xf, cop, 
-                                    kj, pp, np, nbp, nres, dp, pf, pctx, pq, 
-                                    pj, pd, nq >>
+                                    rsq, bown, bwk, bi, bcur, bw, bsp, jq, jj, 
+                                    jwk, fj, dq, dj, oq, oop, omode, oj, yq, 
+                                    yop, tq, top, af, wf, wop, sf, sctx, xf, 
+                                    cop, kj, pp, np, nbp, nres, dp, pf, pctx, 
+                                    pq, pj, pd, nq >>
 
 sus_sigdrop(self) == /\ pc[self] = "sus_sigdrop"
                      /\ jaw' = [jaw EXCEPT ![jj[self]] = 1]
@@ -3194,20 +3292,20 @@ sus_sigdrop(self) == /\ pc[self] = "sus_sigdrop"
                                      schedule, pthreads, nspawned, palive, 
                                      busy, busyLocked, inbox, chanOpen, pfin, 
                                      thrHeld, maxThreads, jkind, fres, fwaker, 
-                                     gfired, gthreads, dwSt, dwW, dblTaken, 
-                                     dblW1, dblW2, nextDW, ready, cwait, 
-                                     cnotif, cvHeld, sdres, jpanic, sfst, 
-                                     slotSt, qrSent, qrWaker, dnState, dnWaker, 
-                                     parkTok, rwb, rneed, dsl, atomic, strong, 
-                                     ppPending, ppClosed, ppNotify, ppNC, ppBP, 
-                                     ppDepth, ppAlive, ppHeld, inItems, 
-                                     inClosed, inWaker, pollFn, chuteFn, 
-                                     pwTaken, nextPoll, ppItem, h, dead, sti, 
-                                     rq, sq, sj, ww, rsq, bown, bwk, bi, bcur, 
-                                     bw, fj, dq, dj, oq, oop, omode, oj, yq, 
-                                     yop, tq, top, af, wf, wop, sf, sctx, xf, 
-                                     cop, kj, pp, np, nbp, nres, dp, pf, pctx, 
-                                     pq, pj, pd, nq >>
+                                     gfired, gthreads, gwhist, dwSt, dwW, 
+                                     dblTaken, dblW1, dblW2, nextDW, ready, 
+                                     cwait, cnotif, cvHeld, sdres, jpanic, 
+                                     sfst, slotSt, qrSent, qrWaker, dnState, 
+                                     dnWaker, parkTok, rwb, rneed, dsl, atomic, 
+                                     strong, ppPending, ppClosed, ppNotify, 
+                                     ppNC, ppBP, ppDepth, ppAlive, ppHeld, 
+                                     inItems, inClosed, inWaker, pollFn, 
+                                     chuteFn, pwTaken, nextPoll, ppItem, h, 
+                                     dead, sti, rq, sq, sj, ww, rsq, bown, bwk, 
+                                     bi, bcur, bw, bsp, fj, dq, dj, oq, oop, 
+                                     omode, oj, yq, yop, tq, top, af, wf, wop, 
+                                     sf, sctx, xf, cop, kj, pp, np, nbp, nres, 
+                                     dp, pf, pctx, pq, pj, pd, nq >>
 
 sus_inner(self) == /\ pc[self] = "sus_inner"
                    /\ TRUE
@@ -3216,7 +3314,7 @@ sus_inner(self) == /\ pc[self] = "sus_inner"
                                    pthreads, nspawned, palive, busy, 
                                    busyLocked, inbox, chanOpen, pfin, thrHeld, 
                                    maxThreads, jkind, jaw, fres, fwaker, 
-                                   gfired, gwaker, gthreads, dwSt, dwW, 
+                                   gfired, gwaker, gthreads, gwhist, dwSt, dwW, 
                                    dblTaken, dblW1, dblW2, nextDW, ready, 
                                    cwait, cnotif, cvHeld, sdres, jpanic, sfst, 
                                    slotSt, qrSent, qrWaker, dnState, dnWaker, 
@@ -3226,10 +3324,10 @@ sus_inner(self) == /\ pc[self] = "sus_inner"
                                    inClosed, inWaker, pollFn, chuteFn, pwTaken, 
                                    nextPoll, ppItem, h, stack, dead, sti, rq, 
                                    sq, sj, ww, rsq, bown, bwk, bi, bcur, bw, 
-                                   jq, jj, jwk, fj, dq, dj, oq, oop, omode, oj, 
-                                   yq, yop, tq, top, af, wf, wop, sf, sctx, xf, 
-                                   cop, kj, pp, np, nbp, nres, dp, pf, pctx, 
-                                   pq, pj, pd, nq >>
+                                   bsp, jq, jj, jwk, fj, dq, dj, oq, oop, 
+                                   omode, oj, yq, yop, tq, top, af, wf, wop, 
+                                   sf, sctx, xf, cop, kj, pp, np, nbp, nres, 
+                                   dp, pf, pctx, pq, pj, pd, nq >>
 
 sus_innerdrop(self) == /\ pc[self] = "sus_innerdrop"
                        /\ rv' = [rv EXCEPT ![self] = 0]
@@ -3242,21 +3340,21 @@ sus_innerdrop(self) == /\ pc[self] = "sus_innerdrop"
                                        schedule, pthreads, nspawned, palive, 
                                        busy, busyLocked, inbox, chanOpen, pfin, 
                                        thrHeld, maxThreads, jkind, jaw, fres, 
-                                       fwaker, gfired, gwaker, gthreads, dwSt, 
-                                       dwW, dblTaken, dblW1, dblW2, nextDW, 
-                                       ready, cwait, cnotif, cvHeld, sdres, 
-                                       jpanic, sfst, slotSt, qrSent, qrWaker, 
-                                       dnState, dnWaker, parkTok, rwb, rneed, 
-                                       dsl, atomic, strong, ppPending, 
-                                       ppClosed, ppNotify, ppNC, ppBP, ppDepth, 
-                                       ppAlive, ppHeld, inItems, inClosed, 
-                                       inWaker, pollFn, chuteFn, pwTaken, 
-                                       nextPoll, ppItem, h, dead, sti, rq, sq, 
-                                       sj, ww, rsq, bown, bwk, bi, bcur, bw, 
-                                       fj, dq, dj, oq, oop, omode, oj, yq, yop, 
-                                       tq, top, af, wf, wop, sf, sctx, xf, cop, 
-                                       kj, pp, np, nbp, nres, dp, pf, pctx, pq, 
-                                       pj, pd, nq >>
+                                       fwaker, gfired, gwaker, gthreads, 
+                                       gwhist, dwSt, dwW, dblTaken, dblW1, 
+                                       dblW2, nextDW, ready, cwait, cnotif, 
+                                       cvHeld, sdres, jpanic, sfst, slotSt, 
+                                       qrSent, qrWaker, dnState, dnWaker, 
+                                       parkTok, rwb, rneed, dsl, atomic, 
+                                       strong, ppPending, ppClosed, ppNotify, 
+                                       ppNC, ppBP, ppDepth, ppAlive, ppHeld, 
+                                       inItems, inClosed, inWaker, pollFn, 
+                                       chuteFn, pwTaken, nextPoll, ppItem, h, 
+                                       dead, sti, rq, sq, sj, ww, rsq, bown, 
+                                       bwk, bi, bcur, bw, bsp, fj, dq, dj, oq, 
+                                       oop, omode, oj, yq, yop, tq, top, af, 
+                                       wf, wop, sf, sctx, xf, cop, kj, pp, np, 
+                                       nbp, nres, dp, pf, pctx, pq, pj, pd, nq >>
 
 ws_take(self) == /\ pc[self] = "ws_take"
                  /\ IF fres[OpTab[jj[self]].f] = "some"
@@ -3280,18 +3378,18 @@ ws_take(self) == /\ pc[self] = "ws_take"
                                  pthreads, nspawned, palive, busy, busyLocked, 
                                  inbox, chanOpen, pfin, thrHeld, maxThreads, 
                                  jkind, jaw, fwaker, gfired, gwaker, gthreads, 
-                                 dwSt, dwW, dblTaken, dblW1, dblW2, nextDW, 
-                                 ready, cwait, cnotif, cvHeld, jpanic, sfst, 
-                                 slotSt, qrSent, qrWaker, dnState, dnWaker, 
-                                 parkTok, rwb, rneed, dsl, atomic, strong, 
-                                 ppPending, ppClosed, ppNotify, ppNC, ppBP, 
-                                 ppDepth, ppAlive, ppHeld, inItems, inClosed, 
-                                 inWaker, pollFn, chuteFn, pwTaken, nextPoll, 
-                                 ppItem, h, dead, sti, rq, sq, sj, ww, rsq, 
-                                 bown, bwk, bi, bcur, bw, fj, dq, dj, oq, oop, 
-                                 omode, oj, yq, yop, tq, top, af, wf, wop, sf, 
-                                 sctx, xf, cop, kj, pp, np, nbp, nres, dp, pf, 
-                                 pctx, pq, pj, pd, nq >>
+                                 gwhist, dwSt, dwW, dblTaken, dblW1, dblW2, 
+                                 nextDW, ready, cwait, cnotif, cvHeld, jpanic, 
+                                 sfst, slotSt, qrSent, qrWaker, dnState, 
+                                 dnWaker, parkTok, rwb, rneed, dsl, atomic, 
+                                 strong, ppPending, ppClosed, ppNotify, ppNC, 
+                                 ppBP, ppDepth, ppAlive, ppHeld, inItems, 
+                                 inClosed, inWaker, pollFn, chuteFn, pwTaken, 
+                                 nextPoll, ppItem, h, dead, sti, rq, sq, sj, 
+                                 ww, rsq, bown, bwk, bi, bcur, bw, bsp, fj, dq, 
+                                 dj, oq, oop, omode, oj, yq, yop, tq, top, af, 
+                                 wf, wop, sf, sctx, xf, cop, kj, pp, np, nbp, 
+                                 nres, dp, pf, pctx, pq, pj, pd, nq >>
 
 RunJob(self) == z_rj(self) \/ z_rj_ret(self) \/ z_rj_ok(self)
                    \/ z_pp_gc(self) \/ z_slot2(self) \/ sus_signal(self)
@@ -3324,19 +3422,19 @@ fj_lock(self) == /\ pc[self] = "fj_lock"
                  /\ UNCHANGED << qstate, qpoll, jobs, wakeBlocked, schedule, 
                                  pthreads, nspawned, palive, busy, busyLocked, 
                                  inbox, chanOpen, pfin, thrHeld, maxThreads, 
-                                 jkind, jaw, gfired, gwaker, gthreads, dwSt, 
-                                 dwW, dblTaken, dblW1, dblW2, nextDW, cwait, 
-                                 cvHeld, sdres, jpanic, sfst, slotSt, qrSent, 
-                                 qrWaker, dnState, dnWaker, rv, rwb, rneed, 
-                                 dsl, atomic, strong, ppPending, ppClosed, 
-                                 ppNotify, ppNC, ppBP, ppDepth, ppAlive, 
-                                 ppHeld, inItems, inClosed, inWaker, pollFn, 
-                                 chuteFn, pwTaken, nextPoll, ppItem, h, dead, 
-                                 sti, rq, sq, sj, rsq, bown, bwk, bi, bcur, bw, 
-                                 jq, jj, jwk, dq, dj, oq, oop, omode, oj, yq, 
-                                 yop, tq, top, af, wf, wop, sf, sctx, xf, cop, 
-                                 kj, pp, np, nbp, nres, dp, pf, pctx, pq, pj, 
-                                 pd, nq >>
+                                 jkind, jaw, gfired, gwaker, gthreads, gwhist, 
+                                 dwSt, dwW, dblTaken, dblW1, dblW2, nextDW, 
+                                 cwait, cvHeld, sdres, jpanic, sfst, slotSt, 
+                                 qrSent, qrWaker, dnState, dnWaker, rv, rwb, 
+                                 rneed, dsl, atomic, strong, ppPending, 
+                                 ppClosed, ppNotify, ppNC, ppBP, ppDepth, 
+                                 ppAlive, ppHeld, inItems, inClosed, inWaker, 
+                                 pollFn, chuteFn, pwTaken, nextPoll, ppItem, h, 
+                                 dead, sti, rq, sq, sj, rsq, bown, bwk, bi, 
+                                 bcur, bw, bsp, jq, jj, jwk, dq, dj, oq, oop, 
+                                 omode, oj, yq, yop, tq, top, af, wf, wop, sf, 
+                                 sctx, xf, cop, kj, pp, np, nbp, nres, dp, pf, 
+                                 pctx, pq, pj, pd, nq >>
 
 z_fj_chk(self) == /\ pc[self] = "z_fj_chk"
                   /\ IF jpanic[fj[self]] /\ jkind[fj[self]] = "fut"
@@ -3349,16 +3447,16 @@ z_fj_chk(self) == /\ pc[self] = "z_fj_chk"
                                   pthreads, nspawned, palive, busy, busyLocked, 
                                   inbox, chanOpen, pfin, thrHeld, maxThreads, 
                                   jkind, jaw, fres, fwaker, gfired, gwaker, 
-                                  gthreads, dwSt, dwW, dblTaken, dblW1, dblW2, 
-                                  nextDW, ready, cwait, cnotif, cvHeld, sdres, 
-                                  jpanic, sfst, slotSt, qrSent, qrWaker, 
+                                  gthreads, gwhist, dwSt, dwW, dblTaken, dblW1, 
+                                  dblW2, nextDW, ready, cwait, cnotif, cvHeld, 
+                                  sdres, jpanic, sfst, slotSt, qrSent, qrWaker, 
                                   dnState, dnWaker, parkTok, rv, rwb, rneed, 
                                   dsl, atomic, strong, ppPending, ppClosed, 
                                   ppNotify, ppNC, ppBP, ppDepth, ppAlive, 
                                   ppHeld, inItems, inClosed, inWaker, pollFn, 
                                   chuteFn, pwTaken, nextPoll, ppItem, h, dead, 
                                   sti, rq, sq, sj, ww, rsq, bown, bwk, bi, 
-                                  bcur, bw, jq, jj, jwk, dq, dj, oq, oop, 
+                                  bcur, bw, bsp, jq, jj, jwk, dq, dj, oq, oop, 
                                   omode, oj, yq, yop, tq, top, af, wf, wop, sf, 
                                   sctx, xf, cop, kj, pp, np, nbp, nres, dp, pf, 
                                   pctx, pq, pj, pd, nq >>
@@ -3371,8 +3469,8 @@ fj_sigdrop(self) == /\ pc[self] = "fj_sigdrop"
                                     pthreads, nspawned, palive, busy, 
                                     busyLocked, inbox, chanOpen, pfin, thrHeld, 
                                     maxThreads, jkind, jaw, fres, fwaker, 
-                                    gfired, gwaker, gthreads, dwSt, dwW, 
-                                    dblTaken, dblW1, dblW2, nextDW, ready, 
+                                    gfired, gwaker, gthreads, gwhist, dwSt, 
+                                    dwW, dblTaken, dblW1, dblW2, nextDW, ready, 
                                     cwait, cnotif, cvHeld, sdres, jpanic, sfst, 
                                     slotSt, qrSent, qrWaker, dnState, dnWaker, 
                                     parkTok, rv, rwb, rneed, dsl, atomic, 
@@ -3381,10 +3479,10 @@ fj_sigdrop(self) == /\ pc[self] = "fj_sigdrop"
                                     inItems, inClosed, inWaker, pollFn, 
                                     chuteFn, pwTaken, nextPoll, ppItem, h, 
                                     dead, sti, rq, sq, sj, ww, rsq, bown, bwk, 
-                                    bi, bcur, bw, jq, jj, jwk, dq, dj, oq, oop, 
-                                    omode, oj, yq, yop, tq, top, af, wf, wop, 
-                                    sf, sctx, xf, cop, kj, pp, np, nbp, nres, 
-                                    dp, pf, pctx, pq, pj, pd, nq >>
+                                    bi, bcur, bw, bsp, jq, jj, jwk, dq, dj, oq, 
+                                    oop, omode, oj, yq, yop, tq, top, af, wf, 
+                                    wop, sf, sctx, xf, cop, kj, pp, np, nbp, 
+                                    nres, dp, pf, pctx, pq, pj, pd, nq >>
 
 FinishJob(self) == fj_lock(self) \/ z_fj_chk(self) \/ fj_sigdrop(self)
 
@@ -3408,18 +3506,18 @@ pd_deq(self) == /\ pc[self] = "pd_deq"
                                 nspawned, palive, busy, busyLocked, inbox, 
                                 chanOpen, pfin, thrHeld, maxThreads, jkind, 
                                 jaw, fres, fwaker, gfired, gwaker, gthreads, 
-                                dwSt, dwW, dblTaken, dblW1, dblW2, nextDW, 
-                                ready, cwait, cnotif, cvHeld, sdres, jpanic, 
-                                sfst, slotSt, qrSent, qrWaker, dnState, 
+                                gwhist, dwSt, dwW, dblTaken, dblW1, dblW2, 
+                                nextDW, ready, cwait, cnotif, cvHeld, sdres, 
+                                jpanic, sfst, slotSt, qrSent, qrWaker, dnState, 
                                 dnWaker, parkTok, rv, rwb, rneed, dsl, atomic, 
                                 strong, ppPending, ppClosed, ppNotify, ppNC, 
                                 ppBP, ppDepth, ppAlive, ppHeld, inItems, 
                                 inClosed, inWaker, pollFn, chuteFn, pwTaken, 
                                 nextPoll, ppItem, h, dead, sti, rq, sq, sj, ww, 
-                                rsq, bown, bwk, bi, bcur, bw, fj, dq, oq, oop, 
-                                omode, oj, yq, yop, tq, top, af, wf, wop, sf, 
-                                sctx, xf, cop, kj, pp, np, nbp, nres, dp, pf, 
-                                pctx, pq, pj, pd, nq >>
+                                rsq, bown, bwk, bi, bcur, bw, bsp, fj, dq, oq, 
+                                oop, omode, oj, yq, yop, tq, top, af, wf, wop, 
+                                sf, sctx, xf, cop, kj, pp, np, nbp, nres, dp, 
+                                pf, pctx, pq, pj, pd, nq >>
 
 z_pd_after(self) == /\ pc[self] = "z_pd_after"
                     /\ IF rv[self] = 5
@@ -3448,8 +3546,8 @@ z_pd_after(self) == /\ pc[self] = "z_pd_after"
                                     pthreads, nspawned, palive, busy, 
                                     busyLocked, inbox, chanOpen, pfin, thrHeld, 
                                     maxThreads, jkind, jaw, fres, fwaker, 
-                                    gfired, gwaker, gthreads, dwSt, dwW, 
-                                    dblTaken, dblW1, dblW2, nextDW, ready, 
+                                    gfired, gwaker, gthreads, gwhist, dwSt, 
+                                    dwW, dblTaken, dblW1, dblW2, nextDW, ready, 
                                     cwait, cnotif, cvHeld, sdres, jpanic, sfst, 
                                     slotSt, qrSent, qrWaker, dnState, dnWaker, 
                                     parkTok, rv, rwb, rneed, dsl, atomic, 
@@ -3458,10 +3556,10 @@ z_pd_after(self) == /\ pc[self] = "z_pd_after"
                                     inItems, inClosed, inWaker, pollFn, 
                                     chuteFn, pwTaken, nextPoll, ppItem, h, 
                                     dead, sti, rq, sq, sj, ww, rsq, bown, bwk, 
-                                    bi, bcur, bw, jq, jj, jwk, dq, dj, oq, oop, 
-                                    omode, oj, yq, yop, tq, top, af, wf, wop, 
-                                    sf, sctx, xf, cop, kj, pp, np, nbp, nres, 
-                                    dp, pf, pctx, pq, pj, pd, nq >>
+                                    bi, bcur, bw, bsp, jq, jj, jwk, dq, dj, oq, 
+                                    oop, omode, oj, yq, yop, tq, top, af, wf, 
+                                    wop, sf, sctx, xf, cop, kj, pp, np, nbp, 
+                                    nres, dp, pf, pctx, pq, pj, pd, nq >>
 
 pd_requeue(self) == /\ pc[self] = "pd_requeue"
                     /\ jobs' = [jobs EXCEPT ![dq[self]] = << dj[self] >> \o jobs[dq[self]]]
@@ -3470,8 +3568,8 @@ pd_requeue(self) == /\ pc[self] = "pd_requeue"
                                     pthreads, nspawned, palive, busy, 
                                     busyLocked, inbox, chanOpen, pfin, thrHeld, 
                                     maxThreads, jkind, jaw, fres, fwaker, 
-                                    gfired, gwaker, gthreads, dwSt, dwW, 
-                                    dblTaken, dblW1, dblW2, nextDW, ready, 
+                                    gfired, gwaker, gthreads, gwhist, dwSt, 
+                                    dwW, dblTaken, dblW1, dblW2, nextDW, ready, 
                                     cwait, cnotif, cvHeld, sdres, jpanic, sfst, 
                                     slotSt, qrSent, qrWaker, dnState, dnWaker, 
                                     parkTok, rv, rwb, rneed, dsl, atomic, 
@@ -3480,11 +3578,11 @@ pd_requeue(self) == /\ pc[self] = "pd_requeue"
                                     inItems, inClosed, inWaker, pollFn, 
                                     chuteFn, pwTaken, nextPoll, ppItem, h, 
                                     stack, dead, sti, rq, sq, sj, ww, rsq, 
-                                    bown, bwk, bi, bcur, bw, jq, jj, jwk, fj, 
-                                    dq, dj, oq, oop, omode, oj, yq, yop, tq, 
-                                    top, af, wf, wop, sf, sctx, xf, cop, kj, 
-                                    pp, np, nbp, nres, dp, pf, pctx, pq, pj, 
-                                    pd, nq >>
+                                    bown, bwk, bi, bcur, bw, bsp, jq, jj, jwk, 
+                                    fj, dq, dj, oq, oop, omode, oj, yq, yop, 
+                                    tq, top, af, wf, wop, sf, sctx, xf, cop, 
+                                    kj, pp, np, nbp, nres, dp, pf, pctx, pq, 
+                                    pj, pd, nq >>
 
 pd_park(self) == /\ pc[self] = "pd_park"
                  /\ IF qstate[dq[self]] = "Running"
@@ -3504,18 +3602,18 @@ pd_park(self) == /\ pc[self] = "pd_park"
                                  nspawned, palive, busy, busyLocked, inbox, 
                                  chanOpen, pfin, thrHeld, maxThreads, jkind, 
                                  jaw, fres, fwaker, gfired, gwaker, gthreads, 
-                                 dwSt, dwW, dblTaken, dblW1, dblW2, nextDW, 
-                                 ready, cwait, cnotif, cvHeld, sdres, jpanic, 
-                                 sfst, slotSt, qrSent, qrWaker, dnState, 
-                                 dnWaker, parkTok, rwb, rneed, dsl, atomic, 
-                                 strong, ppPending, ppClosed, ppNotify, ppNC, 
-                                 ppBP, ppDepth, ppAlive, ppHeld, inItems, 
+                                 gwhist, dwSt, dwW, dblTaken, dblW1, dblW2, 
+                                 nextDW, ready, cwait, cnotif, cvHeld, sdres, 
+                                 jpanic, sfst, slotSt, qrSent, qrWaker, 
+                                 dnState, dnWaker, parkTok, rwb, rneed, dsl, 
+                                 atomic, strong, ppPending, ppClosed, ppNotify, 
+                                 ppNC, ppBP, ppDepth, ppAlive, ppHeld, inItems, 
                                  inClosed, inWaker, pollFn, chuteFn, pwTaken, 
                                  nextPoll, ppItem, h, dead, sti, rq, sq, sj, 
-                                 ww, rsq, bown, bwk, bi, bcur, bw, jq, jj, jwk, 
-                                 fj, oq, oop, omode, oj, yq, yop, tq, top, af, 
-                                 wf, wop, sf, sctx, xf, cop, kj, pp, np, nbp, 
-                                 nres, dp, pf, pctx, pq, pj, pd, nq >>
+                                 ww, rsq, bown, bwk, bi, bcur, bw, bsp, jq, jj, 
+                                 jwk, fj, oq, oop, omode, oj, yq, yop, tq, top, 
+                                 af, wf, wop, sf, sctx, xf, cop, kj, pp, np, 
+                                 nbp, nres, dp, pf, pctx, pq, pj, pd, nq >>
 
 pd_end(self) == /\ pc[self] = "pd_end"
                 /\ IF jobs[dq[self]] = << >>
@@ -3541,18 +3639,18 @@ pd_end(self) == /\ pc[self] = "pd_end"
                                 nspawned, palive, busy, busyLocked, inbox, 
                                 chanOpen, pfin, thrHeld, maxThreads, jkind, 
                                 jaw, fres, fwaker, gfired, gwaker, gthreads, 
-                                dwSt, dwW, dblTaken, dblW1, dblW2, nextDW, 
-                                ready, cwait, cnotif, cvHeld, sdres, jpanic, 
-                                sfst, slotSt, qrSent, qrWaker, dnState, 
+                                gwhist, dwSt, dwW, dblTaken, dblW1, dblW2, 
+                                nextDW, ready, cwait, cnotif, cvHeld, sdres, 
+                                jpanic, sfst, slotSt, qrSent, qrWaker, dnState, 
                                 dnWaker, parkTok, rwb, rneed, dsl, atomic, 
                                 strong, ppPending, ppClosed, ppNotify, ppNC, 
                                 ppBP, ppDepth, ppAlive, ppHeld, inItems, 
                                 inClosed, inWaker, pollFn, chuteFn, pwTaken, 
                                 nextPoll, ppItem, h, dead, sti, rq, sq, sj, ww, 
-                                rsq, bown, bwk, bi, bcur, bw, jq, jj, jwk, fj, 
-                                oq, oop, omode, oj, yq, yop, tq, top, af, wf, 
-                                wop, sf, sctx, xf, cop, kj, pp, np, nbp, nres, 
-                                dp, pf, pctx, pq, pj, pd, nq >>
+                                rsq, bown, bwk, bi, bcur, bw, bsp, jq, jj, jwk, 
+                                fj, oq, oop, omode, oj, yq, yop, tq, top, af, 
+                                wf, wop, sf, sctx, xf, cop, kj, pp, np, nbp, 
+                                nres, dp, pf, pctx, pq, pj, pd, nq >>
 
 pd_panic(self) == /\ pc[self] = "pd_panic"
                   /\ qstate' = [qstate EXCEPT ![dq[self]] = "Panicked"]
@@ -3565,18 +3663,19 @@ pd_panic(self) == /\ pc[self] = "pd_panic"
                                   nspawned, palive, busy, busyLocked, inbox, 
                                   chanOpen, pfin, thrHeld, maxThreads, jkind, 
                                   jaw, fres, fwaker, gfired, gwaker, gthreads, 
-                                  dwSt, dwW, dblTaken, dblW1, dblW2, nextDW, 
-                                  ready, cwait, cnotif, cvHeld, sdres, jpanic, 
-                                  sfst, slotSt, qrSent, qrWaker, dnState, 
-                                  dnWaker, parkTok, rwb, rneed, dsl, atomic, 
-                                  strong, ppPending, ppClosed, ppNotify, ppNC, 
-                                  ppBP, ppDepth, ppAlive, ppHeld, inItems, 
-                                  inClosed, inWaker, pollFn, chuteFn, pwTaken, 
-                                  nextPoll, ppItem, h, dead, sti, rq, sq, sj, 
-                                  ww, rsq, bown, bwk, bi, bcur, bw, jq, jj, 
-                                  jwk, fj, oq, oop, omode, oj, yq, yop, tq, 
-                                  top, af, wf, wop, sf, sctx, xf, cop, kj, pp, 
-                                  np, nbp, nres, dp, pf, pctx, pq, pj, pd, nq >>
+                                  gwhist, dwSt, dwW, dblTaken, dblW1, dblW2, 
+                                  nextDW, ready, cwait, cnotif, cvHeld, sdres, 
+                                  jpanic, sfst, slotSt, qrSent, qrWaker, 
+                                  dnState, dnWaker, parkTok, rwb, rneed, dsl, 
+                                  atomic, strong, ppPending, ppClosed, 
+                                  ppNotify, ppNC, ppBP, ppDepth, ppAlive, 
+                                  ppHeld, inItems, inClosed, inWaker, pollFn, 
+                                  chuteFn, pwTaken, nextPoll, ppItem, h, dead, 
+                                  sti, rq, sq, sj, ww, rsq, bown, bwk, bi, 
+                                  bcur, bw, bsp, jq, jj, jwk, fj, oq, oop, 
+                                  omode, oj, yq, yop, tq, top, af, wf, wop, sf, 
+                                  sctx, xf, cop, kj, pp, np, nbp, nres, dp, pf, 
+                                  pctx, pq, pj, pd, nq >>
 
 PoolDrain(self) == pd_deq(self) \/ z_pd_after(self) \/ pd_requeue(self)
                       \/ pd_park(self) \/ pd_end(self) \/ pd_panic(self)
@@ -3612,18 +3711,18 @@ ro_deq(self) == /\ pc[self] = "ro_deq"
                                 nspawned, palive, busy, busyLocked, inbox, 
                                 chanOpen, pfin, thrHeld, maxThreads, jkind, 
                                 jaw, fres, fwaker, gfired, gwaker, gthreads, 
-                                dwSt, dwW, dblTaken, dblW1, dblW2, nextDW, 
-                                ready, cwait, cnotif, cvHeld, sdres, jpanic, 
-                                sfst, slotSt, qrSent, qrWaker, dnState, 
+                                gwhist, dwSt, dwW, dblTaken, dblW1, dblW2, 
+                                nextDW, ready, cwait, cnotif, cvHeld, sdres, 
+                                jpanic, sfst, slotSt, qrSent, qrWaker, dnState, 
                                 dnWaker, parkTok, rwb, rneed, dsl, atomic, 
                                 strong, ppPending, ppClosed, ppNotify, ppNC, 
                                 ppBP, ppDepth, ppAlive, ppHeld, inItems, 
                                 inClosed, inWaker, pollFn, chuteFn, pwTaken, 
                                 nextPoll, ppItem, h, dead, sti, rq, sq, sj, ww, 
-                                rsq, bown, bwk, bi, bcur, bw, fj, dq, dj, yq, 
-                                yop, tq, top, af, wf, wop, sf, sctx, xf, cop, 
-                                kj, pp, np, nbp, nres, dp, pf, pctx, pq, pj, 
-                                pd, nq >>
+                                rsq, bown, bwk, bi, bcur, bw, bsp, fj, dq, dj, 
+                                yq, yop, tq, top, af, wf, wop, sf, sctx, xf, 
+                                cop, kj, pp, np, nbp, nres, dp, pf, pctx, pq, 
+                                pj, pd, nq >>
 
 z_ro_after(self) == /\ pc[self] = "z_ro_after"
                     /\ IF rv[self] = 5
@@ -3652,8 +3751,8 @@ z_ro_after(self) == /\ pc[self] = "z_ro_after"
                                     pthreads, nspawned, palive, busy, 
                                     busyLocked, inbox, chanOpen, pfin, thrHeld, 
                                     maxThreads, jkind, jaw, fres, fwaker, 
-                                    gfired, gwaker, gthreads, dwSt, dwW, 
-                                    dblTaken, dblW1, dblW2, nextDW, ready, 
+                                    gfired, gwaker, gthreads, gwhist, dwSt, 
+                                    dwW, dblTaken, dblW1, dblW2, nextDW, ready, 
                                     cwait, cnotif, cvHeld, sdres, jpanic, sfst, 
                                     slotSt, qrSent, qrWaker, dnState, dnWaker, 
                                     parkTok, rv, rwb, rneed, dsl, atomic, 
@@ -3662,10 +3761,10 @@ z_ro_after(self) == /\ pc[self] = "z_ro_after"
                                     inItems, inClosed, inWaker, pollFn, 
                                     chuteFn, pwTaken, nextPoll, ppItem, h, 
                                     dead, sti, rq, sq, sj, ww, rsq, bown, bwk, 
-                                    bi, bcur, bw, jq, jj, jwk, dq, dj, oq, oop, 
-                                    omode, oj, yq, yop, tq, top, af, wf, wop, 
-                                    sf, sctx, xf, cop, kj, pp, np, nbp, nres, 
-                                    dp, pf, pctx, pq, pj, pd, nq >>
+                                    bi, bcur, bw, bsp, jq, jj, jwk, dq, dj, oq, 
+                                    oop, omode, oj, yq, yop, tq, top, af, wf, 
+                                    wop, sf, sctx, xf, cop, kj, pp, np, nbp, 
+                                    nres, dp, pf, pctx, pq, pj, pd, nq >>
 
 z_ro_done(self) == /\ pc[self] = "z_ro_done"
                    /\ IF omode[self] = "sd" /\ ~sdres[oop[self]]
@@ -3682,7 +3781,7 @@ z_ro_done(self) == /\ pc[self] = "z_ro_done"
                                    pthreads, nspawned, palive, busy, 
                                    busyLocked, inbox, chanOpen, pfin, thrHeld, 
                                    maxThreads, jkind, jaw, fres, fwaker, 
-                                   gfired, gwaker, gthreads, dwSt, dwW, 
+                                   gfired, gwaker, gthreads, gwhist, dwSt, dwW, 
                                    dblTaken, dblW1, dblW2, nextDW, ready, 
                                    cwait, cnotif, cvHeld, sdres, jpanic, sfst, 
                                    slotSt, qrSent, qrWaker, dnState, dnWaker, 
@@ -3691,10 +3790,10 @@ z_ro_done(self) == /\ pc[self] = "z_ro_done"
                                    ppDepth, ppAlive, ppHeld, inItems, inClosed, 
                                    inWaker, pollFn, chuteFn, pwTaken, nextPoll, 
                                    ppItem, h, dead, sti, rq, sq, sj, ww, rsq, 
-                                   bown, bwk, bi, bcur, bw, jq, jj, jwk, fj, 
-                                   dq, dj, yq, yop, tq, top, af, wf, wop, sf, 
-                                   sctx, xf, cop, kj, pp, np, nbp, nres, dp, 
-                                   pf, pctx, pq, pj, pd, nq >>
+                                   bown, bwk, bi, bcur, bw, bsp, jq, jj, jwk, 
+                                   fj, dq, dj, yq, yop, tq, top, af, wf, wop, 
+                                   sf, sctx, xf, cop, kj, pp, np, nbp, nres, 
+                                   dp, pf, pctx, pq, pj, pd, nq >>
 
 z_ro_panic(self) == /\ pc[self] = "z_ro_panic"
                     /\ rv' = [rv EXCEPT ![self] = 9]
@@ -3708,8 +3807,8 @@ z_ro_panic(self) == /\ pc[self] = "z_ro_panic"
                                     pthreads, nspawned, palive, busy, 
                                     busyLocked, inbox, chanOpen, pfin, thrHeld, 
                                     maxThreads, jkind, jaw, fres, fwaker, 
-                                    gfired, gwaker, gthreads, dwSt, dwW, 
-                                    dblTaken, dblW1, dblW2, nextDW, ready, 
+                                    gfired, gwaker, gthreads, gwhist, dwSt, 
+                                    dwW, dblTaken, dblW1, dblW2, nextDW, ready, 
                                     cwait, cnotif, cvHeld, sdres, jpanic, sfst, 
                                     slotSt, qrSent, qrWaker, dnState, dnWaker, 
                                     parkTok, rwb, rneed, dsl, atomic, strong, 
@@ -3718,10 +3817,10 @@ z_ro_panic(self) == /\ pc[self] = "z_ro_panic"
                                     inClosed, inWaker, pollFn, chuteFn, 
                                     pwTaken, nextPoll, ppItem, h, dead, sti, 
                                     rq, sq, sj, ww, rsq, bown, bwk, bi, bcur, 
-                                    bw, jq, jj, jwk, fj, dq, dj, yq, yop, tq, 
-                                    top, af, wf, wop, sf, sctx, xf, cop, kj, 
-                                    pp, np, nbp, nres, dp, pf, pctx, pq, pj, 
-                                    pd, nq >>
+                                    bw, bsp, jq, jj, jwk, fj, dq, dj, yq, yop, 
+                                    tq, top, af, wf, wop, sf, sctx, xf, cop, 
+                                    kj, pp, np, nbp, nres, dp, pf, pctx, pq, 
+                                    pj, pd, nq >>
 
 ro_park(self) == /\ pc[self] = "ro_park"
                  /\ IF qstate[oq[self]] = "AwokenWhileRunning"
@@ -3737,7 +3836,7 @@ ro_park(self) == /\ pc[self] = "ro_park"
                                                                     \o stack[self]]
                             /\ pc' = [pc EXCEPT ![self] = "z_rj"]
                        ELSE /\ Assert(qstate[oq[self]] = "Running", 
-                                      "Failure of assertion at line 566, column 5.")
+                                      "Failure of assertion at line 576, column 5.")
                             /\ qstate' = [qstate EXCEPT ![oq[self]] = "WaitingForUnpark"]
                             /\ pc' = [pc EXCEPT ![self] = "ro_check"]
                             /\ UNCHANGED << stack, jq, jj, jwk >>
@@ -3745,18 +3844,19 @@ ro_park(self) == /\ pc[self] = "ro_park"
                                  nspawned, palive, busy, busyLocked, inbox, 
                                  chanOpen, pfin, thrHeld, maxThreads, jkind, 
                                  jaw, fres, fwaker, gfired, gwaker, gthreads, 
-                                 dwSt, dwW, dblTaken, dblW1, dblW2, nextDW, 
-                                 ready, cwait, cnotif, cvHeld, sdres, jpanic, 
-                                 sfst, slotSt, qrSent, qrWaker, dnState, 
-                                 dnWaker, parkTok, rv, rwb, rneed, dsl, atomic, 
-                                 strong, ppPending, ppClosed, ppNotify, ppNC, 
-                                 ppBP, ppDepth, ppAlive, ppHeld, inItems, 
-                                 inClosed, inWaker, pollFn, chuteFn, pwTaken, 
-                                 nextPoll, ppItem, h, dead, sti, rq, sq, sj, 
-                                 ww, rsq, bown, bwk, bi, bcur, bw, fj, dq, dj, 
-                                 oq, oop, omode, oj, yq, yop, tq, top, af, wf, 
-                                 wop, sf, sctx, xf, cop, kj, pp, np, nbp, nres, 
-                                 dp, pf, pctx, pq, pj, pd, nq >>
+                                 gwhist, dwSt, dwW, dblTaken, dblW1, dblW2, 
+                                 nextDW, ready, cwait, cnotif, cvHeld, sdres, 
+                                 jpanic, sfst, slotSt, qrSent, qrWaker, 
+                                 dnState, dnWaker, parkTok, rv, rwb, rneed, 
+                                 dsl, atomic, strong, ppPending, ppClosed, 
+                                 ppNotify, ppNC, ppBP, ppDepth, ppAlive, 
+                                 ppHeld, inItems, inClosed, inWaker, pollFn, 
+                                 chuteFn, pwTaken, nextPoll, ppItem, h, dead, 
+                                 sti, rq, sq, sj, ww, rsq, bown, bwk, bi, bcur, 
+                                 bw, bsp, fj, dq, dj, oq, oop, omode, oj, yq, 
+                                 yop, tq, top, af, wf, wop, sf, sctx, xf, cop, 
+                                 kj, pp, np, nbp, nres, dp, pf, pctx, pq, pj, 
+                                 pd, nq >>
 
 ro_check(self) == /\ pc[self] = "ro_check"
                   /\ IF qstate[oq[self]] \in {"Running", "AwokenWhileRunning"}
@@ -3771,26 +3871,26 @@ ro_check(self) == /\ pc[self] = "ro_check"
                                                                      \o stack[self]]
                              /\ pc' = [pc EXCEPT ![self] = "z_rj"]
                         ELSE /\ Assert(qstate[oq[self]] = "WaitingForUnpark", 
-                                       "Failure of assertion at line 573, column 12.")
+                                       "Failure of assertion at line 583, column 12.")
                              /\ pc' = [pc EXCEPT ![self] = "ro_parked"]
                              /\ UNCHANGED << stack, jq, jj, jwk >>
                   /\ UNCHANGED << qstate, qpoll, jobs, wakeBlocked, schedule, 
                                   pthreads, nspawned, palive, busy, busyLocked, 
                                   inbox, chanOpen, pfin, thrHeld, maxThreads, 
                                   jkind, jaw, fres, fwaker, gfired, gwaker, 
-                                  gthreads, dwSt, dwW, dblTaken, dblW1, dblW2, 
-                                  nextDW, ready, cwait, cnotif, cvHeld, sdres, 
-                                  jpanic, sfst, slotSt, qrSent, qrWaker, 
+                                  gthreads, gwhist, dwSt, dwW, dblTaken, dblW1, 
+                                  dblW2, nextDW, ready, cwait, cnotif, cvHeld, 
+                                  sdres, jpanic, sfst, slotSt, qrSent, qrWaker, 
                                   dnState, dnWaker, parkTok, rv, rwb, rneed, 
                                   dsl, atomic, strong, ppPending, ppClosed, 
                                   ppNotify, ppNC, ppBP, ppDepth, ppAlive, 
                                   ppHeld, inItems, inClosed, inWaker, pollFn, 
                                   chuteFn, pwTaken, nextPoll, ppItem, h, dead, 
                                   sti, rq, sq, sj, ww, rsq, bown, bwk, bi, 
-                                  bcur, bw, fj, dq, dj, oq, oop, omode, oj, yq, 
-                                  yop, tq, top, af, wf, wop, sf, sctx, xf, cop, 
-                                  kj, pp, np, nbp, nres, dp, pf, pctx, pq, pj, 
-                                  pd, nq >>
+                                  bcur, bw, bsp, fj, dq, dj, oq, oop, omode, 
+                                  oj, yq, yop, tq, top, af, wf, wop, sf, sctx, 
+                                  xf, cop, kj, pp, np, nbp, nres, dp, pf, pctx, 
+                                  pq, pj, pd, nq >>
 
 ro_parked(self) == /\ pc[self] = "ro_parked"
                    /\ parkTok[self]
@@ -3801,7 +3901,7 @@ ro_parked(self) == /\ pc[self] = "ro_parked"
                                    pthreads, nspawned, palive, busy, 
                                    busyLocked, inbox, chanOpen, pfin, thrHeld, 
                                    maxThreads, jkind, jaw, fres, fwaker, 
-                                   gfired, gwaker, gthreads, dwSt, dwW, 
+                                   gfired, gwaker, gthreads, gwhist, dwSt, dwW, 
                                    dblTaken, dblW1, dblW2, nextDW, ready, 
                                    cwait, cnotif, cvHeld, sdres, jpanic, sfst, 
                                    slotSt, qrSent, qrWaker, dnState, dnWaker, 
@@ -3810,10 +3910,11 @@ ro_parked(self) == /\ pc[self] = "ro_parked"
                                    ppDepth, ppAlive, ppHeld, inItems, inClosed, 
                                    inWaker, pollFn, chuteFn, pwTaken, nextPoll, 
                                    ppItem, stack, dead, sti, rq, sq, sj, ww, 
-                                   rsq, bown, bwk, bi, bcur, bw, jq, jj, jwk, 
-                                   fj, dq, dj, oq, oop, omode, oj, yq, yop, tq, 
-                                   top, af, wf, wop, sf, sctx, xf, cop, kj, pp, 
-                                   np, nbp, nres, dp, pf, pctx, pq, pj, pd, nq >>
+                                   rsq, bown, bwk, bi, bcur, bw, bsp, jq, jj, 
+                                   jwk, fj, dq, dj, oq, oop, omode, oj, yq, 
+                                   yop, tq, top, af, wf, wop, sf, sctx, xf, 
+                                   cop, kj, pp, np, nbp, nres, dp, pf, pctx, 
+                                   pq, pj, pd, nq >>
 
 RunOne(self) == ro_deq(self) \/ z_ro_after(self) \/ z_ro_done(self)
                    \/ z_ro_panic(self) \/ ro_park(self) \/ ro_check(self)
@@ -3862,19 +3963,19 @@ sy_decide(self) == /\ pc[self] = "sy_decide"
                                    pthreads, nspawned, palive, busy, 
                                    busyLocked, inbox, chanOpen, pfin, thrHeld, 
                                    maxThreads, jaw, fres, fwaker, gfired, 
-                                   gwaker, gthreads, dwSt, dwW, dblTaken, 
-                                   dblW1, dblW2, nextDW, ready, cwait, cnotif, 
-                                   cvHeld, sdres, jpanic, sfst, slotSt, qrSent, 
-                                   qrWaker, dnState, dnWaker, parkTok, rwb, 
-                                   rneed, dsl, atomic, strong, ppPending, 
-                                   ppClosed, ppNotify, ppNC, ppBP, ppDepth, 
-                                   ppAlive, ppHeld, inItems, inClosed, inWaker, 
-                                   pollFn, chuteFn, pwTaken, nextPoll, ppItem, 
-                                   h, dead, sti, rq, sq, sj, ww, rsq, bown, 
-                                   bwk, bi, bcur, bw, fj, dq, dj, oq, oop, 
-                                   omode, oj, tq, top, af, wf, wop, sf, sctx, 
-                                   xf, cop, kj, pp, np, nbp, nres, dp, pf, 
-                                   pctx, pq, pj, pd, nq >>
+                                   gwaker, gthreads, gwhist, dwSt, dwW, 
+                                   dblTaken, dblW1, dblW2, nextDW, ready, 
+                                   cwait, cnotif, cvHeld, sdres, jpanic, sfst, 
+                                   slotSt, qrSent, qrWaker, dnState, dnWaker, 
+                                   parkTok, rwb, rneed, dsl, atomic, strong, 
+                                   ppPending, ppClosed, ppNotify, ppNC, ppBP, 
+                                   ppDepth, ppAlive, ppHeld, inItems, inClosed, 
+                                   inWaker, pollFn, chuteFn, pwTaken, nextPoll, 
+                                   ppItem, h, dead, sti, rq, sq, sj, ww, rsq, 
+                                   bown, bwk, bi, bcur, bw, bsp, fj, dq, dj, 
+                                   oq, oop, omode, oj, tq, top, af, wf, wop, 
+                                   sf, sctx, xf, cop, kj, pp, np, nbp, nres, 
+                                   dp, pf, pctx, pq, pj, pd, nq >>
 
 z_si_chk(self) == /\ pc[self] = "z_si_chk"
                   /\ IF rv[self] = 9
@@ -3884,17 +3985,17 @@ z_si_chk(self) == /\ pc[self] = "z_si_chk"
                                   pthreads, nspawned, palive, busy, busyLocked, 
                                   inbox, chanOpen, pfin, thrHeld, maxThreads, 
                                   jkind, jaw, fres, fwaker, gfired, gwaker, 
-                                  gthreads, dwSt, dwW, dblTaken, dblW1, dblW2, 
-                                  nextDW, ready, cwait, cnotif, cvHeld, sdres, 
-                                  jpanic, sfst, slotSt, qrSent, qrWaker, 
+                                  gthreads, gwhist, dwSt, dwW, dblTaken, dblW1, 
+                                  dblW2, nextDW, ready, cwait, cnotif, cvHeld, 
+                                  sdres, jpanic, sfst, slotSt, qrSent, qrWaker, 
                                   dnState, dnWaker, parkTok, rv, rwb, rneed, 
                                   dsl, atomic, strong, ppPending, ppClosed, 
                                   ppNotify, ppNC, ppBP, ppDepth, ppAlive, 
                                   ppHeld, inItems, inClosed, inWaker, pollFn, 
                                   chuteFn, pwTaken, nextPoll, ppItem, h, stack, 
                                   dead, sti, rq, sq, sj, ww, rsq, bown, bwk, 
-                                  bi, bcur, bw, jq, jj, jwk, fj, dq, dj, oq, 
-                                  oop, omode, oj, yq, yop, tq, top, af, wf, 
+                                  bi, bcur, bw, bsp, jq, jj, jwk, fj, dq, dj, 
+                                  oq, oop, omode, oj, yq, yop, tq, top, af, wf, 
                                   wop, sf, sctx, xf, cop, kj, pp, np, nbp, 
                                   nres, dp, pf, pctx, pq, pj, pd, nq >>
 
@@ -3910,18 +4011,19 @@ si_idle(self) == /\ pc[self] = "si_idle"
                                  nspawned, palive, busy, busyLocked, inbox, 
                                  chanOpen, pfin, thrHeld, maxThreads, jkind, 
                                  jaw, fres, fwaker, gfired, gwaker, gthreads, 
-                                 dwSt, dwW, dblTaken, dblW1, dblW2, nextDW, 
-                                 ready, cwait, cnotif, cvHeld, sdres, jpanic, 
-                                 sfst, slotSt, qrSent, qrWaker, dnState, 
-                                 dnWaker, parkTok, rv, rwb, rneed, dsl, atomic, 
-                                 strong, ppPending, ppClosed, ppNotify, ppNC, 
-                                 ppBP, ppDepth, ppAlive, ppHeld, inItems, 
-                                 inClosed, inWaker, pollFn, chuteFn, pwTaken, 
-                                 nextPoll, ppItem, h, dead, sti, sq, sj, ww, 
-                                 rsq, bown, bwk, bi, bcur, bw, jq, jj, jwk, fj, 
-                                 dq, dj, oq, oop, omode, oj, yq, yop, tq, top, 
-                                 af, wf, wop, sf, sctx, xf, cop, kj, pp, np, 
-                                 nbp, nres, dp, pf, pctx, pq, pj, pd, nq >>
+                                 gwhist, dwSt, dwW, dblTaken, dblW1, dblW2, 
+                                 nextDW, ready, cwait, cnotif, cvHeld, sdres, 
+                                 jpanic, sfst, slotSt, qrSent, qrWaker, 
+                                 dnState, dnWaker, parkTok, rv, rwb, rneed, 
+                                 dsl, atomic, strong, ppPending, ppClosed, 
+                                 ppNotify, ppNC, ppBP, ppDepth, ppAlive, 
+                                 ppHeld, inItems, inClosed, inWaker, pollFn, 
+                                 chuteFn, pwTaken, nextPoll, ppItem, h, dead, 
+                                 sti, sq, sj, ww, rsq, bown, bwk, bi, bcur, bw, 
+                                 bsp, jq, jj, jwk, fj, dq, dj, oq, oop, omode, 
+                                 oj, yq, yop, tq, top, af, wf, wop, sf, sctx, 
+                                 xf, cop, kj, pp, np, nbp, nres, dp, pf, pctx, 
+                                 pq, pj, pd, nq >>
 
 z_si_ret(self) == /\ pc[self] = "z_si_ret"
                   /\ rv' = [rv EXCEPT ![self] = 0]
@@ -3933,19 +4035,19 @@ z_si_ret(self) == /\ pc[self] = "z_si_ret"
                                   pthreads, nspawned, palive, busy, busyLocked, 
                                   inbox, chanOpen, pfin, thrHeld, maxThreads, 
                                   jkind, jaw, fres, fwaker, gfired, gwaker, 
-                                  gthreads, dwSt, dwW, dblTaken, dblW1, dblW2, 
-                                  nextDW, ready, cwait, cnotif, cvHeld, sdres, 
-                                  jpanic, sfst, slotSt, qrSent, qrWaker, 
+                                  gthreads, gwhist, dwSt, dwW, dblTaken, dblW1, 
+                                  dblW2, nextDW, ready, cwait, cnotif, cvHeld, 
+                                  sdres, jpanic, sfst, slotSt, qrSent, qrWaker, 
                                   dnState, dnWaker, parkTok, rwb, rneed, dsl, 
                                   atomic, strong, ppPending, ppClosed, 
                                   ppNotify, ppNC, ppBP, ppDepth, ppAlive, 
                                   ppHeld, inItems, inClosed, inWaker, pollFn, 
                                   chuteFn, pwTaken, nextPoll, ppItem, h, dead, 
                                   sti, rq, sq, sj, ww, rsq, bown, bwk, bi, 
-                                  bcur, bw, jq, jj, jwk, fj, dq, dj, oq, oop, 
-                                  omode, oj, tq, top, af, wf, wop, sf, sctx, 
-                                  xf, cop, kj, pp, np, nbp, nres, dp, pf, pctx, 
-                                  pq, pj, pd, nq >>
+                                  bcur, bw, bsp, jq, jj, jwk, fj, dq, dj, oq, 
+                                  oop, omode, oj, tq, top, af, wf, wop, sf, 
+                                  sctx, xf, cop, kj, pp, np, nbp, nres, dp, pf, 
+                                  pctx, pq, pj, pd, nq >>
 
 sd_push(self) == /\ pc[self] = "sd_push"
                  /\ jkind' = [jkind EXCEPT ![yop[self]] = "syncdrain"]
@@ -3966,18 +4068,18 @@ sd_push(self) == /\ pc[self] = "sd_push"
                                  pthreads, nspawned, palive, busy, busyLocked, 
                                  inbox, chanOpen, pfin, thrHeld, maxThreads, 
                                  jaw, fres, fwaker, gfired, gwaker, gthreads, 
-                                 dwSt, dwW, dblTaken, dblW1, dblW2, nextDW, 
-                                 ready, cwait, cnotif, cvHeld, sdres, jpanic, 
-                                 sfst, slotSt, qrSent, qrWaker, dnState, 
-                                 dnWaker, parkTok, rv, rwb, rneed, dsl, atomic, 
-                                 strong, ppPending, ppClosed, ppNotify, ppNC, 
-                                 ppBP, ppDepth, ppAlive, ppHeld, inItems, 
-                                 inClosed, inWaker, pollFn, chuteFn, pwTaken, 
-                                 nextPoll, ppItem, h, dead, sti, rq, sq, sj, 
-                                 ww, rsq, bown, bwk, bi, bcur, bw, jq, jj, jwk, 
-                                 fj, dq, dj, yq, yop, tq, top, af, wf, wop, sf, 
-                                 sctx, xf, cop, kj, pp, np, nbp, nres, dp, pf, 
-                                 pctx, pq, pj, pd, nq >>
+                                 gwhist, dwSt, dwW, dblTaken, dblW1, dblW2, 
+                                 nextDW, ready, cwait, cnotif, cvHeld, sdres, 
+                                 jpanic, sfst, slotSt, qrSent, qrWaker, 
+                                 dnState, dnWaker, parkTok, rv, rwb, rneed, 
+                                 dsl, atomic, strong, ppPending, ppClosed, 
+                                 ppNotify, ppNC, ppBP, ppDepth, ppAlive, 
+                                 ppHeld, inItems, inClosed, inWaker, pollFn, 
+                                 chuteFn, pwTaken, nextPoll, ppItem, h, dead, 
+                                 sti, rq, sq, sj, ww, rsq, bown, bwk, bi, bcur, 
+                                 bw, bsp, jq, jj, jwk, fj, dq, dj, yq, yop, tq, 
+                                 top, af, wf, wop, sf, sctx, xf, cop, kj, pp, 
+                                 np, nbp, nres, dp, pf, pctx, pq, pj, pd, nq >>
 
 z_sd_chk(self) == /\ pc[self] = "z_sd_chk"
                   /\ IF rv[self] = 9
@@ -3987,17 +4089,17 @@ z_sd_chk(self) == /\ pc[self] = "z_sd_chk"
                                   pthreads, nspawned, palive, busy, busyLocked, 
                                   inbox, chanOpen, pfin, thrHeld, maxThreads, 
                                   jkind, jaw, fres, fwaker, gfired, gwaker, 
-                                  gthreads, dwSt, dwW, dblTaken, dblW1, dblW2, 
-                                  nextDW, ready, cwait, cnotif, cvHeld, sdres, 
-                                  jpanic, sfst, slotSt, qrSent, qrWaker, 
+                                  gthreads, gwhist, dwSt, dwW, dblTaken, dblW1, 
+                                  dblW2, nextDW, ready, cwait, cnotif, cvHeld, 
+                                  sdres, jpanic, sfst, slotSt, qrSent, qrWaker, 
                                   dnState, dnWaker, parkTok, rv, rwb, rneed, 
                                   dsl, atomic, strong, ppPending, ppClosed, 
                                   ppNotify, ppNC, ppBP, ppDepth, ppAlive, 
                                   ppHeld, inItems, inClosed, inWaker, pollFn, 
                                   chuteFn, pwTaken, nextPoll, ppItem, h, stack, 
                                   dead, sti, rq, sq, sj, ww, rsq, bown, bwk, 
-                                  bi, bcur, bw, jq, jj, jwk, fj, dq, dj, oq, 
-                                  oop, omode, oj, yq, yop, tq, top, af, wf, 
+                                  bi, bcur, bw, bsp, jq, jj, jwk, fj, dq, dj, 
+                                  oq, oop, omode, oj, yq, yop, tq, top, af, wf, 
                                   wop, sf, sctx, xf, cop, kj, pp, np, nbp, 
                                   nres, dp, pf, pctx, pq, pj, pd, nq >>
 
@@ -4013,18 +4115,19 @@ sd_idle(self) == /\ pc[self] = "sd_idle"
                                  nspawned, palive, busy, busyLocked, inbox, 
                                  chanOpen, pfin, thrHeld, maxThreads, jkind, 
                                  jaw, fres, fwaker, gfired, gwaker, gthreads, 
-                                 dwSt, dwW, dblTaken, dblW1, dblW2, nextDW, 
-                                 ready, cwait, cnotif, cvHeld, sdres, jpanic, 
-                                 sfst, slotSt, qrSent, qrWaker, dnState, 
-                                 dnWaker, parkTok, rv, rwb, rneed, dsl, atomic, 
-                                 strong, ppPending, ppClosed, ppNotify, ppNC, 
-                                 ppBP, ppDepth, ppAlive, ppHeld, inItems, 
-                                 inClosed, inWaker, pollFn, chuteFn, pwTaken, 
-                                 nextPoll, ppItem, h, dead, sti, sq, sj, ww, 
-                                 rsq, bown, bwk, bi, bcur, bw, jq, jj, jwk, fj, 
-                                 dq, dj, oq, oop, omode, oj, yq, yop, tq, top, 
-                                 af, wf, wop, sf, sctx, xf, cop, kj, pp, np, 
-                                 nbp, nres, dp, pf, pctx, pq, pj, pd, nq >>
+                                 gwhist, dwSt, dwW, dblTaken, dblW1, dblW2, 
+                                 nextDW, ready, cwait, cnotif, cvHeld, sdres, 
+                                 jpanic, sfst, slotSt, qrSent, qrWaker, 
+                                 dnState, dnWaker, parkTok, rv, rwb, rneed, 
+                                 dsl, atomic, strong, ppPending, ppClosed, 
+                                 ppNotify, ppNC, ppBP, ppDepth, ppAlive, 
+                                 ppHeld, inItems, inClosed, inWaker, pollFn, 
+                                 chuteFn, pwTaken, nextPoll, ppItem, h, dead, 
+                                 sti, sq, sj, ww, rsq, bown, bwk, bi, bcur, bw, 
+                                 bsp, jq, jj, jwk, fj, dq, dj, oq, oop, omode, 
+                                 oj, yq, yop, tq, top, af, wf, wop, sf, sctx, 
+                                 xf, cop, kj, pp, np, nbp, nres, dp, pf, pctx, 
+                                 pq, pj, pd, nq >>
 
 sb_reg(self) == /\ pc[self] = "sb_reg"
                 /\ wakeBlocked' = [wakeBlocked EXCEPT ![yq[self]] = Append(wakeBlocked[yq[self]], yop[self])]
@@ -4034,18 +4137,19 @@ sb_reg(self) == /\ pc[self] = "sb_reg"
                                 nspawned, palive, busy, busyLocked, inbox, 
                                 chanOpen, pfin, thrHeld, maxThreads, jkind, 
                                 jaw, fres, fwaker, gfired, gwaker, gthreads, 
-                                dwSt, dwW, dblTaken, dblW1, dblW2, nextDW, 
-                                ready, cwait, cnotif, sdres, jpanic, sfst, 
-                                slotSt, qrSent, qrWaker, dnState, dnWaker, 
-                                parkTok, rv, rwb, rneed, dsl, atomic, strong, 
-                                ppPending, ppClosed, ppNotify, ppNC, ppBP, 
-                                ppDepth, ppAlive, ppHeld, inItems, inClosed, 
-                                inWaker, pollFn, chuteFn, pwTaken, nextPoll, 
-                                ppItem, h, stack, dead, sti, rq, sq, sj, ww, 
-                                rsq, bown, bwk, bi, bcur, bw, jq, jj, jwk, fj, 
-                                dq, dj, oq, oop, omode, oj, yq, yop, tq, top, 
-                                af, wf, wop, sf, sctx, xf, cop, kj, pp, np, 
-                                nbp, nres, dp, pf, pctx, pq, pj, pd, nq >>
+                                gwhist, dwSt, dwW, dblTaken, dblW1, dblW2, 
+                                nextDW, ready, cwait, cnotif, sdres, jpanic, 
+                                sfst, slotSt, qrSent, qrWaker, dnState, 
+                                dnWaker, parkTok, rv, rwb, rneed, dsl, atomic, 
+                                strong, ppPending, ppClosed, ppNotify, ppNC, 
+                                ppBP, ppDepth, ppAlive, ppHeld, inItems, 
+                                inClosed, inWaker, pollFn, chuteFn, pwTaken, 
+                                nextPoll, ppItem, h, stack, dead, sti, rq, sq, 
+                                sj, ww, rsq, bown, bwk, bi, bcur, bw, bsp, jq, 
+                                jj, jwk, fj, dq, dj, oq, oop, omode, oj, yq, 
+                                yop, tq, top, af, wf, wop, sf, sctx, xf, cop, 
+                                kj, pp, np, nbp, nres, dp, pf, pctx, pq, pj, 
+                                pd, nq >>
 
 sb_push(self) == /\ pc[self] = "sb_push"
                  /\ jkind' = [jkind EXCEPT ![yop[self]] = "syncbg"]
@@ -4063,18 +4167,19 @@ sb_push(self) == /\ pc[self] = "sb_push"
                                  pthreads, nspawned, palive, busy, busyLocked, 
                                  inbox, chanOpen, pfin, thrHeld, maxThreads, 
                                  jaw, fres, fwaker, gfired, gwaker, gthreads, 
-                                 dwSt, dwW, dblTaken, dblW1, dblW2, nextDW, 
-                                 ready, cwait, cnotif, cvHeld, sdres, jpanic, 
-                                 sfst, slotSt, qrSent, qrWaker, dnState, 
-                                 dnWaker, parkTok, rv, rwb, rneed, dsl, atomic, 
-                                 strong, ppPending, ppClosed, ppNotify, ppNC, 
-                                 ppBP, ppDepth, ppAlive, ppHeld, inItems, 
-                                 inClosed, inWaker, pollFn, chuteFn, pwTaken, 
-                                 nextPoll, ppItem, h, dead, sti, sq, sj, ww, 
-                                 rsq, bown, bwk, bi, bcur, bw, jq, jj, jwk, fj, 
-                                 dq, dj, oq, oop, omode, oj, yq, yop, tq, top, 
-                                 af, wf, wop, sf, sctx, xf, cop, kj, pp, np, 
-                                 nbp, nres, dp, pf, pctx, pq, pj, pd, nq >>
+                                 gwhist, dwSt, dwW, dblTaken, dblW1, dblW2, 
+                                 nextDW, ready, cwait, cnotif, cvHeld, sdres, 
+                                 jpanic, sfst, slotSt, qrSent, qrWaker, 
+                                 dnState, dnWaker, parkTok, rv, rwb, rneed, 
+                                 dsl, atomic, strong, ppPending, ppClosed, 
+                                 ppNotify, ppNC, ppBP, ppDepth, ppAlive, 
+                                 ppHeld, inItems, inClosed, inWaker, pollFn, 
+                                 chuteFn, pwTaken, nextPoll, ppItem, h, dead, 
+                                 sti, sq, sj, ww, rsq, bown, bwk, bi, bcur, bw, 
+                                 bsp, jq, jj, jwk, fj, dq, dj, oq, oop, omode, 
+                                 oj, yq, yop, tq, top, af, wf, wop, sf, sctx, 
+                                 xf, cop, kj, pp, np, nbp, nres, dp, pf, pctx, 
+                                 pq, pj, pd, nq >>
 
 sb_lock(self) == /\ pc[self] = "sb_lock"
                  /\ IF ready[yop[self]]
@@ -4094,19 +4199,19 @@ sb_lock(self) == /\ pc[self] = "sb_lock"
                  /\ UNCHANGED << qpoll, jobs, wakeBlocked, pthreads, nspawned, 
                                  palive, busy, busyLocked, inbox, chanOpen, 
                                  pfin, thrHeld, maxThreads, jkind, jaw, fres, 
-                                 fwaker, gfired, gwaker, gthreads, dwSt, dwW, 
-                                 dblTaken, dblW1, dblW2, nextDW, ready, sdres, 
-                                 jpanic, sfst, slotSt, qrSent, qrWaker, 
-                                 dnState, dnWaker, parkTok, rv, rwb, rneed, 
-                                 dsl, atomic, strong, ppPending, ppClosed, 
-                                 ppNotify, ppNC, ppBP, ppDepth, ppAlive, 
-                                 ppHeld, inItems, inClosed, inWaker, pollFn, 
-                                 chuteFn, pwTaken, nextPoll, ppItem, h, stack, 
-                                 dead, sti, rq, sq, sj, ww, rsq, bown, bwk, bi, 
-                                 bcur, bw, jq, jj, jwk, fj, dq, dj, oq, oop, 
-                                 omode, oj, yq, yop, tq, top, af, wf, wop, sf, 
-                                 sctx, xf, cop, kj, pp, np, nbp, nres, dp, pf, 
-                                 pctx, pq, pj, pd, nq >>
+                                 fwaker, gfired, gwaker, gthreads, gwhist, 
+                                 dwSt, dwW, dblTaken, dblW1, dblW2, nextDW, 
+                                 ready, sdres, jpanic, sfst, slotSt, qrSent, 
+                                 qrWaker, dnState, dnWaker, parkTok, rv, rwb, 
+                                 rneed, dsl, atomic, strong, ppPending, 
+                                 ppClosed, ppNotify, ppNC, ppBP, ppDepth, 
+                                 ppAlive, ppHeld, inItems, inClosed, inWaker, 
+                                 pollFn, chuteFn, pwTaken, nextPoll, ppItem, h, 
+                                 stack, dead, sti, rq, sq, sj, ww, rsq, bown, 
+                                 bwk, bi, bcur, bw, bsp, jq, jj, jwk, fj, dq, 
+                                 dj, oq, oop, omode, oj, yq, yop, tq, top, af, 
+                                 wf, wop, sf, sctx, xf, cop, kj, pp, np, nbp, 
+                                 nres, dp, pf, pctx, pq, pj, pd, nq >>
 
 sb_claim(self) == /\ pc[self] = "sb_claim"
                   /\ IF qstate[yq[self]] \in {"Pending", "Idle"}
@@ -4118,19 +4223,20 @@ sb_claim(self) == /\ pc[self] = "sb_claim"
                   /\ UNCHANGED << qpoll, jobs, wakeBlocked, pthreads, nspawned, 
                                   palive, busy, busyLocked, inbox, chanOpen, 
                                   pfin, thrHeld, maxThreads, jkind, jaw, fres, 
-                                  fwaker, gfired, gwaker, gthreads, dwSt, dwW, 
-                                  dblTaken, dblW1, dblW2, nextDW, ready, cwait, 
-                                  cnotif, cvHeld, sdres, jpanic, sfst, slotSt, 
-                                  qrSent, qrWaker, dnState, dnWaker, parkTok, 
-                                  rv, rwb, rneed, dsl, atomic, strong, 
-                                  ppPending, ppClosed, ppNotify, ppNC, ppBP, 
-                                  ppDepth, ppAlive, ppHeld, inItems, inClosed, 
-                                  inWaker, pollFn, chuteFn, pwTaken, nextPoll, 
-                                  ppItem, h, stack, dead, sti, rq, sq, sj, ww, 
-                                  rsq, bown, bwk, bi, bcur, bw, jq, jj, jwk, 
-                                  fj, dq, dj, oq, oop, omode, oj, yq, yop, tq, 
-                                  top, af, wf, wop, sf, sctx, xf, cop, kj, pp, 
-                                  np, nbp, nres, dp, pf, pctx, pq, pj, pd, nq >>
+                                  fwaker, gfired, gwaker, gthreads, gwhist, 
+                                  dwSt, dwW, dblTaken, dblW1, dblW2, nextDW, 
+                                  ready, cwait, cnotif, cvHeld, sdres, jpanic, 
+                                  sfst, slotSt, qrSent, qrWaker, dnState, 
+                                  dnWaker, parkTok, rv, rwb, rneed, dsl, 
+                                  atomic, strong, ppPending, ppClosed, 
+                                  ppNotify, ppNC, ppBP, ppDepth, ppAlive, 
+                                  ppHeld, inItems, inClosed, inWaker, pollFn, 
+                                  chuteFn, pwTaken, nextPoll, ppItem, h, stack, 
+                                  dead, sti, rq, sq, sj, ww, rsq, bown, bwk, 
+                                  bi, bcur, bw, bsp, jq, jj, jwk, fj, dq, dj, 
+                                  oq, oop, omode, oj, yq, yop, tq, top, af, wf, 
+                                  wop, sf, sctx, xf, cop, kj, pp, np, nbp, 
+                                  nres, dp, pf, pctx, pq, pj, pd, nq >>
 
 sb_chk(self) == /\ pc[self] = "sb_chk"
                 /\ IF ~ready[yop[self]]
@@ -4152,16 +4258,16 @@ sb_chk(self) == /\ pc[self] = "sb_chk"
                                 pthreads, nspawned, palive, busy, busyLocked, 
                                 inbox, chanOpen, pfin, thrHeld, maxThreads, 
                                 jkind, jaw, fres, fwaker, gfired, gwaker, 
-                                gthreads, dwSt, dwW, dblTaken, dblW1, dblW2, 
-                                nextDW, ready, cwait, cnotif, cvHeld, sdres, 
-                                jpanic, sfst, slotSt, qrSent, qrWaker, dnState, 
-                                dnWaker, parkTok, rv, rwb, rneed, dsl, atomic, 
-                                strong, ppPending, ppClosed, ppNotify, ppNC, 
-                                ppBP, ppDepth, ppAlive, ppHeld, inItems, 
+                                gthreads, gwhist, dwSt, dwW, dblTaken, dblW1, 
+                                dblW2, nextDW, ready, cwait, cnotif, cvHeld, 
+                                sdres, jpanic, sfst, slotSt, qrSent, qrWaker, 
+                                dnState, dnWaker, parkTok, rv, rwb, rneed, dsl, 
+                                atomic, strong, ppPending, ppClosed, ppNotify, 
+                                ppNC, ppBP, ppDepth, ppAlive, ppHeld, inItems, 
                                 inClosed, inWaker, pollFn, chuteFn, pwTaken, 
                                 nextPoll, ppItem, h, dead, sti, rq, sq, sj, ww, 
-                                rsq, bown, bwk, bi, bcur, bw, jq, jj, jwk, fj, 
-                                dq, dj, yq, yop, tq, top, af, wf, wop, sf, 
+                                rsq, bown, bwk, bi, bcur, bw, bsp, jq, jj, jwk, 
+                                fj, dq, dj, yq, yop, tq, top, af, wf, wop, sf, 
                                 sctx, xf, cop, kj, pp, np, nbp, nres, dp, pf, 
                                 pctx, pq, pj, pd, nq >>
 
@@ -4177,18 +4283,19 @@ sb_idle(self) == /\ pc[self] = "sb_idle"
                                  nspawned, palive, busy, busyLocked, inbox, 
                                  chanOpen, pfin, thrHeld, maxThreads, jkind, 
                                  jaw, fres, fwaker, gfired, gwaker, gthreads, 
-                                 dwSt, dwW, dblTaken, dblW1, dblW2, nextDW, 
-                                 ready, cwait, cnotif, cvHeld, sdres, jpanic, 
-                                 sfst, slotSt, qrSent, qrWaker, dnState, 
-                                 dnWaker, parkTok, rv, rwb, rneed, dsl, atomic, 
-                                 strong, ppPending, ppClosed, ppNotify, ppNC, 
-                                 ppBP, ppDepth, ppAlive, ppHeld, inItems, 
-                                 inClosed, inWaker, pollFn, chuteFn, pwTaken, 
-                                 nextPoll, ppItem, h, dead, sti, sq, sj, ww, 
-                                 rsq, bown, bwk, bi, bcur, bw, jq, jj, jwk, fj, 
-                                 dq, dj, oq, oop, omode, oj, yq, yop, tq, top, 
-                                 af, wf, wop, sf, sctx, xf, cop, kj, pp, np, 
-                                 nbp, nres, dp, pf, pctx, pq, pj, pd, nq >>
+                                 gwhist, dwSt, dwW, dblTaken, dblW1, dblW2, 
+                                 nextDW, ready, cwait, cnotif, cvHeld, sdres, 
+                                 jpanic, sfst, slotSt, qrSent, qrWaker, 
+                                 dnState, dnWaker, parkTok, rv, rwb, rneed, 
+                                 dsl, atomic, strong, ppPending, ppClosed, 
+                                 ppNotify, ppNC, ppBP, ppDepth, ppAlive, 
+                                 ppHeld, inItems, inClosed, inWaker, pollFn, 
+                                 chuteFn, pwTaken, nextPoll, ppItem, h, dead, 
+                                 sti, sq, sj, ww, rsq, bown, bwk, bi, bcur, bw, 
+                                 bsp, jq, jj, jwk, fj, dq, dj, oq, oop, omode, 
+                                 oj, yq, yop, tq, top, af, wf, wop, sf, sctx, 
+                                 xf, cop, kj, pp, np, nbp, nres, dp, pf, pctx, 
+                                 pq, pj, pd, nq >>
 
 z_sb_chk(self) == /\ pc[self] = "z_sb_chk"
                   /\ IF rv[self] = 9
@@ -4207,18 +4314,19 @@ z_sb_chk(self) == /\ pc[self] = "z_sb_chk"
                                   pthreads, nspawned, palive, busy, busyLocked, 
                                   inbox, chanOpen, pfin, thrHeld, maxThreads, 
                                   jkind, jaw, fres, fwaker, gfired, gwaker, 
-                                  gthreads, dwSt, dwW, dblTaken, dblW1, dblW2, 
-                                  nextDW, ready, cwait, cnotif, sdres, jpanic, 
-                                  sfst, slotSt, qrSent, qrWaker, dnState, 
-                                  dnWaker, parkTok, rwb, rneed, dsl, atomic, 
-                                  strong, ppPending, ppClosed, ppNotify, ppNC, 
-                                  ppBP, ppDepth, ppAlive, ppHeld, inItems, 
-                                  inClosed, inWaker, pollFn, chuteFn, pwTaken, 
-                                  nextPoll, ppItem, h, dead, sti, rq, sq, sj, 
-                                  ww, rsq, bown, bwk, bi, bcur, bw, jq, jj, 
-                                  jwk, fj, dq, dj, oq, oop, omode, oj, tq, top, 
-                                  af, wf, wop, sf, sctx, xf, cop, kj, pp, np, 
-                                  nbp, nres, dp, pf, pctx, pq, pj, pd, nq >>
+                                  gthreads, gwhist, dwSt, dwW, dblTaken, dblW1, 
+                                  dblW2, nextDW, ready, cwait, cnotif, sdres, 
+                                  jpanic, sfst, slotSt, qrSent, qrWaker, 
+                                  dnState, dnWaker, parkTok, rwb, rneed, dsl, 
+                                  atomic, strong, ppPending, ppClosed, 
+                                  ppNotify, ppNC, ppBP, ppDepth, ppAlive, 
+                                  ppHeld, inItems, inClosed, inWaker, pollFn, 
+                                  chuteFn, pwTaken, nextPoll, ppItem, h, dead, 
+                                  sti, rq, sq, sj, ww, rsq, bown, bwk, bi, 
+                                  bcur, bw, bsp, jq, jj, jwk, fj, dq, dj, oq, 
+                                  oop, omode, oj, tq, top, af, wf, wop, sf, 
+                                  sctx, xf, cop, kj, pp, np, nbp, nres, dp, pf, 
+                                  pctx, pq, pj, pd, nq >>
 
 sb_wait(self) == /\ pc[self] = "sb_wait"
                  /\ cnotif[yop[self]]
@@ -4249,19 +4357,19 @@ sb_wait(self) == /\ pc[self] = "sb_wait"
                  /\ UNCHANGED << qpoll, jobs, wakeBlocked, pthreads, nspawned, 
                                  palive, busy, busyLocked, inbox, chanOpen, 
                                  pfin, thrHeld, maxThreads, jkind, jaw, fres, 
-                                 fwaker, gfired, gwaker, gthreads, dwSt, dwW, 
-                                 dblTaken, dblW1, dblW2, nextDW, ready, sdres, 
-                                 jpanic, sfst, slotSt, qrSent, qrWaker, 
-                                 dnState, dnWaker, parkTok, rv, rwb, rneed, 
-                                 dsl, atomic, strong, ppPending, ppClosed, 
-                                 ppNotify, ppNC, ppBP, ppDepth, ppAlive, 
-                                 ppHeld, inItems, inClosed, inWaker, pollFn, 
-                                 chuteFn, pwTaken, nextPoll, ppItem, stack, 
-                                 dead, sti, rq, sq, sj, ww, rsq, bown, bwk, bi, 
-                                 bcur, bw, jq, jj, jwk, fj, dq, dj, oq, oop, 
-                                 omode, oj, yq, yop, tq, top, af, wf, wop, sf, 
-                                 sctx, xf, cop, kj, pp, np, nbp, nres, dp, pf, 
-                                 pctx, pq, pj, pd, nq >>
+                                 fwaker, gfired, gwaker, gthreads, gwhist, 
+                                 dwSt, dwW, dblTaken, dblW1, dblW2, nextDW, 
+                                 ready, sdres, jpanic, sfst, slotSt, qrSent, 
+                                 qrWaker, dnState, dnWaker, parkTok, rv, rwb, 
+                                 rneed, dsl, atomic, strong, ppPending, 
+                                 ppClosed, ppNotify, ppNC, ppBP, ppDepth, 
+                                 ppAlive, ppHeld, inItems, inClosed, inWaker, 
+                                 pollFn, chuteFn, pwTaken, nextPoll, ppItem, 
+                                 stack, dead, sti, rq, sq, sj, ww, rsq, bown, 
+                                 bwk, bi, bcur, bw, bsp, jq, jj, jwk, fj, dq, 
+                                 dj, oq, oop, omode, oj, yq, yop, tq, top, af, 
+                                 wf, wop, sf, sctx, xf, cop, kj, pp, np, nbp, 
+                                 nres, dp, pf, pctx, pq, pj, pd, nq >>
 
 sb_fin(self) == /\ pc[self] = "sb_fin"
                 /\ wakeBlocked' = [wakeBlocked EXCEPT ![yq[self]] = SelectSeq(wakeBlocked[yq[self]], LAMBDA x : (x # yop[self] /\ CvAlive(x)) \/ (x = yop[self] /\ \E t \in Procs : yop[self] \in SeqSet(rwb[t])))]
@@ -4274,18 +4382,18 @@ sb_fin(self) == /\ pc[self] = "sb_fin"
                                 nspawned, palive, busy, busyLocked, inbox, 
                                 chanOpen, pfin, thrHeld, maxThreads, jkind, 
                                 jaw, fres, fwaker, gfired, gwaker, gthreads, 
-                                dwSt, dwW, dblTaken, dblW1, dblW2, nextDW, 
-                                ready, cwait, cnotif, cvHeld, sdres, jpanic, 
-                                sfst, slotSt, qrSent, qrWaker, dnState, 
+                                gwhist, dwSt, dwW, dblTaken, dblW1, dblW2, 
+                                nextDW, ready, cwait, cnotif, cvHeld, sdres, 
+                                jpanic, sfst, slotSt, qrSent, qrWaker, dnState, 
                                 dnWaker, parkTok, rwb, rneed, dsl, atomic, 
                                 strong, ppPending, ppClosed, ppNotify, ppNC, 
                                 ppBP, ppDepth, ppAlive, ppHeld, inItems, 
                                 inClosed, inWaker, pollFn, chuteFn, pwTaken, 
                                 nextPoll, ppItem, h, dead, sti, rq, sq, sj, ww, 
-                                rsq, bown, bwk, bi, bcur, bw, jq, jj, jwk, fj, 
-                                dq, dj, oq, oop, omode, oj, tq, top, af, wf, 
-                                wop, sf, sctx, xf, cop, kj, pp, np, nbp, nres, 
-                                dp, pf, pctx, pq, pj, pd, nq >>
+                                rsq, bown, bwk, bi, bcur, bw, bsp, jq, jj, jwk, 
+                                fj, dq, dj, oq, oop, omode, oj, tq, top, af, 
+                                wf, wop, sf, sctx, xf, cop, kj, pp, np, nbp, 
+                                nres, dp, pf, pctx, pq, pj, pd, nq >>
 
 sy_panic(self) == /\ pc[self] = "sy_panic"
                   /\ qstate' = [qstate EXCEPT ![yq[self]] = "Panicked"]
@@ -4298,18 +4406,19 @@ sy_panic(self) == /\ pc[self] = "sy_panic"
                                   nspawned, palive, busy, busyLocked, inbox, 
                                   chanOpen, pfin, thrHeld, maxThreads, jkind, 
                                   jaw, fres, fwaker, gfired, gwaker, gthreads, 
-                                  dwSt, dwW, dblTaken, dblW1, dblW2, nextDW, 
-                                  ready, cwait, cnotif, cvHeld, sdres, jpanic, 
-                                  sfst, slotSt, qrSent, qrWaker, dnState, 
-                                  dnWaker, parkTok, rwb, rneed, dsl, atomic, 
-                                  strong, ppPending, ppClosed, ppNotify, ppNC, 
-                                  ppBP, ppDepth, ppAlive, ppHeld, inItems, 
-                                  inClosed, inWaker, pollFn, chuteFn, pwTaken, 
-                                  nextPoll, ppItem, h, dead, sti, rq, sq, sj, 
-                                  ww, rsq, bown, bwk, bi, bcur, bw, jq, jj, 
-                                  jwk, fj, dq, dj, oq, oop, omode, oj, tq, top, 
-                                  af, wf, wop, sf, sctx, xf, cop, kj, pp, np, 
-                                  nbp, nres, dp, pf, pctx, pq, pj, pd, nq >>
+                                  gwhist, dwSt, dwW, dblTaken, dblW1, dblW2, 
+                                  nextDW, ready, cwait, cnotif, cvHeld, sdres, 
+                                  jpanic, sfst, slotSt, qrSent, qrWaker, 
+                                  dnState, dnWaker, parkTok, rwb, rneed, dsl, 
+                                  atomic, strong, ppPending, ppClosed, 
+                                  ppNotify, ppNC, ppBP, ppDepth, ppAlive, 
+                                  ppHeld, inItems, inClosed, inWaker, pollFn, 
+                                  chuteFn, pwTaken, nextPoll, ppItem, h, dead, 
+                                  sti, rq, sq, sj, ww, rsq, bown, bwk, bi, 
+                                  bcur, bw, bsp, jq, jj, jwk, fj, dq, dj, oq, 
+                                  oop, omode, oj, tq, top, af, wf, wop, sf, 
+                                  sctx, xf, cop, kj, pp, np, nbp, nres, dp, pf, 
+                                  pctx, pq, pj, pd, nq >>
 
 Sync(self) == sy_decide(self) \/ z_si_chk(self) \/ si_idle(self)
                  \/ z_si_ret(self) \/ sd_push(self) \/ z_sd_chk(self)
@@ -4360,19 +4469,19 @@ ts_decide(self) == /\ pc[self] = "ts_decide"
                                    pthreads, nspawned, palive, busy, 
                                    busyLocked, inbox, chanOpen, pfin, thrHeld, 
                                    maxThreads, jaw, fres, fwaker, gfired, 
-                                   gwaker, gthreads, dwSt, dwW, dblTaken, 
-                                   dblW1, dblW2, nextDW, ready, cwait, cnotif, 
-                                   cvHeld, sdres, jpanic, sfst, slotSt, qrSent, 
-                                   qrWaker, dnState, dnWaker, parkTok, rwb, 
-                                   rneed, dsl, atomic, strong, ppPending, 
-                                   ppClosed, ppNotify, ppNC, ppBP, ppDepth, 
-                                   ppAlive, ppHeld, inItems, inClosed, inWaker, 
-                                   pollFn, chuteFn, pwTaken, nextPoll, ppItem, 
-                                   h, dead, sti, rq, sq, sj, ww, rsq, bown, 
-                                   bwk, bi, bcur, bw, fj, dq, dj, oq, oop, 
-                                   omode, oj, yq, yop, af, wf, wop, sf, sctx, 
-                                   xf, cop, kj, pp, np, nbp, nres, dp, pf, 
-                                   pctx, pq, pj, pd, nq >>
+                                   gwaker, gthreads, gwhist, dwSt, dwW, 
+                                   dblTaken, dblW1, dblW2, nextDW, ready, 
+                                   cwait, cnotif, cvHeld, sdres, jpanic, sfst, 
+                                   slotSt, qrSent, qrWaker, dnState, dnWaker, 
+                                   parkTok, rwb, rneed, dsl, atomic, strong, 
+                                   ppPending, ppClosed, ppNotify, ppNC, ppBP, 
+                                   ppDepth, ppAlive, ppHeld, inItems, inClosed, 
+                                   inWaker, pollFn, chuteFn, pwTaken, nextPoll, 
+                                   ppItem, h, dead, sti, rq, sq, sj, ww, rsq, 
+                                   bown, bwk, bi, bcur, bw, bsp, fj, dq, dj, 
+                                   oq, oop, omode, oj, yq, yop, af, wf, wop, 
+                                   sf, sctx, xf, cop, kj, pp, np, nbp, nres, 
+                                   dp, pf, pctx, pq, pj, pd, nq >>
 
 z_ts_chk(self) == /\ pc[self] = "z_ts_chk"
                   /\ IF rv[self] = 9
@@ -4382,17 +4491,17 @@ z_ts_chk(self) == /\ pc[self] = "z_ts_chk"
                                   pthreads, nspawned, palive, busy, busyLocked, 
                                   inbox, chanOpen, pfin, thrHeld, maxThreads, 
                                   jkind, jaw, fres, fwaker, gfired, gwaker, 
-                                  gthreads, dwSt, dwW, dblTaken, dblW1, dblW2, 
-                                  nextDW, ready, cwait, cnotif, cvHeld, sdres, 
-                                  jpanic, sfst, slotSt, qrSent, qrWaker, 
+                                  gthreads, gwhist, dwSt, dwW, dblTaken, dblW1, 
+                                  dblW2, nextDW, ready, cwait, cnotif, cvHeld, 
+                                  sdres, jpanic, sfst, slotSt, qrSent, qrWaker, 
                                   dnState, dnWaker, parkTok, rv, rwb, rneed, 
                                   dsl, atomic, strong, ppPending, ppClosed, 
                                   ppNotify, ppNC, ppBP, ppDepth, ppAlive, 
                                   ppHeld, inItems, inClosed, inWaker, pollFn, 
                                   chuteFn, pwTaken, nextPoll, ppItem, h, stack, 
                                   dead, sti, rq, sq, sj, ww, rsq, bown, bwk, 
-                                  bi, bcur, bw, jq, jj, jwk, fj, dq, dj, oq, 
-                                  oop, omode, oj, yq, yop, tq, top, af, wf, 
+                                  bi, bcur, bw, bsp, jq, jj, jwk, fj, dq, dj, 
+                                  oq, oop, omode, oj, yq, yop, tq, top, af, wf, 
                                   wop, sf, sctx, xf, cop, kj, pp, np, nbp, 
                                   nres, dp, pf, pctx, pq, pj, pd, nq >>
 
@@ -4408,18 +4517,19 @@ ts_idle(self) == /\ pc[self] = "ts_idle"
                                  nspawned, palive, busy, busyLocked, inbox, 
                                  chanOpen, pfin, thrHeld, maxThreads, jkind, 
                                  jaw, fres, fwaker, gfired, gwaker, gthreads, 
-                                 dwSt, dwW, dblTaken, dblW1, dblW2, nextDW, 
-                                 ready, cwait, cnotif, cvHeld, sdres, jpanic, 
-                                 sfst, slotSt, qrSent, qrWaker, dnState, 
-                                 dnWaker, parkTok, rv, rwb, rneed, dsl, atomic, 
-                                 strong, ppPending, ppClosed, ppNotify, ppNC, 
-                                 ppBP, ppDepth, ppAlive, ppHeld, inItems, 
-                                 inClosed, inWaker, pollFn, chuteFn, pwTaken, 
-                                 nextPoll, ppItem, h, dead, sti, sq, sj, ww, 
-                                 rsq, bown, bwk, bi, bcur, bw, jq, jj, jwk, fj, 
-                                 dq, dj, oq, oop, omode, oj, yq, yop, tq, top, 
-                                 af, wf, wop, sf, sctx, xf, cop, kj, pp, np, 
-                                 nbp, nres, dp, pf, pctx, pq, pj, pd, nq >>
+                                 gwhist, dwSt, dwW, dblTaken, dblW1, dblW2, 
+                                 nextDW, ready, cwait, cnotif, cvHeld, sdres, 
+                                 jpanic, sfst, slotSt, qrSent, qrWaker, 
+                                 dnState, dnWaker, parkTok, rv, rwb, rneed, 
+                                 dsl, atomic, strong, ppPending, ppClosed, 
+                                 ppNotify, ppNC, ppBP, ppDepth, ppAlive, 
+                                 ppHeld, inItems, inClosed, inWaker, pollFn, 
+                                 chuteFn, pwTaken, nextPoll, ppItem, h, dead, 
+                                 sti, sq, sj, ww, rsq, bown, bwk, bi, bcur, bw, 
+                                 bsp, jq, jj, jwk, fj, dq, dj, oq, oop, omode, 
+                                 oj, yq, yop, tq, top, af, wf, wop, sf, sctx, 
+                                 xf, cop, kj, pp, np, nbp, nres, dp, pf, pctx, 
+                                 pq, pj, pd, nq >>
 
 z_ts_ret(self) == /\ pc[self] = "z_ts_ret"
                   /\ rv' = [rv EXCEPT ![self] = 0]
@@ -4431,19 +4541,19 @@ z_ts_ret(self) == /\ pc[self] = "z_ts_ret"
                                   pthreads, nspawned, palive, busy, busyLocked, 
                                   inbox, chanOpen, pfin, thrHeld, maxThreads, 
                                   jkind, jaw, fres, fwaker, gfired, gwaker, 
-                                  gthreads, dwSt, dwW, dblTaken, dblW1, dblW2, 
-                                  nextDW, ready, cwait, cnotif, cvHeld, sdres, 
-                                  jpanic, sfst, slotSt, qrSent, qrWaker, 
+                                  gthreads, gwhist, dwSt, dwW, dblTaken, dblW1, 
+                                  dblW2, nextDW, ready, cwait, cnotif, cvHeld, 
+                                  sdres, jpanic, sfst, slotSt, qrSent, qrWaker, 
                                   dnState, dnWaker, parkTok, rwb, rneed, dsl, 
                                   atomic, strong, ppPending, ppClosed, 
                                   ppNotify, ppNC, ppBP, ppDepth, ppAlive, 
                                   ppHeld, inItems, inClosed, inWaker, pollFn, 
                                   chuteFn, pwTaken, nextPoll, ppItem, h, dead, 
                                   sti, rq, sq, sj, ww, rsq, bown, bwk, bi, 
-                                  bcur, bw, jq, jj, jwk, fj, dq, dj, oq, oop, 
-                                  omode, oj, yq, yop, af, wf, wop, sf, sctx, 
-                                  xf, cop, kj, pp, np, nbp, nres, dp, pf, pctx, 
-                                  pq, pj, pd, nq >>
+                                  bcur, bw, bsp, jq, jj, jwk, fj, dq, dj, oq, 
+                                  oop, omode, oj, yq, yop, af, wf, wop, sf, 
+                                  sctx, xf, cop, kj, pp, np, nbp, nres, dp, pf, 
+                                  pctx, pq, pj, pd, nq >>
 
 ts_panic(self) == /\ pc[self] = "ts_panic"
                   /\ qstate' = [qstate EXCEPT ![tq[self]] = "Panicked"]
@@ -4456,18 +4566,19 @@ ts_panic(self) == /\ pc[self] = "ts_panic"
                                   nspawned, palive, busy, busyLocked, inbox, 
                                   chanOpen, pfin, thrHeld, maxThreads, jkind, 
                                   jaw, fres, fwaker, gfired, gwaker, gthreads, 
-                                  dwSt, dwW, dblTaken, dblW1, dblW2, nextDW, 
-                                  ready, cwait, cnotif, cvHeld, sdres, jpanic, 
-                                  sfst, slotSt, qrSent, qrWaker, dnState, 
-                                  dnWaker, parkTok, rwb, rneed, dsl, atomic, 
-                                  strong, ppPending, ppClosed, ppNotify, ppNC, 
-                                  ppBP, ppDepth, ppAlive, ppHeld, inItems, 
-                                  inClosed, inWaker, pollFn, chuteFn, pwTaken, 
-                                  nextPoll, ppItem, h, dead, sti, rq, sq, sj, 
-                                  ww, rsq, bown, bwk, bi, bcur, bw, jq, jj, 
-                                  jwk, fj, dq, dj, oq, oop, omode, oj, yq, yop, 
-                                  af, wf, wop, sf, sctx, xf, cop, kj, pp, np, 
-                                  nbp, nres, dp, pf, pctx, pq, pj, pd, nq >>
+                                  gwhist, dwSt, dwW, dblTaken, dblW1, dblW2, 
+                                  nextDW, ready, cwait, cnotif, cvHeld, sdres, 
+                                  jpanic, sfst, slotSt, qrSent, qrWaker, 
+                                  dnState, dnWaker, parkTok, rwb, rneed, dsl, 
+                                  atomic, strong, ppPending, ppClosed, 
+                                  ppNotify, ppNC, ppBP, ppDepth, ppAlive, 
+                                  ppHeld, inItems, inClosed, inWaker, pollFn, 
+                                  chuteFn, pwTaken, nextPoll, ppItem, h, dead, 
+                                  sti, rq, sq, sj, ww, rsq, bown, bwk, bi, 
+                                  bcur, bw, bsp, jq, jj, jwk, fj, dq, dj, oq, 
+                                  oop, omode, oj, yq, yop, af, wf, wop, sf, 
+                                  sctx, xf, cop, kj, pp, np, nbp, nres, dp, pf, 
+                                  pctx, pq, pj, pd, nq >>
 
 TrySync(self) == ts_decide(self) \/ z_ts_chk(self) \/ ts_idle(self)
                     \/ z_ts_ret(self) \/ ts_panic(self)
@@ -4502,7 +4613,7 @@ z_aw_poll(self) == /\ pc[self] = "z_aw_poll"
                                    pthreads, nspawned, palive, busy, 
                                    busyLocked, inbox, chanOpen, pfin, thrHeld, 
                                    maxThreads, jkind, jaw, fres, fwaker, 
-                                   gfired, gwaker, gthreads, dwSt, dwW, 
+                                   gfired, gwaker, gthreads, gwhist, dwSt, dwW, 
                                    dblTaken, dblW1, dblW2, nextDW, ready, 
                                    cwait, cnotif, cvHeld, sdres, jpanic, sfst, 
                                    slotSt, qrSent, qrWaker, dnState, dnWaker, 
@@ -4511,8 +4622,8 @@ z_aw_poll(self) == /\ pc[self] = "z_aw_poll"
                                    ppBP, ppDepth, ppAlive, ppHeld, inItems, 
                                    inClosed, inWaker, pollFn, chuteFn, pwTaken, 
                                    nextPoll, ppItem, h, dead, sti, rq, sq, sj, 
-                                   ww, rsq, bown, bwk, bi, bcur, bw, jq, jj, 
-                                   jwk, fj, dq, dj, oq, oop, omode, oj, yq, 
+                                   ww, rsq, bown, bwk, bi, bcur, bw, bsp, jq, 
+                                   jj, jwk, fj, dq, dj, oq, oop, omode, oj, yq, 
                                    yop, tq, top, af, wf, wop, xf, cop, kj, pp, 
                                    np, nbp, nres, dp, nq >>
 
@@ -4531,8 +4642,8 @@ z_aw_after(self) == /\ pc[self] = "z_aw_after"
                                     pthreads, nspawned, palive, busy, 
                                     busyLocked, inbox, chanOpen, pfin, thrHeld, 
                                     maxThreads, jkind, jaw, fres, fwaker, 
-                                    gfired, gwaker, gthreads, dwSt, dwW, 
-                                    dblTaken, dblW1, dblW2, nextDW, ready, 
+                                    gfired, gwaker, gthreads, gwhist, dwSt, 
+                                    dwW, dblTaken, dblW1, dblW2, nextDW, ready, 
                                     cwait, cnotif, cvHeld, sdres, jpanic, sfst, 
                                     slotSt, qrSent, qrWaker, dnState, dnWaker, 
                                     parkTok, rv, rwb, rneed, dsl, atomic, 
@@ -4541,10 +4652,10 @@ z_aw_after(self) == /\ pc[self] = "z_aw_after"
                                     inItems, inClosed, inWaker, pollFn, 
                                     chuteFn, pwTaken, nextPoll, ppItem, dead, 
                                     sti, rq, sq, sj, ww, rsq, bown, bwk, bi, 
-                                    bcur, bw, jq, jj, jwk, fj, dq, dj, oq, oop, 
-                                    omode, oj, yq, yop, tq, top, wf, wop, sf, 
-                                    sctx, xf, cop, kj, pp, np, nbp, nres, dp, 
-                                    pf, pctx, pq, pj, pd, nq >>
+                                    bcur, bw, bsp, jq, jj, jwk, fj, dq, dj, oq, 
+                                    oop, omode, oj, yq, yop, tq, top, wf, wop, 
+                                    sf, sctx, xf, cop, kj, pp, np, nbp, nres, 
+                                    dp, pf, pctx, pq, pj, pd, nq >>
 
 aw_park(self) == /\ pc[self] = "aw_park"
                  /\ parkTok[self]
@@ -4554,19 +4665,19 @@ aw_park(self) == /\ pc[self] = "aw_park"
                                  pthreads, nspawned, palive, busy, busyLocked, 
                                  inbox, chanOpen, pfin, thrHeld, maxThreads, 
                                  jkind, jaw, fres, fwaker, gfired, gwaker, 
-                                 gthreads, dwSt, dwW, dblTaken, dblW1, dblW2, 
-                                 nextDW, ready, cwait, cnotif, cvHeld, sdres, 
-                                 jpanic, sfst, slotSt, qrSent, qrWaker, 
+                                 gthreads, gwhist, dwSt, dwW, dblTaken, dblW1, 
+                                 dblW2, nextDW, ready, cwait, cnotif, cvHeld, 
+                                 sdres, jpanic, sfst, slotSt, qrSent, qrWaker, 
                                  dnState, dnWaker, rv, rwb, rneed, dsl, atomic, 
                                  strong, ppPending, ppClosed, ppNotify, ppNC, 
                                  ppBP, ppDepth, ppAlive, ppHeld, inItems, 
                                  inClosed, inWaker, pollFn, chuteFn, pwTaken, 
                                  nextPoll, ppItem, h, stack, dead, sti, rq, sq, 
-                                 sj, ww, rsq, bown, bwk, bi, bcur, bw, jq, jj, 
-                                 jwk, fj, dq, dj, oq, oop, omode, oj, yq, yop, 
-                                 tq, top, af, wf, wop, sf, sctx, xf, cop, kj, 
-                                 pp, np, nbp, nres, dp, pf, pctx, pq, pj, pd, 
-                                 nq >>
+                                 sj, ww, rsq, bown, bwk, bi, bcur, bw, bsp, jq, 
+                                 jj, jwk, fj, dq, dj, oq, oop, omode, oj, yq, 
+                                 yop, tq, top, af, wf, wop, sf, sctx, xf, cop, 
+                                 kj, pp, np, nbp, nres, dp, pf, pctx, pq, pj, 
+                                 pd, nq >>
 
 Await(self) == z_aw_poll(self) \/ z_aw_after(self) \/ aw_park(self)
 
@@ -4602,18 +4713,18 @@ fs_take(self) == /\ pc[self] = "fs_take"
                                  pthreads, nspawned, palive, busy, busyLocked, 
                                  inbox, chanOpen, pfin, thrHeld, maxThreads, 
                                  jkind, jaw, fwaker, gfired, gwaker, gthreads, 
-                                 dwSt, dwW, dblTaken, dblW1, dblW2, nextDW, 
-                                 ready, cwait, cnotif, cvHeld, sdres, jpanic, 
-                                 sfst, slotSt, qrSent, qrWaker, dnState, 
-                                 dnWaker, parkTok, rwb, rneed, dsl, atomic, 
-                                 strong, ppPending, ppClosed, ppNotify, ppNC, 
-                                 ppBP, ppDepth, ppAlive, ppHeld, inItems, 
+                                 gwhist, dwSt, dwW, dblTaken, dblW1, dblW2, 
+                                 nextDW, ready, cwait, cnotif, cvHeld, sdres, 
+                                 jpanic, sfst, slotSt, qrSent, qrWaker, 
+                                 dnState, dnWaker, parkTok, rwb, rneed, dsl, 
+                                 atomic, strong, ppPending, ppClosed, ppNotify, 
+                                 ppNC, ppBP, ppDepth, ppAlive, ppHeld, inItems, 
                                  inClosed, inWaker, pollFn, chuteFn, pwTaken, 
                                  nextPoll, ppItem, dead, sti, rq, sq, sj, ww, 
-                                 rsq, bown, bwk, bi, bcur, bw, jq, jj, jwk, fj, 
-                                 dq, dj, oq, oop, omode, oj, tq, top, af, sf, 
-                                 sctx, xf, cop, kj, pp, np, nbp, nres, dp, pf, 
-                                 pctx, pq, pj, pd, nq >>
+                                 rsq, bown, bwk, bi, bcur, bw, bsp, jq, jj, 
+                                 jwk, fj, dq, dj, oq, oop, omode, oj, tq, top, 
+                                 af, sf, sctx, xf, cop, kj, pp, np, nbp, nres, 
+                                 dp, pf, pctx, pq, pj, pd, nq >>
 
 z_fs_after(self) == /\ pc[self] = "z_fs_after"
                     /\ IF rv[self] = 0
@@ -4628,8 +4739,8 @@ z_fs_after(self) == /\ pc[self] = "z_fs_after"
                                     pthreads, nspawned, palive, busy, 
                                     busyLocked, inbox, chanOpen, pfin, thrHeld, 
                                     maxThreads, jkind, jaw, fres, fwaker, 
-                                    gfired, gwaker, gthreads, dwSt, dwW, 
-                                    dblTaken, dblW1, dblW2, nextDW, ready, 
+                                    gfired, gwaker, gthreads, gwhist, dwSt, 
+                                    dwW, dblTaken, dblW1, dblW2, nextDW, ready, 
                                     cwait, cnotif, cvHeld, sdres, jpanic, sfst, 
                                     slotSt, qrSent, qrWaker, dnState, dnWaker, 
                                     parkTok, rv, rwb, rneed, dsl, atomic, 
@@ -4638,10 +4749,10 @@ z_fs_after(self) == /\ pc[self] = "z_fs_after"
                                     inItems, inClosed, inWaker, pollFn, 
                                     chuteFn, pwTaken, nextPoll, ppItem, dead, 
                                     sti, rq, sq, sj, ww, rsq, bown, bwk, bi, 
-                                    bcur, bw, jq, jj, jwk, fj, dq, dj, oq, oop, 
-                                    omode, oj, yq, yop, tq, top, af, sf, sctx, 
-                                    xf, cop, kj, pp, np, nbp, nres, dp, pf, 
-                                    pctx, pq, pj, pd, nq >>
+                                    bcur, bw, bsp, jq, jj, jwk, fj, dq, dj, oq, 
+                                    oop, omode, oj, yq, yop, tq, top, af, sf, 
+                                    sctx, xf, cop, kj, pp, np, nbp, nres, dp, 
+                                    pf, pctx, pq, pj, pd, nq >>
 
 WaitSync(self) == fs_take(self) \/ z_fs_after(self)
 
@@ -4661,18 +4772,20 @@ z_ps(self) == /\ pc[self] = "z_ps"
                          /\ pj' = [pj EXCEPT ![self] = 0]
                          /\ pd' = [pd EXCEPT ![self] = 0]
                          /\ pc' = [pc EXCEPT ![self] = "pf_decide"]
-                         /\ UNCHANGED << gwaker, rv, rsq, bown, bwk, bi, bcur, 
-                                         bw, sf, sctx >>
+                         /\ UNCHANGED << gwaker, gwhist, rv, rsq, bown, bwk, 
+                                         bi, bcur, bw, bsp, sf, sctx >>
                     ELSE /\ IF sfst[sf[self]] = "WFF"
                                THEN /\ IF jaw[sf[self]] > 0 /\ ~AwReady(sf[self])
                                           THEN /\ gwaker' = [gwaker EXCEPT ![AwItem(sf[self])] = sctx[self]]
+                                               /\ gwhist' = [gwhist EXCEPT ![AwItem(sf[self])] = Append(gwhist[AwItem(sf[self])], sctx[self])]
                                                /\ rv' = [rv EXCEPT ![self] = 5]
                                                /\ pc' = [pc EXCEPT ![self] = Head(stack[self]).pc]
                                                /\ sf' = [sf EXCEPT ![self] = Head(stack[self]).sf]
                                                /\ sctx' = [sctx EXCEPT ![self] = Head(stack[self]).sctx]
                                                /\ stack' = [stack EXCEPT ![self] = Tail(stack[self])]
                                                /\ UNCHANGED << rsq, bown, bwk, 
-                                                               bi, bcur, bw >>
+                                                               bi, bcur, bw, 
+                                                               bsp >>
                                           ELSE /\ /\ bown' = [bown EXCEPT ![self] = sf[self]]
                                                   /\ bwk' = [bwk EXCEPT ![self] = sctx[self]]
                                                   /\ rsq' = [rsq EXCEPT ![self] = Body(sf[self])]
@@ -4681,6 +4794,7 @@ z_ps(self) == /\ pc[self] = "z_ps"
                                                                                            bi        |->  bi[self],
                                                                                            bcur      |->  bcur[self],
                                                                                            bw        |->  bw[self],
+                                                                                           bsp       |->  bsp[self],
                                                                                            rsq       |->  rsq[self],
                                                                                            bown      |->  bown[self],
                                                                                            bwk       |->  bwk[self] ] >>
@@ -4688,9 +4802,10 @@ z_ps(self) == /\ pc[self] = "z_ps"
                                                /\ bi' = [bi EXCEPT ![self] = 0]
                                                /\ bcur' = [bcur EXCEPT ![self] = 0]
                                                /\ bw' = [bw EXCEPT ![self] = NoW]
+                                               /\ bsp' = [bsp EXCEPT ![self] = << >>]
                                                /\ pc' = [pc EXCEPT ![self] = "rb_step"]
-                                               /\ UNCHANGED << gwaker, rv, sf, 
-                                                               sctx >>
+                                               /\ UNCHANGED << gwaker, gwhist, 
+                                                               rv, sf, sctx >>
                                ELSE /\ IF sfst[sf[self]] = "WFS"
                                           THEN /\ pc' = [pc EXCEPT ![self] = "z_ps_s"]
                                                /\ UNCHANGED << rv, stack, sf, 
@@ -4700,8 +4815,8 @@ z_ps(self) == /\ pc[self] = "z_ps"
                                                /\ sf' = [sf EXCEPT ![self] = Head(stack[self]).sf]
                                                /\ sctx' = [sctx EXCEPT ![self] = Head(stack[self]).sctx]
                                                /\ stack' = [stack EXCEPT ![self] = Tail(stack[self])]
-                                    /\ UNCHANGED << gwaker, rsq, bown, bwk, bi, 
-                                                    bcur, bw >>
+                                    /\ UNCHANGED << gwaker, gwhist, rsq, bown, 
+                                                    bwk, bi, bcur, bw, bsp >>
                          /\ UNCHANGED << pf, pctx, pq, pj, pd >>
               /\ UNCHANGED << qstate, qpoll, jobs, wakeBlocked, schedule, 
                               pthreads, nspawned, palive, busy, busyLocked, 
@@ -4728,7 +4843,7 @@ z_ps_q(self) == /\ pc[self] = "z_ps_q"
                            /\ sctx' = [sctx EXCEPT ![self] = Head(stack[self]).sctx]
                            /\ stack' = [stack EXCEPT ![self] = Tail(stack[self])]
                            /\ UNCHANGED << qrWaker, rv, h, rsq, bown, bwk, bi, 
-                                           bcur, bw >>
+                                           bcur, bw, bsp >>
                       ELSE /\ IF qrSent[sf[self]]
                                  THEN /\ sfst' = [sfst EXCEPT ![sf[self]] = "WFF"]
                                       /\ h' = ObsStart(h, self, sf[self])
@@ -4740,6 +4855,7 @@ z_ps_q(self) == /\ pc[self] = "z_ps_q"
                                                                                   bi        |->  bi[self],
                                                                                   bcur      |->  bcur[self],
                                                                                   bw        |->  bw[self],
+                                                                                  bsp       |->  bsp[self],
                                                                                   rsq       |->  rsq[self],
                                                                                   bown      |->  bown[self],
                                                                                   bwk       |->  bwk[self] ] >>
@@ -4747,6 +4863,7 @@ z_ps_q(self) == /\ pc[self] = "z_ps_q"
                                       /\ bi' = [bi EXCEPT ![self] = 0]
                                       /\ bcur' = [bcur EXCEPT ![self] = 0]
                                       /\ bw' = [bw EXCEPT ![self] = NoW]
+                                      /\ bsp' = [bsp EXCEPT ![self] = << >>]
                                       /\ pc' = [pc EXCEPT ![self] = "rb_step"]
                                       /\ UNCHANGED << qrWaker, rv, sf, sctx >>
                                  ELSE /\ qrWaker' = [qrWaker EXCEPT ![sf[self]] = sctx[self]]
@@ -4756,23 +4873,23 @@ z_ps_q(self) == /\ pc[self] = "z_ps_q"
                                       /\ sctx' = [sctx EXCEPT ![self] = Head(stack[self]).sctx]
                                       /\ stack' = [stack EXCEPT ![self] = Tail(stack[self])]
                                       /\ UNCHANGED << sfst, h, rsq, bown, bwk, 
-                                                      bi, bcur, bw >>
+                                                      bi, bcur, bw, bsp >>
                            /\ UNCHANGED dnState
                 /\ UNCHANGED << qstate, qpoll, jobs, wakeBlocked, schedule, 
                                 pthreads, nspawned, palive, busy, busyLocked, 
                                 inbox, chanOpen, pfin, thrHeld, maxThreads, 
                                 jkind, jaw, fres, fwaker, gfired, gwaker, 
-                                gthreads, dwSt, dwW, dblTaken, dblW1, dblW2, 
-                                nextDW, ready, cwait, cnotif, cvHeld, sdres, 
-                                jpanic, slotSt, qrSent, dnWaker, parkTok, rwb, 
-                                rneed, dsl, atomic, strong, ppPending, 
-                                ppClosed, ppNotify, ppNC, ppBP, ppDepth, 
-                                ppAlive, ppHeld, inItems, inClosed, inWaker, 
-                                pollFn, chuteFn, pwTaken, nextPoll, ppItem, 
-                                dead, sti, rq, sq, sj, ww, jq, jj, jwk, fj, dq, 
-                                dj, oq, oop, omode, oj, yq, yop, tq, top, af, 
-                                wf, wop, xf, cop, kj, pp, np, nbp, nres, dp, 
-                                pf, pctx, pq, pj, pd, nq >>
+                                gthreads, gwhist, dwSt, dwW, dblTaken, dblW1, 
+                                dblW2, nextDW, ready, cwait, cnotif, cvHeld, 
+                                sdres, jpanic, slotSt, qrSent, dnWaker, 
+                                parkTok, rwb, rneed, dsl, atomic, strong, 
+                                ppPending, ppClosed, ppNotify, ppNC, ppBP, 
+                                ppDepth, ppAlive, ppHeld, inItems, inClosed, 
+                                inWaker, pollFn, chuteFn, pwTaken, nextPoll, 
+                                ppItem, dead, sti, rq, sq, sj, ww, jq, jj, jwk, 
+                                fj, dq, dj, oq, oop, omode, oj, yq, yop, tq, 
+                                top, af, wf, wop, xf, cop, kj, pp, np, nbp, 
+                                nres, dp, pf, pctx, pq, pj, pd, nq >>
 
 z_ps_f(self) == /\ pc[self] = "z_ps_f"
                 /\ IF rv[self] = 5
@@ -4813,18 +4930,18 @@ z_ps_f(self) == /\ pc[self] = "z_ps_f"
                                 pthreads, nspawned, palive, busy, busyLocked, 
                                 inbox, chanOpen, pfin, thrHeld, maxThreads, 
                                 jkind, jaw, fres, fwaker, gfired, gwaker, 
-                                gthreads, dwSt, dwW, dblTaken, dblW1, dblW2, 
-                                nextDW, ready, cwait, cnotif, cvHeld, sdres, 
-                                jpanic, slotSt, qrSent, qrWaker, dnWaker, rv, 
-                                rwb, rneed, dsl, atomic, strong, ppPending, 
-                                ppClosed, ppNotify, ppNC, ppBP, ppDepth, 
-                                ppAlive, ppHeld, inItems, inClosed, inWaker, 
-                                pollFn, chuteFn, pwTaken, nextPoll, ppItem, h, 
-                                dead, sti, rq, sq, sj, rsq, bown, bwk, bi, 
-                                bcur, bw, jq, jj, jwk, fj, dq, dj, oq, oop, 
-                                omode, oj, yq, yop, tq, top, af, wf, wop, xf, 
-                                cop, kj, pp, np, nbp, nres, dp, pf, pctx, pq, 
-                                pj, pd, nq >>
+                                gthreads, gwhist, dwSt, dwW, dblTaken, dblW1, 
+                                dblW2, nextDW, ready, cwait, cnotif, cvHeld, 
+                                sdres, jpanic, slotSt, qrSent, qrWaker, 
+                                dnWaker, rv, rwb, rneed, dsl, atomic, strong, 
+                                ppPending, ppClosed, ppNotify, ppNC, ppBP, 
+                                ppDepth, ppAlive, ppHeld, inItems, inClosed, 
+                                inWaker, pollFn, chuteFn, pwTaken, nextPoll, 
+                                ppItem, h, dead, sti, rq, sq, sj, rsq, bown, 
+                                bwk, bi, bcur, bw, bsp, jq, jj, jwk, fj, dq, 
+                                dj, oq, oop, omode, oj, yq, yop, tq, top, af, 
+                                wf, wop, xf, cop, kj, pp, np, nbp, nres, dp, 
+                                pf, pctx, pq, pj, pd, nq >>
 
 z_ps_s(self) == /\ pc[self] = "z_ps_s"
                 /\ /\ pctx' = [pctx EXCEPT ![self] = sctx[self]]
@@ -4845,18 +4962,18 @@ z_ps_s(self) == /\ pc[self] = "z_ps_s"
                                 pthreads, nspawned, palive, busy, busyLocked, 
                                 inbox, chanOpen, pfin, thrHeld, maxThreads, 
                                 jkind, jaw, fres, fwaker, gfired, gwaker, 
-                                gthreads, dwSt, dwW, dblTaken, dblW1, dblW2, 
-                                nextDW, ready, cwait, cnotif, cvHeld, sdres, 
-                                jpanic, sfst, slotSt, qrSent, qrWaker, dnState, 
-                                dnWaker, parkTok, rv, rwb, rneed, dsl, atomic, 
-                                strong, ppPending, ppClosed, ppNotify, ppNC, 
-                                ppBP, ppDepth, ppAlive, ppHeld, inItems, 
+                                gthreads, gwhist, dwSt, dwW, dblTaken, dblW1, 
+                                dblW2, nextDW, ready, cwait, cnotif, cvHeld, 
+                                sdres, jpanic, sfst, slotSt, qrSent, qrWaker, 
+                                dnState, dnWaker, parkTok, rv, rwb, rneed, dsl, 
+                                atomic, strong, ppPending, ppClosed, ppNotify, 
+                                ppNC, ppBP, ppDepth, ppAlive, ppHeld, inItems, 
                                 inClosed, inWaker, pollFn, chuteFn, pwTaken, 
                                 nextPoll, ppItem, h, dead, sti, rq, sq, sj, ww, 
-                                rsq, bown, bwk, bi, bcur, bw, jq, jj, jwk, fj, 
-                                dq, dj, oq, oop, omode, oj, yq, yop, tq, top, 
-                                af, wf, wop, sf, sctx, xf, cop, kj, pp, np, 
-                                nbp, nres, dp, nq >>
+                                rsq, bown, bwk, bi, bcur, bw, bsp, jq, jj, jwk, 
+                                fj, dq, dj, oq, oop, omode, oj, yq, yop, tq, 
+                                top, af, wf, wop, sf, sctx, xf, cop, kj, pp, 
+                                np, nbp, nres, dp, nq >>
 
 z_ps_s2(self) == /\ pc[self] = "z_ps_s2"
                  /\ IF rv[self] = 5
@@ -4875,18 +4992,18 @@ z_ps_s2(self) == /\ pc[self] = "z_ps_s2"
                                  pthreads, nspawned, palive, busy, busyLocked, 
                                  inbox, chanOpen, pfin, thrHeld, maxThreads, 
                                  jkind, jaw, fres, fwaker, gfired, gwaker, 
-                                 gthreads, dwSt, dwW, dblTaken, dblW1, dblW2, 
-                                 nextDW, ready, cwait, cnotif, cvHeld, sdres, 
-                                 jpanic, slotSt, qrSent, qrWaker, dnState, 
-                                 dnWaker, parkTok, rwb, rneed, dsl, atomic, 
-                                 strong, ppPending, ppClosed, ppNotify, ppNC, 
-                                 ppBP, ppDepth, ppAlive, ppHeld, inItems, 
+                                 gthreads, gwhist, dwSt, dwW, dblTaken, dblW1, 
+                                 dblW2, nextDW, ready, cwait, cnotif, cvHeld, 
+                                 sdres, jpanic, slotSt, qrSent, qrWaker, 
+                                 dnState, dnWaker, parkTok, rwb, rneed, dsl, 
+                                 atomic, strong, ppPending, ppClosed, ppNotify, 
+                                 ppNC, ppBP, ppDepth, ppAlive, ppHeld, inItems, 
                                  inClosed, inWaker, pollFn, chuteFn, pwTaken, 
                                  nextPoll, ppItem, h, dead, sti, rq, sq, sj, 
-                                 ww, rsq, bown, bwk, bi, bcur, bw, jq, jj, jwk, 
-                                 fj, dq, dj, oq, oop, omode, oj, yq, yop, tq, 
-                                 top, af, wf, wop, xf, cop, kj, pp, np, nbp, 
-                                 nres, dp, pf, pctx, pq, pj, pd, nq >>
+                                 ww, rsq, bown, bwk, bi, bcur, bw, bsp, jq, jj, 
+                                 jwk, fj, dq, dj, oq, oop, omode, oj, yq, yop, 
+                                 tq, top, af, wf, wop, xf, cop, kj, pp, np, 
+                                 nbp, nres, dp, pf, pctx, pq, pj, pd, nq >>
 
 z_ps_panic(self) == /\ pc[self] = "z_ps_panic"
                     /\ rv' = [rv EXCEPT ![self] = 2]
@@ -4898,8 +5015,8 @@ z_ps_panic(self) == /\ pc[self] = "z_ps_panic"
                                     pthreads, nspawned, palive, busy, 
                                     busyLocked, inbox, chanOpen, pfin, thrHeld, 
                                     maxThreads, jkind, jaw, fres, fwaker, 
-                                    gfired, gwaker, gthreads, dwSt, dwW, 
-                                    dblTaken, dblW1, dblW2, nextDW, ready, 
+                                    gfired, gwaker, gthreads, gwhist, dwSt, 
+                                    dwW, dblTaken, dblW1, dblW2, nextDW, ready, 
                                     cwait, cnotif, cvHeld, sdres, jpanic, sfst, 
                                     slotSt, qrSent, qrWaker, dnState, dnWaker, 
                                     parkTok, rwb, rneed, dsl, atomic, strong, 
@@ -4908,7 +5025,7 @@ z_ps_panic(self) == /\ pc[self] = "z_ps_panic"
                                     inClosed, inWaker, pollFn, chuteFn, 
                                     pwTaken, nextPoll, ppItem, h, dead, sti, 
                                     rq, sq, sj, ww, rsq, bown, bwk, bi, bcur, 
-                                    bw, jq, jj, jwk, fj, dq, dj, oq, oop, 
+                                    bw, bsp, jq, jj, jwk, fj, dq, dj, oq, oop, 
                                     omode, oj, yq, yop, tq, top, af, wf, wop, 
                                     xf, cop, kj, pp, np, nbp, nres, dp, pf, 
                                     pctx, pq, pj, pd, nq >>
@@ -4944,18 +5061,18 @@ z_df(self) == /\ pc[self] = "z_df"
                               pthreads, nspawned, palive, busy, busyLocked, 
                               inbox, chanOpen, pfin, thrHeld, maxThreads, 
                               jkind, jaw, fres, fwaker, gfired, gwaker, 
-                              gthreads, dwSt, dwW, dblTaken, dblW1, dblW2, 
-                              nextDW, ready, cwait, cnotif, cvHeld, sdres, 
-                              jpanic, slotSt, qrSent, qrWaker, dnWaker, 
+                              gthreads, gwhist, dwSt, dwW, dblTaken, dblW1, 
+                              dblW2, nextDW, ready, cwait, cnotif, cvHeld, 
+                              sdres, jpanic, slotSt, qrSent, qrWaker, dnWaker, 
                               parkTok, rwb, rneed, dsl, atomic, strong, 
                               ppPending, ppClosed, ppNotify, ppNC, ppBP, 
                               ppDepth, ppAlive, ppHeld, inItems, inClosed, 
                               inWaker, pollFn, chuteFn, pwTaken, nextPoll, 
                               ppItem, dead, sti, rq, sq, sj, rsq, bown, bwk, 
-                              bi, bcur, bw, jq, jj, jwk, fj, dq, dj, oq, oop, 
-                              omode, oj, yq, yop, tq, top, af, wf, wop, sf, 
-                              sctx, cop, kj, pp, np, nbp, nres, dp, pf, pctx, 
-                              pq, pj, pd, nq >>
+                              bi, bcur, bw, bsp, jq, jj, jwk, fj, dq, dj, oq, 
+                              oop, omode, oj, yq, yop, tq, top, af, wf, wop, 
+                              sf, sctx, cop, kj, pp, np, nbp, nres, dp, pf, 
+                              pctx, pq, pj, pd, nq >>
 
 z_df2(self) == /\ pc[self] = "z_df2"
                /\ rv' = [rv EXCEPT ![self] = 0]
@@ -4966,18 +5083,18 @@ z_df2(self) == /\ pc[self] = "z_df2"
                                pthreads, nspawned, palive, busy, busyLocked, 
                                inbox, chanOpen, pfin, thrHeld, maxThreads, 
                                jkind, jaw, fres, fwaker, gfired, gwaker, 
-                               gthreads, dwSt, dwW, dblTaken, dblW1, dblW2, 
-                               nextDW, ready, cwait, cnotif, cvHeld, sdres, 
-                               jpanic, sfst, slotSt, qrSent, qrWaker, dnState, 
-                               dnWaker, parkTok, rwb, rneed, dsl, atomic, 
-                               strong, ppPending, ppClosed, ppNotify, ppNC, 
-                               ppBP, ppDepth, ppAlive, ppHeld, inItems, 
+                               gthreads, gwhist, dwSt, dwW, dblTaken, dblW1, 
+                               dblW2, nextDW, ready, cwait, cnotif, cvHeld, 
+                               sdres, jpanic, sfst, slotSt, qrSent, qrWaker, 
+                               dnState, dnWaker, parkTok, rwb, rneed, dsl, 
+                               atomic, strong, ppPending, ppClosed, ppNotify, 
+                               ppNC, ppBP, ppDepth, ppAlive, ppHeld, inItems, 
                                inClosed, inWaker, pollFn, chuteFn, pwTaken, 
                                nextPoll, ppItem, h, dead, sti, rq, sq, sj, ww, 
-                               rsq, bown, bwk, bi, bcur, bw, jq, jj, jwk, fj, 
-                               dq, dj, oq, oop, omode, oj, yq, yop, tq, top, 
-                               af, wf, wop, sf, sctx, cop, kj, pp, np, nbp, 
-                               nres, dp, pf, pctx, pq, pj, pd, nq >>
+                               rsq, bown, bwk, bi, bcur, bw, bsp, jq, jj, jwk, 
+                               fj, dq, dj, oq, oop, omode, oj, yq, yop, tq, 
+                               top, af, wf, wop, sf, sctx, cop, kj, pp, np, 
+                               nbp, nres, dp, pf, pctx, pq, pj, pd, nq >>
 
 DropFuture(self) == z_df(self) \/ z_df2(self)
 
@@ -4999,17 +5116,17 @@ z_pcr1(self) == /\ pc[self] = "z_pcr1"
                                 pthreads, nspawned, palive, busy, busyLocked, 
                                 inbox, chanOpen, pfin, thrHeld, maxThreads, 
                                 jaw, fres, fwaker, gfired, gwaker, gthreads, 
-                                dwSt, dwW, dblTaken, dblW1, dblW2, nextDW, 
-                                ready, cwait, cnotif, cvHeld, sdres, jpanic, 
-                                sfst, slotSt, qrSent, qrWaker, dnState, 
+                                gwhist, dwSt, dwW, dblTaken, dblW1, dblW2, 
+                                nextDW, ready, cwait, cnotif, cvHeld, sdres, 
+                                jpanic, sfst, slotSt, qrSent, qrWaker, dnState, 
                                 dnWaker, parkTok, rv, rwb, rneed, dsl, atomic, 
                                 ppPending, ppClosed, ppNotify, ppNC, ppBP, 
                                 ppDepth, ppHeld, inItems, inClosed, inWaker, 
                                 chuteFn, pwTaken, ppItem, h, dead, sti, rq, ww, 
-                                rsq, bown, bwk, bi, bcur, bw, jq, jj, jwk, fj, 
-                                dq, dj, oq, oop, omode, oj, yq, yop, tq, top, 
-                                af, wf, wop, sf, sctx, xf, cop, kj, pp, np, 
-                                nbp, nres, dp, pf, pctx, pq, pj, pd, nq >>
+                                rsq, bown, bwk, bi, bcur, bw, bsp, jq, jj, jwk, 
+                                fj, dq, dj, oq, oop, omode, oj, yq, yop, tq, 
+                                top, af, wf, wop, sf, sctx, xf, cop, kj, pp, 
+                                np, nbp, nres, dp, pf, pctx, pq, pj, pd, nq >>
 
 z_pcr2(self) == /\ pc[self] = "z_pcr2"
                 /\ strong' = [strong EXCEPT ![O(cop[self])] = strong[O(cop[self])] - 1]
@@ -5025,18 +5142,18 @@ z_pcr2(self) == /\ pc[self] = "z_pcr2"
                                 pthreads, nspawned, palive, busy, busyLocked, 
                                 inbox, chanOpen, pfin, thrHeld, maxThreads, 
                                 jkind, jaw, fres, fwaker, gfired, gwaker, 
-                                gthreads, dwSt, dwW, dblTaken, dblW1, dblW2, 
-                                nextDW, ready, cwait, cnotif, cvHeld, sdres, 
-                                jpanic, sfst, slotSt, qrSent, qrWaker, dnState, 
-                                dnWaker, parkTok, rv, rwb, rneed, dsl, atomic, 
-                                ppPending, ppClosed, ppNotify, ppNC, ppBP, 
-                                ppDepth, ppAlive, ppHeld, inItems, inClosed, 
-                                inWaker, pollFn, chuteFn, pwTaken, nextPoll, 
-                                ppItem, h, dead, sti, rq, sq, sj, ww, rsq, 
-                                bown, bwk, bi, bcur, bw, jq, jj, jwk, fj, dq, 
-                                dj, oq, oop, omode, oj, tq, top, af, wf, wop, 
-                                sf, sctx, xf, cop, kj, pp, np, nbp, nres, dp, 
-                                pf, pctx, pq, pj, pd, nq >>
+                                gthreads, gwhist, dwSt, dwW, dblTaken, dblW1, 
+                                dblW2, nextDW, ready, cwait, cnotif, cvHeld, 
+                                sdres, jpanic, sfst, slotSt, qrSent, qrWaker, 
+                                dnState, dnWaker, parkTok, rv, rwb, rneed, dsl, 
+                                atomic, ppPending, ppClosed, ppNotify, ppNC, 
+                                ppBP, ppDepth, ppAlive, ppHeld, inItems, 
+                                inClosed, inWaker, pollFn, chuteFn, pwTaken, 
+                                nextPoll, ppItem, h, dead, sti, rq, sq, sj, ww, 
+                                rsq, bown, bwk, bi, bcur, bw, bsp, jq, jj, jwk, 
+                                fj, dq, dj, oq, oop, omode, oj, tq, top, af, 
+                                wf, wop, sf, sctx, xf, cop, kj, pp, np, nbp, 
+                                nres, dp, pf, pctx, pq, pj, pd, nq >>
 
 z_pcr3(self) == /\ pc[self] = "z_pcr3"
                 /\ pc' = [pc EXCEPT ![self] = Head(stack[self]).pc]
@@ -5046,18 +5163,18 @@ z_pcr3(self) == /\ pc[self] = "z_pcr3"
                                 pthreads, nspawned, palive, busy, busyLocked, 
                                 inbox, chanOpen, pfin, thrHeld, maxThreads, 
                                 jkind, jaw, fres, fwaker, gfired, gwaker, 
-                                gthreads, dwSt, dwW, dblTaken, dblW1, dblW2, 
-                                nextDW, ready, cwait, cnotif, cvHeld, sdres, 
-                                jpanic, sfst, slotSt, qrSent, qrWaker, dnState, 
-                                dnWaker, parkTok, rv, rwb, rneed, dsl, atomic, 
-                                strong, ppPending, ppClosed, ppNotify, ppNC, 
-                                ppBP, ppDepth, ppAlive, ppHeld, inItems, 
+                                gthreads, gwhist, dwSt, dwW, dblTaken, dblW1, 
+                                dblW2, nextDW, ready, cwait, cnotif, cvHeld, 
+                                sdres, jpanic, sfst, slotSt, qrSent, qrWaker, 
+                                dnState, dnWaker, parkTok, rv, rwb, rneed, dsl, 
+                                atomic, strong, ppPending, ppClosed, ppNotify, 
+                                ppNC, ppBP, ppDepth, ppAlive, ppHeld, inItems, 
                                 inClosed, inWaker, pollFn, chuteFn, pwTaken, 
                                 nextPoll, ppItem, h, dead, sti, rq, sq, sj, ww, 
-                                rsq, bown, bwk, bi, bcur, bw, jq, jj, jwk, fj, 
-                                dq, dj, oq, oop, omode, oj, yq, yop, tq, top, 
-                                af, wf, wop, sf, sctx, xf, kj, pp, np, nbp, 
-                                nres, dp, pf, pctx, pq, pj, pd, nq >>
+                                rsq, bown, bwk, bi, bcur, bw, bsp, jq, jj, jwk, 
+                                fj, dq, dj, oq, oop, omode, oj, yq, yop, tq, 
+                                top, af, wf, wop, sf, sctx, xf, kj, pp, np, 
+                                nbp, nres, dp, pf, pctx, pq, pj, pd, nq >>
 
 PipeCreate(self) == z_pcr1(self) \/ z_pcr2(self) \/ z_pcr3(self)
 
@@ -5082,18 +5199,18 @@ pp_fn(self) == /\ pc[self] = "pp_fn"
                                pthreads, nspawned, palive, busy, busyLocked, 
                                inbox, chanOpen, pfin, thrHeld, maxThreads, 
                                jkind, jaw, fres, fwaker, gfired, gwaker, 
-                               gthreads, dwSt, dwW, dblTaken, dblW1, dblW2, 
-                               nextDW, ready, cwait, cnotif, cvHeld, sdres, 
-                               jpanic, sfst, slotSt, qrSent, qrWaker, dnState, 
-                               dnWaker, parkTok, rwb, rneed, dsl, atomic, 
-                               strong, ppPending, ppClosed, ppNotify, ppNC, 
-                               ppBP, ppDepth, ppAlive, inItems, inClosed, 
+                               gthreads, gwhist, dwSt, dwW, dblTaken, dblW1, 
+                               dblW2, nextDW, ready, cwait, cnotif, cvHeld, 
+                               sdres, jpanic, sfst, slotSt, qrSent, qrWaker, 
+                               dnState, dnWaker, parkTok, rwb, rneed, dsl, 
+                               atomic, strong, ppPending, ppClosed, ppNotify, 
+                               ppNC, ppBP, ppDepth, ppAlive, inItems, inClosed, 
                                inWaker, pollFn, chuteFn, pwTaken, nextPoll, 
                                ppItem, h, dead, sti, rq, sq, sj, ww, rsq, bown, 
-                               bwk, bi, bcur, bw, jq, jj, jwk, fj, dq, dj, oq, 
-                               oop, omode, oj, yq, yop, tq, top, af, wf, wop, 
-                               sf, sctx, xf, cop, np, nbp, nres, dp, pf, pctx, 
-                               pq, pj, pd, nq >>
+                               bwk, bi, bcur, bw, bsp, jq, jj, jwk, fj, dq, dj, 
+                               oq, oop, omode, oj, yq, yop, tq, top, af, wf, 
+                               wop, sf, sctx, xf, cop, np, nbp, nres, dp, pf, 
+                               pctx, pq, pj, pd, nq >>
 
 pp_bp(self) == /\ pc[self] = "pp_bp"
                /\ IF Len(ppPending[pp[self]]) >= ppDepth[pp[self]]
@@ -5112,18 +5229,18 @@ pp_bp(self) == /\ pc[self] = "pp_bp"
                                pthreads, nspawned, palive, busy, busyLocked, 
                                inbox, chanOpen, pfin, thrHeld, maxThreads, 
                                jkind, jaw, fres, fwaker, gfired, gwaker, 
-                               gthreads, dwSt, dwW, dblTaken, dblW1, dblW2, 
-                               nextDW, ready, cwait, cnotif, cvHeld, sdres, 
-                               jpanic, sfst, slotSt, qrSent, qrWaker, dnState, 
-                               dnWaker, parkTok, rwb, rneed, dsl, atomic, 
-                               strong, ppPending, ppClosed, ppNotify, ppNC, 
-                               ppDepth, ppAlive, inItems, inClosed, inWaker, 
-                               pollFn, chuteFn, pwTaken, nextPoll, ppItem, h, 
-                               dead, sti, rq, sq, sj, ww, rsq, bown, bwk, bi, 
-                               bcur, bw, jq, jj, jwk, fj, dq, dj, oq, oop, 
-                               omode, oj, yq, yop, tq, top, af, wf, wop, sf, 
-                               sctx, xf, cop, np, nbp, nres, dp, pf, pctx, pq, 
-                               pj, pd, nq >>
+                               gthreads, gwhist, dwSt, dwW, dblTaken, dblW1, 
+                               dblW2, nextDW, ready, cwait, cnotif, cvHeld, 
+                               sdres, jpanic, sfst, slotSt, qrSent, qrWaker, 
+                               dnState, dnWaker, parkTok, rwb, rneed, dsl, 
+                               atomic, strong, ppPending, ppClosed, ppNotify, 
+                               ppNC, ppDepth, ppAlive, inItems, inClosed, 
+                               inWaker, pollFn, chuteFn, pwTaken, nextPoll, 
+                               ppItem, h, dead, sti, rq, sq, sj, ww, rsq, bown, 
+                               bwk, bi, bcur, bw, bsp, jq, jj, jwk, fj, dq, dj, 
+                               oq, oop, omode, oj, yq, yop, tq, top, af, wf, 
+                               wop, sf, sctx, xf, cop, np, nbp, nres, dp, pf, 
+                               pctx, pq, pj, pd, nq >>
 
 pp_clear(self) == /\ pc[self] = "pp_clear"
                   /\ IF FixD5 /\ ppClosed[pp[self]]
@@ -5137,19 +5254,19 @@ pp_clear(self) == /\ pc[self] = "pp_clear"
                                   pthreads, nspawned, palive, busy, busyLocked, 
                                   inbox, chanOpen, pfin, thrHeld, maxThreads, 
                                   jkind, jaw, fres, fwaker, gfired, gwaker, 
-                                  gthreads, dwSt, dwW, dblTaken, dblW1, dblW2, 
-                                  nextDW, ready, cwait, cnotif, cvHeld, sdres, 
-                                  jpanic, sfst, slotSt, qrSent, qrWaker, 
+                                  gthreads, gwhist, dwSt, dwW, dblTaken, dblW1, 
+                                  dblW2, nextDW, ready, cwait, cnotif, cvHeld, 
+                                  sdres, jpanic, sfst, slotSt, qrSent, qrWaker, 
                                   dnState, dnWaker, parkTok, rv, rwb, rneed, 
                                   dsl, atomic, strong, ppPending, ppClosed, 
                                   ppNotify, ppBP, ppDepth, ppAlive, inItems, 
                                   inClosed, inWaker, pollFn, chuteFn, pwTaken, 
                                   nextPoll, ppItem, h, stack, dead, sti, rq, 
-                                  sq, sj, ww, rsq, bown, bwk, bi, bcur, bw, jq, 
-                                  jj, jwk, fj, dq, dj, oq, oop, omode, oj, yq, 
-                                  yop, tq, top, af, wf, wop, sf, sctx, xf, cop, 
-                                  kj, pp, np, nbp, nres, dp, pf, pctx, pq, pj, 
-                                  pd, nq >>
+                                  sq, sj, ww, rsq, bown, bwk, bi, bcur, bw, 
+                                  bsp, jq, jj, jwk, fj, dq, dj, oq, oop, omode, 
+                                  oj, yq, yop, tq, top, af, wf, wop, sf, sctx, 
+                                  xf, cop, kj, pp, np, nbp, nres, dp, pf, pctx, 
+                                  pq, pj, pd, nq >>
 
 pp_in(self) == /\ pc[self] = "pp_in"
                /\ IF inItems[pp[self]] # << >>
@@ -5167,18 +5284,18 @@ pp_in(self) == /\ pc[self] = "pp_in"
                                pthreads, nspawned, palive, busy, busyLocked, 
                                inbox, chanOpen, pfin, thrHeld, maxThreads, 
                                jkind, jaw, fres, fwaker, gfired, gwaker, 
-                               gthreads, dwSt, dwW, dblTaken, dblW1, dblW2, 
-                               nextDW, ready, cwait, cnotif, cvHeld, sdres, 
-                               jpanic, sfst, slotSt, qrSent, qrWaker, dnState, 
-                               dnWaker, parkTok, rv, rwb, rneed, dsl, atomic, 
-                               strong, ppPending, ppClosed, ppNotify, ppNC, 
-                               ppBP, ppDepth, ppAlive, ppHeld, inClosed, 
+                               gthreads, gwhist, dwSt, dwW, dblTaken, dblW1, 
+                               dblW2, nextDW, ready, cwait, cnotif, cvHeld, 
+                               sdres, jpanic, sfst, slotSt, qrSent, qrWaker, 
+                               dnState, dnWaker, parkTok, rv, rwb, rneed, dsl, 
+                               atomic, strong, ppPending, ppClosed, ppNotify, 
+                               ppNC, ppBP, ppDepth, ppAlive, ppHeld, inClosed, 
                                inWaker, pollFn, chuteFn, pwTaken, nextPoll, 
                                stack, dead, sti, rq, sq, sj, ww, rsq, bown, 
-                               bwk, bi, bcur, bw, jq, jj, jwk, fj, dq, dj, oq, 
-                               oop, omode, oj, yq, yop, tq, top, af, wf, wop, 
-                               sf, sctx, xf, cop, kj, pp, np, nbp, nres, dp, 
-                               pf, pctx, pq, pj, pd, nq >>
+                               bwk, bi, bcur, bw, bsp, jq, jj, jwk, fj, dq, dj, 
+                               oq, oop, omode, oj, yq, yop, tq, top, af, wf, 
+                               wop, sf, sctx, xf, cop, kj, pp, np, nbp, nres, 
+                               dp, pf, pctx, pq, pj, pd, nq >>
 
 pp_in2(self) == /\ pc[self] = "pp_in2"
                 /\ inWaker' = [inWaker EXCEPT ![pp[self]] = PW(kj[self])]
@@ -5197,18 +5314,18 @@ pp_in2(self) == /\ pc[self] = "pp_in2"
                                 pthreads, nspawned, palive, busy, busyLocked, 
                                 inbox, chanOpen, pfin, thrHeld, maxThreads, 
                                 jkind, jaw, fres, fwaker, gfired, gwaker, 
-                                gthreads, dwSt, dwW, dblTaken, dblW1, dblW2, 
-                                nextDW, ready, cwait, cnotif, cvHeld, sdres, 
-                                jpanic, sfst, slotSt, qrSent, qrWaker, dnState, 
-                                dnWaker, parkTok, rv, rwb, rneed, dsl, atomic, 
-                                strong, ppPending, ppClosed, ppNotify, ppNC, 
-                                ppBP, ppDepth, ppAlive, ppHeld, inClosed, 
+                                gthreads, gwhist, dwSt, dwW, dblTaken, dblW1, 
+                                dblW2, nextDW, ready, cwait, cnotif, cvHeld, 
+                                sdres, jpanic, sfst, slotSt, qrSent, qrWaker, 
+                                dnState, dnWaker, parkTok, rv, rwb, rneed, dsl, 
+                                atomic, strong, ppPending, ppClosed, ppNotify, 
+                                ppNC, ppBP, ppDepth, ppAlive, ppHeld, inClosed, 
                                 pollFn, chuteFn, pwTaken, nextPoll, stack, 
                                 dead, sti, rq, sq, sj, ww, rsq, bown, bwk, bi, 
-                                bcur, bw, jq, jj, jwk, fj, dq, dj, oq, oop, 
-                                omode, oj, yq, yop, tq, top, af, wf, wop, sf, 
-                                sctx, xf, cop, kj, pp, np, nbp, nres, dp, pf, 
-                                pctx, pq, pj, pd, nq >>
+                                bcur, bw, bsp, jq, jj, jwk, fj, dq, dj, oq, 
+                                oop, omode, oj, yq, yop, tq, top, af, wf, wop, 
+                                sf, sctx, xf, cop, kj, pp, np, nbp, nres, dp, 
+                                pf, pctx, pq, pj, pd, nq >>
 
 pp_reg(self) == /\ pc[self] = "pp_reg"
                 /\ IF FixD5 /\ ppClosed[pp[self]]
@@ -5226,18 +5343,18 @@ pp_reg(self) == /\ pc[self] = "pp_reg"
                                 pthreads, nspawned, palive, busy, busyLocked, 
                                 inbox, chanOpen, pfin, thrHeld, maxThreads, 
                                 jkind, jaw, fres, fwaker, gfired, gwaker, 
-                                gthreads, dwSt, dwW, dblTaken, dblW1, dblW2, 
-                                nextDW, ready, cwait, cnotif, cvHeld, sdres, 
-                                jpanic, sfst, slotSt, qrSent, qrWaker, dnState, 
-                                dnWaker, parkTok, rwb, rneed, dsl, atomic, 
-                                strong, ppPending, ppClosed, ppNotify, ppBP, 
-                                ppDepth, ppAlive, inItems, inClosed, inWaker, 
-                                pollFn, chuteFn, pwTaken, nextPoll, ppItem, h, 
-                                dead, sti, rq, sq, sj, ww, rsq, bown, bwk, bi, 
-                                bcur, bw, jq, jj, jwk, fj, dq, dj, oq, oop, 
-                                omode, oj, yq, yop, tq, top, af, wf, wop, sf, 
-                                sctx, xf, cop, np, nbp, nres, dp, pf, pctx, pq, 
-                                pj, pd, nq >>
+                                gthreads, gwhist, dwSt, dwW, dblTaken, dblW1, 
+                                dblW2, nextDW, ready, cwait, cnotif, cvHeld, 
+                                sdres, jpanic, sfst, slotSt, qrSent, qrWaker, 
+                                dnState, dnWaker, parkTok, rwb, rneed, dsl, 
+                                atomic, strong, ppPending, ppClosed, ppNotify, 
+                                ppBP, ppDepth, ppAlive, inItems, inClosed, 
+                                inWaker, pollFn, chuteFn, pwTaken, nextPoll, 
+                                ppItem, h, dead, sti, rq, sq, sj, ww, rsq, 
+                                bown, bwk, bi, bcur, bw, bsp, jq, jj, jwk, fj, 
+                                dq, dj, oq, oop, omode, oj, yq, yop, tq, top, 
+                                af, wf, wop, sf, sctx, xf, cop, np, nbp, nres, 
+                                dp, pf, pctx, pq, pj, pd, nq >>
 
 pp_end(self) == /\ pc[self] = "pp_end"
                 /\ ppClosed' = [ppClosed EXCEPT ![pp[self]] = TRUE]
@@ -5249,18 +5366,18 @@ pp_end(self) == /\ pc[self] = "pp_end"
                                 pthreads, nspawned, palive, busy, busyLocked, 
                                 inbox, chanOpen, pfin, thrHeld, maxThreads, 
                                 jkind, jaw, fres, fwaker, gfired, gwaker, 
-                                gthreads, dwSt, dwW, dblTaken, dblW1, dblW2, 
-                                nextDW, ready, cwait, cnotif, cvHeld, sdres, 
-                                jpanic, sfst, slotSt, qrSent, qrWaker, dnState, 
-                                dnWaker, rv, rwb, rneed, dsl, atomic, strong, 
-                                ppPending, ppNC, ppBP, ppDepth, ppAlive, 
-                                inItems, inClosed, inWaker, pollFn, chuteFn, 
-                                pwTaken, nextPoll, ppItem, h, stack, dead, sti, 
-                                rq, sq, sj, ww, rsq, bown, bwk, bi, bcur, bw, 
-                                jq, jj, jwk, fj, dq, dj, oq, oop, omode, oj, 
-                                yq, yop, tq, top, af, wf, wop, sf, sctx, xf, 
-                                cop, kj, pp, np, nbp, nres, dp, pf, pctx, pq, 
-                                pj, pd, nq >>
+                                gthreads, gwhist, dwSt, dwW, dblTaken, dblW1, 
+                                dblW2, nextDW, ready, cwait, cnotif, cvHeld, 
+                                sdres, jpanic, sfst, slotSt, qrSent, qrWaker, 
+                                dnState, dnWaker, rv, rwb, rneed, dsl, atomic, 
+                                strong, ppPending, ppNC, ppBP, ppDepth, 
+                                ppAlive, inItems, inClosed, inWaker, pollFn, 
+                                chuteFn, pwTaken, nextPoll, ppItem, h, stack, 
+                                dead, sti, rq, sq, sj, ww, rsq, bown, bwk, bi, 
+                                bcur, bw, bsp, jq, jj, jwk, fj, dq, dj, oq, 
+                                oop, omode, oj, yq, yop, tq, top, af, wf, wop, 
+                                sf, sctx, xf, cop, kj, pp, np, nbp, nres, dp, 
+                                pf, pctx, pq, pj, pd, nq >>
 
 pp_closed(self) == /\ pc[self] = "pp_closed"
                    /\ parkTok' = Unpark(parkTok, TaskOf(ppNotify[pp[self]]))
@@ -5271,7 +5388,7 @@ pp_closed(self) == /\ pc[self] = "pp_closed"
                                    pthreads, nspawned, palive, busy, 
                                    busyLocked, inbox, chanOpen, pfin, thrHeld, 
                                    maxThreads, jkind, jaw, fres, fwaker, 
-                                   gfired, gwaker, gthreads, dwSt, dwW, 
+                                   gfired, gwaker, gthreads, gwhist, dwSt, dwW, 
                                    dblTaken, dblW1, dblW2, nextDW, ready, 
                                    cwait, cnotif, cvHeld, sdres, jpanic, sfst, 
                                    slotSt, qrSent, qrWaker, dnState, dnWaker, 
@@ -5280,10 +5397,10 @@ pp_closed(self) == /\ pc[self] = "pp_closed"
                                    ppAlive, inItems, inClosed, inWaker, pollFn, 
                                    chuteFn, pwTaken, nextPoll, ppItem, h, 
                                    stack, dead, sti, rq, sq, sj, ww, rsq, bown, 
-                                   bwk, bi, bcur, bw, jq, jj, jwk, fj, dq, dj, 
-                                   oq, oop, omode, oj, yq, yop, tq, top, af, 
-                                   wf, wop, sf, sctx, xf, cop, kj, pp, np, nbp, 
-                                   nres, dp, pf, pctx, pq, pj, pd, nq >>
+                                   bwk, bi, bcur, bw, bsp, jq, jj, jwk, fj, dq, 
+                                   dj, oq, oop, omode, oj, yq, yop, tq, top, 
+                                   af, wf, wop, sf, sctx, xf, cop, kj, pp, np, 
+                                   nbp, nres, dp, pf, pctx, pq, pj, pd, nq >>
 
 pp_proc(self) == /\ pc[self] = "pp_proc"
                  /\ h' = ObsProcStart(h, self, pp[self], ppItem[kj[self]])
@@ -5292,19 +5409,19 @@ pp_proc(self) == /\ pc[self] = "pp_proc"
                                  pthreads, nspawned, palive, busy, busyLocked, 
                                  inbox, chanOpen, pfin, thrHeld, maxThreads, 
                                  jkind, jaw, fres, fwaker, gfired, gwaker, 
-                                 gthreads, dwSt, dwW, dblTaken, dblW1, dblW2, 
-                                 nextDW, ready, cwait, cnotif, cvHeld, sdres, 
-                                 jpanic, sfst, slotSt, qrSent, qrWaker, 
+                                 gthreads, gwhist, dwSt, dwW, dblTaken, dblW1, 
+                                 dblW2, nextDW, ready, cwait, cnotif, cvHeld, 
+                                 sdres, jpanic, sfst, slotSt, qrSent, qrWaker, 
                                  dnState, dnWaker, parkTok, rv, rwb, rneed, 
                                  dsl, atomic, strong, ppPending, ppClosed, 
                                  ppNotify, ppNC, ppBP, ppDepth, ppAlive, 
                                  ppHeld, inItems, inClosed, inWaker, pollFn, 
                                  chuteFn, pwTaken, nextPoll, ppItem, stack, 
                                  dead, sti, rq, sq, sj, ww, rsq, bown, bwk, bi, 
-                                 bcur, bw, jq, jj, jwk, fj, dq, dj, oq, oop, 
-                                 omode, oj, yq, yop, tq, top, af, wf, wop, sf, 
-                                 sctx, xf, cop, kj, pp, np, nbp, nres, dp, pf, 
-                                 pctx, pq, pj, pd, nq >>
+                                 bcur, bw, bsp, jq, jj, jwk, fj, dq, dj, oq, 
+                                 oop, omode, oj, yq, yop, tq, top, af, wf, wop, 
+                                 sf, sctx, xf, cop, kj, pp, np, nbp, nres, dp, 
+                                 pf, pctx, pq, pj, pd, nq >>
 
 pp_body(self) == /\ pc[self] = "pp_body"
                  /\ h' = ObsProcEnd(h, self, pp[self], ppItem[kj[self]])
@@ -5315,19 +5432,19 @@ pp_body(self) == /\ pc[self] = "pp_body"
                                  pthreads, nspawned, palive, busy, busyLocked, 
                                  inbox, chanOpen, pfin, thrHeld, maxThreads, 
                                  jkind, jaw, fres, fwaker, gfired, gwaker, 
-                                 gthreads, dwSt, dwW, dblTaken, dblW1, dblW2, 
-                                 nextDW, ready, cwait, cnotif, cvHeld, sdres, 
-                                 jpanic, sfst, slotSt, qrSent, qrWaker, 
+                                 gthreads, gwhist, dwSt, dwW, dblTaken, dblW1, 
+                                 dblW2, nextDW, ready, cwait, cnotif, cvHeld, 
+                                 sdres, jpanic, sfst, slotSt, qrSent, qrWaker, 
                                  dnState, dnWaker, parkTok, rv, rwb, rneed, 
                                  dsl, atomic, strong, ppPending, ppClosed, 
                                  ppNotify, ppNC, ppBP, ppDepth, ppAlive, 
                                  ppHeld, inItems, inClosed, inWaker, pollFn, 
                                  chuteFn, pwTaken, nextPoll, ppItem, stack, 
                                  dead, sti, rq, sq, sj, ww, rsq, bown, bwk, bi, 
-                                 bcur, bw, jq, jj, jwk, fj, dq, dj, oq, oop, 
-                                 omode, oj, yq, yop, tq, top, af, wf, wop, sf, 
-                                 sctx, xf, cop, kj, pp, np, nbp, nres, dp, pf, 
-                                 pctx, pq, pj, pd, nq >>
+                                 bcur, bw, bsp, jq, jj, jwk, fj, dq, dj, oq, 
+                                 oop, omode, oj, yq, yop, tq, top, af, wf, wop, 
+                                 sf, sctx, xf, cop, kj, pp, np, nbp, nres, dp, 
+                                 pf, pctx, pq, pj, pd, nq >>
 
 pp_push(self) == /\ pc[self] = "pp_push"
                  /\ ppPending' = [ppPending EXCEPT ![pp[self]] = Append(ppPending[pp[self]], 10 * ppItem[kj[self]])]
@@ -5338,18 +5455,18 @@ pp_push(self) == /\ pc[self] = "pp_push"
                                  pthreads, nspawned, palive, busy, busyLocked, 
                                  inbox, chanOpen, pfin, thrHeld, maxThreads, 
                                  jkind, jaw, fres, fwaker, gfired, gwaker, 
-                                 gthreads, dwSt, dwW, dblTaken, dblW1, dblW2, 
-                                 nextDW, ready, cwait, cnotif, cvHeld, sdres, 
-                                 jpanic, sfst, slotSt, qrSent, qrWaker, 
+                                 gthreads, gwhist, dwSt, dwW, dblTaken, dblW1, 
+                                 dblW2, nextDW, ready, cwait, cnotif, cvHeld, 
+                                 sdres, jpanic, sfst, slotSt, qrSent, qrWaker, 
                                  dnState, dnWaker, rv, rwb, rneed, dsl, atomic, 
                                  strong, ppClosed, ppNC, ppBP, ppDepth, 
                                  ppAlive, ppHeld, inItems, inClosed, inWaker, 
                                  pollFn, chuteFn, pwTaken, nextPoll, ppItem, h, 
                                  stack, dead, sti, rq, sq, sj, ww, rsq, bown, 
-                                 bwk, bi, bcur, bw, jq, jj, jwk, fj, dq, dj, 
-                                 oq, oop, omode, oj, yq, yop, tq, top, af, wf, 
-                                 wop, sf, sctx, xf, cop, kj, pp, np, nbp, nres, 
-                                 dp, pf, pctx, pq, pj, pd, nq >>
+                                 bwk, bi, bcur, bw, bsp, jq, jj, jwk, fj, dq, 
+                                 dj, oq, oop, omode, oj, yq, yop, tq, top, af, 
+                                 wf, wop, sf, sctx, xf, cop, kj, pp, np, nbp, 
+                                 nres, dp, pf, pctx, pq, pj, pd, nq >>
 
 pi_in(self) == /\ pc[self] = "pi_in"
                /\ IF inItems[pp[self]] # << >>
@@ -5367,18 +5484,18 @@ pi_in(self) == /\ pc[self] = "pi_in"
                                pthreads, nspawned, palive, busy, busyLocked, 
                                inbox, chanOpen, pfin, thrHeld, maxThreads, 
                                jkind, jaw, fres, fwaker, gfired, gwaker, 
-                               gthreads, dwSt, dwW, dblTaken, dblW1, dblW2, 
-                               nextDW, ready, cwait, cnotif, cvHeld, sdres, 
-                               jpanic, sfst, slotSt, qrSent, qrWaker, dnState, 
-                               dnWaker, parkTok, rv, rwb, rneed, dsl, atomic, 
-                               strong, ppPending, ppClosed, ppNotify, ppNC, 
-                               ppBP, ppDepth, ppAlive, ppHeld, inClosed, 
+                               gthreads, gwhist, dwSt, dwW, dblTaken, dblW1, 
+                               dblW2, nextDW, ready, cwait, cnotif, cvHeld, 
+                               sdres, jpanic, sfst, slotSt, qrSent, qrWaker, 
+                               dnState, dnWaker, parkTok, rv, rwb, rneed, dsl, 
+                               atomic, strong, ppPending, ppClosed, ppNotify, 
+                               ppNC, ppBP, ppDepth, ppAlive, ppHeld, inClosed, 
                                inWaker, pollFn, chuteFn, pwTaken, nextPoll, 
                                stack, dead, sti, rq, sq, sj, ww, rsq, bown, 
-                               bwk, bi, bcur, bw, jq, jj, jwk, fj, dq, dj, oq, 
-                               oop, omode, oj, yq, yop, tq, top, af, wf, wop, 
-                               sf, sctx, xf, cop, kj, pp, np, nbp, nres, dp, 
-                               pf, pctx, pq, pj, pd, nq >>
+                               bwk, bi, bcur, bw, bsp, jq, jj, jwk, fj, dq, dj, 
+                               oq, oop, omode, oj, yq, yop, tq, top, af, wf, 
+                               wop, sf, sctx, xf, cop, kj, pp, np, nbp, nres, 
+                               dp, pf, pctx, pq, pj, pd, nq >>
 
 pi_in2(self) == /\ pc[self] = "pi_in2"
                 /\ inWaker' = [inWaker EXCEPT ![pp[self]] = PW(kj[self])]
@@ -5402,18 +5519,18 @@ pi_in2(self) == /\ pc[self] = "pi_in2"
                                 pthreads, nspawned, palive, busy, busyLocked, 
                                 inbox, chanOpen, pfin, thrHeld, maxThreads, 
                                 jkind, jaw, fres, fwaker, gfired, gwaker, 
-                                gthreads, dwSt, dwW, dblTaken, dblW1, dblW2, 
-                                nextDW, ready, cwait, cnotif, cvHeld, sdres, 
-                                jpanic, sfst, slotSt, qrSent, qrWaker, dnState, 
-                                dnWaker, parkTok, rwb, rneed, dsl, atomic, 
-                                strong, ppPending, ppClosed, ppNotify, ppNC, 
-                                ppBP, ppDepth, ppAlive, ppHeld, inClosed, 
+                                gthreads, gwhist, dwSt, dwW, dblTaken, dblW1, 
+                                dblW2, nextDW, ready, cwait, cnotif, cvHeld, 
+                                sdres, jpanic, sfst, slotSt, qrSent, qrWaker, 
+                                dnState, dnWaker, parkTok, rwb, rneed, dsl, 
+                                atomic, strong, ppPending, ppClosed, ppNotify, 
+                                ppNC, ppBP, ppDepth, ppAlive, ppHeld, inClosed, 
                                 pollFn, chuteFn, pwTaken, nextPoll, dead, sti, 
                                 rq, sq, sj, ww, rsq, bown, bwk, bi, bcur, bw, 
-                                jq, jj, jwk, fj, dq, dj, oq, oop, omode, oj, 
-                                yq, yop, tq, top, af, wf, wop, sf, sctx, xf, 
-                                cop, np, nbp, nres, dp, pf, pctx, pq, pj, pd, 
-                                nq >>
+                                bsp, jq, jj, jwk, fj, dq, dj, oq, oop, omode, 
+                                oj, yq, yop, tq, top, af, wf, wop, sf, sctx, 
+                                xf, cop, np, nbp, nres, dp, pf, pctx, pq, pj, 
+                                pd, nq >>
 
 pp_dealloc(self) == /\ pc[self] = "pp_dealloc"
                     /\ IF pollFn[pp[self]]
@@ -5430,8 +5547,8 @@ pp_dealloc(self) == /\ pc[self] = "pp_dealloc"
                                     pthreads, nspawned, palive, busy, 
                                     busyLocked, inbox, chanOpen, pfin, thrHeld, 
                                     maxThreads, jkind, jaw, fres, fwaker, 
-                                    gfired, gwaker, gthreads, dwSt, dwW, 
-                                    dblTaken, dblW1, dblW2, nextDW, ready, 
+                                    gfired, gwaker, gthreads, gwhist, dwSt, 
+                                    dwW, dblTaken, dblW1, dblW2, nextDW, ready, 
                                     cwait, cnotif, cvHeld, sdres, jpanic, sfst, 
                                     slotSt, qrSent, qrWaker, dnState, dnWaker, 
                                     parkTok, rwb, rneed, dsl, atomic, strong, 
@@ -5439,11 +5556,11 @@ pp_dealloc(self) == /\ pc[self] = "pp_dealloc"
                                     ppDepth, ppAlive, ppHeld, inItems, 
                                     inClosed, inWaker, chuteFn, pwTaken, 
                                     nextPoll, ppItem, dead, sti, rq, sq, sj, 
-                                    ww, rsq, bown, bwk, bi, bcur, bw, jq, jj, 
-                                    jwk, fj, dq, dj, oq, oop, omode, oj, yq, 
-                                    yop, tq, top, af, wf, wop, sf, sctx, xf, 
-                                    cop, np, nbp, nres, dp, pf, pctx, pq, pj, 
-                                    pd, nq >>
+                                    ww, rsq, bown, bwk, bi, bcur, bw, bsp, jq, 
+                                    jj, jwk, fj, dq, dj, oq, oop, omode, oj, 
+                                    yq, yop, tq, top, af, wf, wop, sf, sctx, 
+                                    xf, cop, np, nbp, nres, dp, pf, pctx, pq, 
+                                    pj, pd, nq >>
 
 PipePoll(self) == pp_fn(self) \/ pp_bp(self) \/ pp_clear(self)
                      \/ pp_in(self) \/ pp_in2(self) \/ pp_reg(self)
@@ -5480,18 +5597,18 @@ cn_poll(self) == /\ pc[self] = "cn_poll"
                                  pthreads, nspawned, palive, busy, busyLocked, 
                                  inbox, chanOpen, pfin, thrHeld, maxThreads, 
                                  jkind, jaw, fres, fwaker, gfired, gwaker, 
-                                 gthreads, dwSt, dwW, dblTaken, dblW1, dblW2, 
-                                 nextDW, ready, cwait, cnotif, cvHeld, sdres, 
-                                 jpanic, sfst, slotSt, qrSent, qrWaker, 
+                                 gthreads, gwhist, dwSt, dwW, dblTaken, dblW1, 
+                                 dblW2, nextDW, ready, cwait, cnotif, cvHeld, 
+                                 sdres, jpanic, sfst, slotSt, qrSent, qrWaker, 
                                  dnState, dnWaker, parkTok, rwb, rneed, dsl, 
                                  atomic, strong, ppClosed, ppNC, ppDepth, 
                                  ppAlive, ppHeld, inItems, inClosed, inWaker, 
                                  pollFn, chuteFn, pwTaken, nextPoll, ppItem, h, 
                                  dead, sti, rq, sq, sj, rsq, bown, bwk, bi, 
-                                 bcur, bw, jq, jj, jwk, fj, dq, dj, oq, oop, 
-                                 omode, oj, yq, yop, tq, top, af, wf, wop, sf, 
-                                 sctx, xf, cop, kj, pp, np, dp, pf, pctx, pq, 
-                                 pj, pd, nq >>
+                                 bcur, bw, bsp, jq, jj, jwk, fj, dq, dj, oq, 
+                                 oop, omode, oj, yq, yop, tq, top, af, wf, wop, 
+                                 sf, sctx, xf, cop, kj, pp, np, dp, pf, pctx, 
+                                 pq, pj, pd, nq >>
 
 z_cn_after(self) == /\ pc[self] = "z_cn_after"
                     /\ IF rv[self] = 5
@@ -5507,8 +5624,8 @@ z_cn_after(self) == /\ pc[self] = "z_cn_after"
                                     pthreads, nspawned, palive, busy, 
                                     busyLocked, inbox, chanOpen, pfin, thrHeld, 
                                     maxThreads, jkind, jaw, fres, fwaker, 
-                                    gfired, gwaker, gthreads, dwSt, dwW, 
-                                    dblTaken, dblW1, dblW2, nextDW, ready, 
+                                    gfired, gwaker, gthreads, gwhist, dwSt, 
+                                    dwW, dblTaken, dblW1, dblW2, nextDW, ready, 
                                     cwait, cnotif, cvHeld, sdres, jpanic, sfst, 
                                     slotSt, qrSent, qrWaker, dnState, dnWaker, 
                                     parkTok, rv, rwb, rneed, dsl, atomic, 
@@ -5517,10 +5634,10 @@ z_cn_after(self) == /\ pc[self] = "z_cn_after"
                                     inItems, inClosed, inWaker, pollFn, 
                                     chuteFn, pwTaken, nextPoll, ppItem, dead, 
                                     sti, rq, sq, sj, ww, rsq, bown, bwk, bi, 
-                                    bcur, bw, jq, jj, jwk, fj, dq, dj, oq, oop, 
-                                    omode, oj, yq, yop, tq, top, af, wf, wop, 
-                                    sf, sctx, xf, cop, kj, pp, dp, pf, pctx, 
-                                    pq, pj, pd, nq >>
+                                    bcur, bw, bsp, jq, jj, jwk, fj, dq, dj, oq, 
+                                    oop, omode, oj, yq, yop, tq, top, af, wf, 
+                                    wop, sf, sctx, xf, cop, kj, pp, dp, pf, 
+                                    pctx, pq, pj, pd, nq >>
 
 cn_park(self) == /\ pc[self] = "cn_park"
                  /\ parkTok[self]
@@ -5530,19 +5647,19 @@ cn_park(self) == /\ pc[self] = "cn_park"
                                  pthreads, nspawned, palive, busy, busyLocked, 
                                  inbox, chanOpen, pfin, thrHeld, maxThreads, 
                                  jkind, jaw, fres, fwaker, gfired, gwaker, 
-                                 gthreads, dwSt, dwW, dblTaken, dblW1, dblW2, 
-                                 nextDW, ready, cwait, cnotif, cvHeld, sdres, 
-                                 jpanic, sfst, slotSt, qrSent, qrWaker, 
+                                 gthreads, gwhist, dwSt, dwW, dblTaken, dblW1, 
+                                 dblW2, nextDW, ready, cwait, cnotif, cvHeld, 
+                                 sdres, jpanic, sfst, slotSt, qrSent, qrWaker, 
                                  dnState, dnWaker, rv, rwb, rneed, dsl, atomic, 
                                  strong, ppPending, ppClosed, ppNotify, ppNC, 
                                  ppBP, ppDepth, ppAlive, ppHeld, inItems, 
                                  inClosed, inWaker, pollFn, chuteFn, pwTaken, 
                                  nextPoll, ppItem, h, stack, dead, sti, rq, sq, 
-                                 sj, ww, rsq, bown, bwk, bi, bcur, bw, jq, jj, 
-                                 jwk, fj, dq, dj, oq, oop, omode, oj, yq, yop, 
-                                 tq, top, af, wf, wop, sf, sctx, xf, cop, kj, 
-                                 pp, np, nbp, nres, dp, pf, pctx, pq, pj, pd, 
-                                 nq >>
+                                 sj, ww, rsq, bown, bwk, bi, bcur, bw, bsp, jq, 
+                                 jj, jwk, fj, dq, dj, oq, oop, omode, oj, yq, 
+                                 yop, tq, top, af, wf, wop, sf, sctx, xf, cop, 
+                                 kj, pp, np, nbp, nres, dp, pf, pctx, pq, pj, 
+                                 pd, nq >>
 
 PipeNext(self) == cn_poll(self) \/ z_cn_after(self) \/ cn_park(self)
 
@@ -5563,18 +5680,18 @@ ps_drop(self) == /\ pc[self] = "ps_drop"
                                  pthreads, nspawned, palive, busy, busyLocked, 
                                  inbox, chanOpen, pfin, thrHeld, maxThreads, 
                                  jkind, jaw, fres, fwaker, gfired, gwaker, 
-                                 gthreads, dwSt, dwW, dblTaken, dblW1, dblW2, 
-                                 nextDW, ready, cwait, cnotif, cvHeld, sdres, 
-                                 jpanic, sfst, slotSt, qrSent, qrWaker, 
+                                 gthreads, gwhist, dwSt, dwW, dblTaken, dblW1, 
+                                 dblW2, nextDW, ready, cwait, cnotif, cvHeld, 
+                                 sdres, jpanic, sfst, slotSt, qrSent, qrWaker, 
                                  dnState, dnWaker, parkTok, rv, rwb, rneed, 
                                  dsl, strong, ppNotify, ppNC, ppBP, ppDepth, 
                                  ppAlive, ppHeld, inItems, inClosed, inWaker, 
                                  pollFn, chuteFn, pwTaken, nextPoll, ppItem, h, 
                                  dead, sti, rq, sq, sj, rsq, bown, bwk, bi, 
-                                 bcur, bw, jq, jj, jwk, fj, dq, dj, oq, oop, 
-                                 omode, oj, yq, yop, tq, top, af, wf, wop, sf, 
-                                 sctx, xf, cop, kj, pp, np, nbp, nres, dp, pf, 
-                                 pctx, pq, pj, pd, nq >>
+                                 bcur, bw, bsp, jq, jj, jwk, fj, dq, dj, oq, 
+                                 oop, omode, oj, yq, yop, tq, top, af, wf, wop, 
+                                 sf, sctx, xf, cop, kj, pp, np, nbp, nres, dp, 
+                                 pf, pctx, pq, pj, pd, nq >>
 
 z_ps2(self) == /\ pc[self] = "z_ps2"
                /\ ppNC' = [ppNC EXCEPT ![dp[self]] = NoW]
@@ -5590,19 +5707,19 @@ z_ps2(self) == /\ pc[self] = "z_ps2"
                /\ UNCHANGED << qstate, qpoll, jobs, wakeBlocked, schedule, 
                                pthreads, nspawned, palive, busy, busyLocked, 
                                inbox, chanOpen, pfin, thrHeld, maxThreads, jaw, 
-                               fres, fwaker, gfired, gwaker, gthreads, dwSt, 
-                               dwW, dblTaken, dblW1, dblW2, nextDW, ready, 
-                               cwait, cnotif, cvHeld, sdres, jpanic, sfst, 
-                               slotSt, qrSent, qrWaker, dnState, dnWaker, 
+                               fres, fwaker, gfired, gwaker, gthreads, gwhist, 
+                               dwSt, dwW, dblTaken, dblW1, dblW2, nextDW, 
+                               ready, cwait, cnotif, cvHeld, sdres, jpanic, 
+                               sfst, slotSt, qrSent, qrWaker, dnState, dnWaker, 
                                parkTok, rv, rwb, rneed, dsl, atomic, strong, 
                                ppPending, ppClosed, ppNotify, ppBP, ppDepth, 
                                ppAlive, ppHeld, inItems, inClosed, inWaker, 
                                pollFn, chuteFn, pwTaken, nextPoll, ppItem, h, 
                                dead, sti, rq, ww, rsq, bown, bwk, bi, bcur, bw, 
-                               jq, jj, jwk, fj, dq, dj, oq, oop, omode, oj, yq, 
-                               yop, tq, top, af, wf, wop, sf, sctx, xf, cop, 
-                               kj, pp, np, nbp, nres, dp, pf, pctx, pq, pj, pd, 
-                               nq >>
+                               bsp, jq, jj, jwk, fj, dq, dj, oq, oop, omode, 
+                               oj, yq, yop, tq, top, af, wf, wop, sf, sctx, xf, 
+                               cop, kj, pp, np, nbp, nres, dp, pf, pctx, pq, 
+                               pj, pd, nq >>
 
 z_ps3(self) == /\ pc[self] = "z_ps3"
                /\ atomic' = [atomic EXCEPT ![self] = FALSE]
@@ -5613,18 +5730,18 @@ z_ps3(self) == /\ pc[self] = "z_ps3"
                                pthreads, nspawned, palive, busy, busyLocked, 
                                inbox, chanOpen, pfin, thrHeld, maxThreads, 
                                jkind, jaw, fres, fwaker, gfired, gwaker, 
-                               gthreads, dwSt, dwW, dblTaken, dblW1, dblW2, 
-                               nextDW, ready, cwait, cnotif, cvHeld, sdres, 
-                               jpanic, sfst, slotSt, qrSent, qrWaker, dnState, 
-                               dnWaker, parkTok, rwb, rneed, dsl, strong, 
-                               ppPending, ppClosed, ppNotify, ppNC, ppBP, 
-                               ppDepth, ppHeld, inItems, inClosed, inWaker, 
-                               pollFn, chuteFn, pwTaken, nextPoll, ppItem, h, 
-                               stack, dead, sti, rq, sq, sj, ww, rsq, bown, 
-                               bwk, bi, bcur, bw, jq, jj, jwk, fj, dq, dj, oq, 
-                               oop, omode, oj, yq, yop, tq, top, af, wf, wop, 
-                               sf, sctx, xf, cop, kj, pp, np, nbp, nres, dp, 
-                               pf, pctx, pq, pj, pd, nq >>
+                               gthreads, gwhist, dwSt, dwW, dblTaken, dblW1, 
+                               dblW2, nextDW, ready, cwait, cnotif, cvHeld, 
+                               sdres, jpanic, sfst, slotSt, qrSent, qrWaker, 
+                               dnState, dnWaker, parkTok, rwb, rneed, dsl, 
+                               strong, ppPending, ppClosed, ppNotify, ppNC, 
+                               ppBP, ppDepth, ppHeld, inItems, inClosed, 
+                               inWaker, pollFn, chuteFn, pwTaken, nextPoll, 
+                               ppItem, h, stack, dead, sti, rq, sq, sj, ww, 
+                               rsq, bown, bwk, bi, bcur, bw, bsp, jq, jj, jwk, 
+                               fj, dq, dj, oq, oop, omode, oj, yq, yop, tq, 
+                               top, af, wf, wop, sf, sctx, xf, cop, kj, pp, np, 
+                               nbp, nres, dp, pf, pctx, pq, pj, pd, nq >>
 
 z_ps_gc(self) == /\ pc[self] = "z_ps_gc"
                  /\ IF pollFn[dp[self]] /\ ~CtxAlive(dp[self])
@@ -5639,18 +5756,19 @@ z_ps_gc(self) == /\ pc[self] = "z_ps_gc"
                                  pthreads, nspawned, palive, busy, busyLocked, 
                                  inbox, chanOpen, pfin, thrHeld, maxThreads, 
                                  jkind, jaw, fres, fwaker, gfired, gwaker, 
-                                 gthreads, dwSt, dwW, dblTaken, dblW1, dblW2, 
-                                 nextDW, ready, cwait, cnotif, cvHeld, sdres, 
-                                 jpanic, sfst, slotSt, qrSent, qrWaker, 
+                                 gthreads, gwhist, dwSt, dwW, dblTaken, dblW1, 
+                                 dblW2, nextDW, ready, cwait, cnotif, cvHeld, 
+                                 sdres, jpanic, sfst, slotSt, qrSent, qrWaker, 
                                  dnState, dnWaker, parkTok, rv, rwb, rneed, 
                                  dsl, atomic, strong, ppPending, ppClosed, 
                                  ppNotify, ppNC, ppBP, ppDepth, ppAlive, 
                                  ppHeld, inItems, inClosed, inWaker, chuteFn, 
                                  pwTaken, nextPoll, ppItem, dead, sti, rq, sq, 
-                                 sj, ww, rsq, bown, bwk, bi, bcur, bw, jq, jj, 
-                                 jwk, fj, dq, dj, oq, oop, omode, oj, yq, yop, 
-                                 tq, top, af, wf, wop, sf, sctx, xf, cop, kj, 
-                                 pp, np, nbp, nres, pf, pctx, pq, pj, pd, nq >>
+                                 sj, ww, rsq, bown, bwk, bi, bcur, bw, bsp, jq, 
+                                 jj, jwk, fj, dq, dj, oq, oop, omode, oj, yq, 
+                                 yop, tq, top, af, wf, wop, sf, sctx, xf, cop, 
+                                 kj, pp, np, nbp, nres, pf, pctx, pq, pj, pd, 
+                                 nq >>
 
 PipeDrop(self) == ps_drop(self) \/ z_ps2(self) \/ z_ps3(self)
                      \/ z_ps_gc(self)
@@ -5662,19 +5780,19 @@ ds_max(self) == /\ pc[self] = "ds_max"
                                 pthreads, nspawned, palive, busy, busyLocked, 
                                 inbox, chanOpen, pfin, thrHeld, maxThreads, 
                                 jkind, jaw, fres, fwaker, gfired, gwaker, 
-                                gthreads, dwSt, dwW, dblTaken, dblW1, dblW2, 
-                                nextDW, ready, cwait, cnotif, cvHeld, sdres, 
-                                jpanic, sfst, slotSt, qrSent, qrWaker, dnState, 
-                                dnWaker, parkTok, rv, rwb, rneed, dsl, atomic, 
-                                strong, ppPending, ppClosed, ppNotify, ppNC, 
-                                ppBP, ppDepth, ppAlive, ppHeld, inItems, 
+                                gthreads, gwhist, dwSt, dwW, dblTaken, dblW1, 
+                                dblW2, nextDW, ready, cwait, cnotif, cvHeld, 
+                                sdres, jpanic, sfst, slotSt, qrSent, qrWaker, 
+                                dnState, dnWaker, parkTok, rv, rwb, rneed, dsl, 
+                                atomic, strong, ppPending, ppClosed, ppNotify, 
+                                ppNC, ppBP, ppDepth, ppAlive, ppHeld, inItems, 
                                 inClosed, inWaker, pollFn, chuteFn, pwTaken, 
                                 nextPoll, ppItem, h, stack, dead, sti, rq, sq, 
-                                sj, ww, rsq, bown, bwk, bi, bcur, bw, jq, jj, 
-                                jwk, fj, dq, dj, oq, oop, omode, oj, yq, yop, 
-                                tq, top, af, wf, wop, sf, sctx, xf, cop, kj, 
-                                pp, np, nbp, nres, dp, pf, pctx, pq, pj, pd, 
-                                nq >>
+                                sj, ww, rsq, bown, bwk, bi, bcur, bw, bsp, jq, 
+                                jj, jwk, fj, dq, dj, oq, oop, omode, oj, yq, 
+                                yop, tq, top, af, wf, wop, sf, sctx, xf, cop, 
+                                kj, pp, np, nbp, nres, dp, pf, pctx, pq, pj, 
+                                pd, nq >>
 
 ds_pop(self) == /\ pc[self] = "ds_pop"
                 /\ thrHeld = ""
@@ -5690,19 +5808,19 @@ ds_pop(self) == /\ pc[self] = "ds_pop"
                 /\ UNCHANGED << qstate, qpoll, jobs, wakeBlocked, schedule, 
                                 nspawned, palive, busy, busyLocked, inbox, 
                                 pfin, thrHeld, maxThreads, jkind, jaw, fres, 
-                                fwaker, gfired, gwaker, gthreads, dwSt, dwW, 
-                                dblTaken, dblW1, dblW2, nextDW, ready, cwait, 
-                                cnotif, cvHeld, sdres, jpanic, sfst, slotSt, 
-                                qrSent, qrWaker, dnState, dnWaker, parkTok, 
-                                rwb, rneed, atomic, strong, ppPending, 
+                                fwaker, gfired, gwaker, gthreads, gwhist, dwSt, 
+                                dwW, dblTaken, dblW1, dblW2, nextDW, ready, 
+                                cwait, cnotif, cvHeld, sdres, jpanic, sfst, 
+                                slotSt, qrSent, qrWaker, dnState, dnWaker, 
+                                parkTok, rwb, rneed, atomic, strong, ppPending, 
                                 ppClosed, ppNotify, ppNC, ppBP, ppDepth, 
                                 ppAlive, ppHeld, inItems, inClosed, inWaker, 
                                 pollFn, chuteFn, pwTaken, nextPoll, ppItem, h, 
                                 dead, sti, rq, sq, sj, ww, rsq, bown, bwk, bi, 
-                                bcur, bw, jq, jj, jwk, fj, dq, dj, oq, oop, 
-                                omode, oj, yq, yop, tq, top, af, wf, wop, sf, 
-                                sctx, xf, cop, kj, pp, np, nbp, nres, dp, pf, 
-                                pctx, pq, pj, pd, nq >>
+                                bcur, bw, bsp, jq, jj, jwk, fj, dq, dj, oq, 
+                                oop, omode, oj, yq, yop, tq, top, af, wf, wop, 
+                                sf, sctx, xf, cop, kj, pp, np, nbp, nres, dp, 
+                                pf, pctx, pq, pj, pd, nq >>
 
 ds_join(self) == /\ pc[self] = "ds_join"
                  /\ pfin[Head(dsl[self])]
@@ -5718,18 +5836,19 @@ ds_join(self) == /\ pc[self] = "ds_join"
                                  pthreads, nspawned, palive, busy, busyLocked, 
                                  inbox, chanOpen, pfin, thrHeld, maxThreads, 
                                  jkind, jaw, fres, fwaker, gfired, gwaker, 
-                                 gthreads, dwSt, dwW, dblTaken, dblW1, dblW2, 
-                                 nextDW, ready, cwait, cnotif, cvHeld, sdres, 
-                                 jpanic, sfst, slotSt, qrSent, qrWaker, 
+                                 gthreads, gwhist, dwSt, dwW, dblTaken, dblW1, 
+                                 dblW2, nextDW, ready, cwait, cnotif, cvHeld, 
+                                 sdres, jpanic, sfst, slotSt, qrSent, qrWaker, 
                                  dnState, dnWaker, parkTok, rwb, rneed, atomic, 
                                  strong, ppPending, ppClosed, ppNotify, ppNC, 
                                  ppBP, ppDepth, ppAlive, ppHeld, inItems, 
                                  inClosed, inWaker, pollFn, chuteFn, pwTaken, 
                                  nextPoll, ppItem, dead, sti, rq, sq, sj, ww, 
-                                 rsq, bown, bwk, bi, bcur, bw, jq, jj, jwk, fj, 
-                                 dq, dj, oq, oop, omode, oj, yq, yop, tq, top, 
-                                 af, wf, wop, sf, sctx, xf, cop, kj, pp, np, 
-                                 nbp, nres, dp, pf, pctx, pq, pj, pd, nq >>
+                                 rsq, bown, bwk, bi, bcur, bw, bsp, jq, jj, 
+                                 jwk, fj, dq, dj, oq, oop, omode, oj, yq, yop, 
+                                 tq, top, af, wf, wop, sf, sctx, xf, cop, kj, 
+                                 pp, np, nbp, nres, dp, pf, pctx, pq, pj, pd, 
+                                 nq >>
 
 Despawn(self) == ds_max(self) \/ ds_pop(self) \/ ds_join(self)
 
@@ -5796,8 +5915,8 @@ pf_decide(self) == /\ pc[self] = "pf_decide"
                    /\ UNCHANGED << jobs, wakeBlocked, schedule, pthreads, 
                                    nspawned, palive, busy, busyLocked, inbox, 
                                    chanOpen, pfin, thrHeld, maxThreads, jkind, 
-                                   jaw, gfired, gwaker, gthreads, dwSt, dwW, 
-                                   dblTaken, dblW1, dblW2, nextDW, ready, 
+                                   jaw, gfired, gwaker, gthreads, gwhist, dwSt, 
+                                   dwW, dblTaken, dblW1, dblW2, nextDW, ready, 
                                    cwait, cnotif, cvHeld, sdres, jpanic, sfst, 
                                    slotSt, qrSent, qrWaker, dnState, dnWaker, 
                                    parkTok, rwb, rneed, dsl, atomic, strong, 
@@ -5805,8 +5924,8 @@ pf_decide(self) == /\ pc[self] = "pf_decide"
                                    ppDepth, ppAlive, ppHeld, inItems, inClosed, 
                                    inWaker, pollFn, chuteFn, pwTaken, nextPoll, 
                                    ppItem, h, dead, sti, rq, sq, sj, ww, rsq, 
-                                   bown, bwk, bi, bcur, bw, jq, jj, jwk, fj, 
-                                   dq, dj, oq, oop, omode, oj, yq, yop, tq, 
+                                   bown, bwk, bi, bcur, bw, bsp, jq, jj, jwk, 
+                                   fj, dq, dj, oq, oop, omode, oj, yq, yop, tq, 
                                    top, af, wf, wop, sf, sctx, xf, cop, kj, pp, 
                                    np, nbp, nres, dp, nq >>
 
@@ -5825,19 +5944,19 @@ dq_res(self) == /\ pc[self] = "dq_res"
                                 pthreads, nspawned, palive, busy, busyLocked, 
                                 inbox, chanOpen, pfin, thrHeld, maxThreads, 
                                 jkind, jaw, fwaker, gfired, gwaker, gthreads, 
-                                dwSt, dwW, dblTaken, dblW1, dblW2, nextDW, 
-                                ready, cwait, cnotif, cvHeld, sdres, jpanic, 
-                                sfst, slotSt, qrSent, qrWaker, dnState, 
+                                gwhist, dwSt, dwW, dblTaken, dblW1, dblW2, 
+                                nextDW, ready, cwait, cnotif, cvHeld, sdres, 
+                                jpanic, sfst, slotSt, qrSent, qrWaker, dnState, 
                                 dnWaker, parkTok, rwb, rneed, dsl, atomic, 
                                 strong, ppPending, ppClosed, ppNotify, ppNC, 
                                 ppBP, ppDepth, ppAlive, ppHeld, inItems, 
                                 inClosed, inWaker, pollFn, chuteFn, pwTaken, 
                                 nextPoll, ppItem, h, stack, dead, sti, rq, sq, 
-                                sj, ww, rsq, bown, bwk, bi, bcur, bw, jq, jj, 
-                                jwk, fj, dq, dj, oq, oop, omode, oj, yq, yop, 
-                                tq, top, af, wf, wop, sf, sctx, xf, cop, kj, 
-                                pp, np, nbp, nres, dp, pf, pctx, pq, pj, pd, 
-                                nq >>
+                                sj, ww, rsq, bown, bwk, bi, bcur, bw, bsp, jq, 
+                                jj, jwk, fj, dq, dj, oq, oop, omode, oj, yq, 
+                                yop, tq, top, af, wf, wop, sf, sctx, xf, cop, 
+                                kj, pp, np, nbp, nres, dp, pf, pctx, pq, pj, 
+                                pd, nq >>
 
 dq_deq(self) == /\ pc[self] = "dq_deq"
                 /\ IF qstate[pq[self]] \in Waiting \/ jobs[pq[self]] = << >>
@@ -5862,18 +5981,18 @@ dq_deq(self) == /\ pc[self] = "dq_deq"
                                 nspawned, palive, busy, busyLocked, inbox, 
                                 chanOpen, pfin, thrHeld, maxThreads, jkind, 
                                 jaw, fres, fwaker, gfired, gwaker, gthreads, 
-                                dwSt, dwW, dblTaken, dblW1, dblW2, ready, 
-                                cwait, cnotif, cvHeld, sdres, jpanic, sfst, 
-                                slotSt, qrSent, qrWaker, dnState, dnWaker, 
-                                parkTok, rv, rwb, rneed, dsl, atomic, strong, 
-                                ppPending, ppClosed, ppNotify, ppNC, ppBP, 
-                                ppDepth, ppAlive, ppHeld, inItems, inClosed, 
-                                inWaker, pollFn, chuteFn, pwTaken, nextPoll, 
-                                ppItem, h, dead, sti, rq, sq, sj, ww, rsq, 
-                                bown, bwk, bi, bcur, bw, fj, dq, dj, oq, oop, 
-                                omode, oj, yq, yop, tq, top, af, wf, wop, sf, 
-                                sctx, xf, cop, kj, pp, np, nbp, nres, dp, pf, 
-                                pctx, pq, nq >>
+                                gwhist, dwSt, dwW, dblTaken, dblW1, dblW2, 
+                                ready, cwait, cnotif, cvHeld, sdres, jpanic, 
+                                sfst, slotSt, qrSent, qrWaker, dnState, 
+                                dnWaker, parkTok, rv, rwb, rneed, dsl, atomic, 
+                                strong, ppPending, ppClosed, ppNotify, ppNC, 
+                                ppBP, ppDepth, ppAlive, ppHeld, inItems, 
+                                inClosed, inWaker, pollFn, chuteFn, pwTaken, 
+                                nextPoll, ppItem, h, dead, sti, rq, sq, sj, ww, 
+                                rsq, bown, bwk, bi, bcur, bw, bsp, fj, dq, dj, 
+                                oq, oop, omode, oj, yq, yop, tq, top, af, wf, 
+                                wop, sf, sctx, xf, cop, kj, pp, np, nbp, nres, 
+                                dp, pf, pctx, pq, nq >>
 
 z_dq_after(self) == /\ pc[self] = "z_dq_after"
                     /\ IF rv[self] = 5
@@ -5902,8 +6021,8 @@ z_dq_after(self) == /\ pc[self] = "z_dq_after"
                                     pthreads, nspawned, palive, busy, 
                                     busyLocked, inbox, chanOpen, pfin, thrHeld, 
                                     maxThreads, jkind, jaw, fres, fwaker, 
-                                    gfired, gwaker, gthreads, dwSt, dwW, 
-                                    dblTaken, dblW1, dblW2, nextDW, ready, 
+                                    gfired, gwaker, gthreads, gwhist, dwSt, 
+                                    dwW, dblTaken, dblW1, dblW2, nextDW, ready, 
                                     cwait, cnotif, cvHeld, sdres, jpanic, sfst, 
                                     slotSt, qrSent, qrWaker, dnState, dnWaker, 
                                     parkTok, rv, rwb, rneed, dsl, atomic, 
@@ -5912,10 +6031,10 @@ z_dq_after(self) == /\ pc[self] = "z_dq_after"
                                     inItems, inClosed, inWaker, pollFn, 
                                     chuteFn, pwTaken, nextPoll, ppItem, h, 
                                     dead, sti, rq, sq, sj, ww, rsq, bown, bwk, 
-                                    bi, bcur, bw, jq, jj, jwk, dq, dj, oq, oop, 
-                                    omode, oj, yq, yop, tq, top, af, wf, wop, 
-                                    sf, sctx, xf, cop, kj, pp, np, nbp, nres, 
-                                    dp, pf, pctx, pq, pj, pd, nq >>
+                                    bi, bcur, bw, bsp, jq, jj, jwk, dq, dj, oq, 
+                                    oop, omode, oj, yq, yop, tq, top, af, wf, 
+                                    wop, sf, sctx, xf, cop, kj, pp, np, nbp, 
+                                    nres, dp, pf, pctx, pq, pj, pd, nq >>
 
 dq_requeue(self) == /\ pc[self] = "dq_requeue"
                     /\ jobs' = [jobs EXCEPT ![pq[self]] = << pj[self] >> \o jobs[pq[self]]]
@@ -5924,8 +6043,8 @@ dq_requeue(self) == /\ pc[self] = "dq_requeue"
                                     pthreads, nspawned, palive, busy, 
                                     busyLocked, inbox, chanOpen, pfin, thrHeld, 
                                     maxThreads, jkind, jaw, fres, fwaker, 
-                                    gfired, gwaker, gthreads, dwSt, dwW, 
-                                    dblTaken, dblW1, dblW2, nextDW, ready, 
+                                    gfired, gwaker, gthreads, gwhist, dwSt, 
+                                    dwW, dblTaken, dblW1, dblW2, nextDW, ready, 
                                     cwait, cnotif, cvHeld, sdres, jpanic, sfst, 
                                     slotSt, qrSent, qrWaker, dnState, dnWaker, 
                                     parkTok, rv, rwb, rneed, dsl, atomic, 
@@ -5934,11 +6053,11 @@ dq_requeue(self) == /\ pc[self] = "dq_requeue"
                                     inItems, inClosed, inWaker, pollFn, 
                                     chuteFn, pwTaken, nextPoll, ppItem, h, 
                                     stack, dead, sti, rq, sq, sj, ww, rsq, 
-                                    bown, bwk, bi, bcur, bw, jq, jj, jwk, fj, 
-                                    dq, dj, oq, oop, omode, oj, yq, yop, tq, 
-                                    top, af, wf, wop, sf, sctx, xf, cop, kj, 
-                                    pp, np, nbp, nres, dp, pf, pctx, pq, pj, 
-                                    pd, nq >>
+                                    bown, bwk, bi, bcur, bw, bsp, jq, jj, jwk, 
+                                    fj, dq, dj, oq, oop, omode, oj, yq, yop, 
+                                    tq, top, af, wf, wop, sf, sctx, xf, cop, 
+                                    kj, pp, np, nbp, nres, dp, pf, pctx, pq, 
+                                    pj, pd, nq >>
 
 dq_res2(self) == /\ pc[self] = "dq_res2"
                  /\ IF fres[pf[self]] = "some"
@@ -5955,19 +6074,19 @@ dq_res2(self) == /\ pc[self] = "dq_res2"
                                  pthreads, nspawned, palive, busy, busyLocked, 
                                  inbox, chanOpen, pfin, thrHeld, maxThreads, 
                                  jkind, jaw, fwaker, gfired, gwaker, gthreads, 
-                                 dwSt, dwW, dblTaken, dblW1, dblW2, nextDW, 
-                                 ready, cwait, cnotif, cvHeld, sdres, jpanic, 
-                                 sfst, slotSt, qrSent, qrWaker, dnState, 
-                                 dnWaker, parkTok, rwb, rneed, dsl, atomic, 
-                                 strong, ppPending, ppClosed, ppNotify, ppNC, 
-                                 ppBP, ppDepth, ppAlive, ppHeld, inItems, 
+                                 gwhist, dwSt, dwW, dblTaken, dblW1, dblW2, 
+                                 nextDW, ready, cwait, cnotif, cvHeld, sdres, 
+                                 jpanic, sfst, slotSt, qrSent, qrWaker, 
+                                 dnState, dnWaker, parkTok, rwb, rneed, dsl, 
+                                 atomic, strong, ppPending, ppClosed, ppNotify, 
+                                 ppNC, ppBP, ppDepth, ppAlive, ppHeld, inItems, 
                                  inClosed, inWaker, pollFn, chuteFn, pwTaken, 
                                  nextPoll, ppItem, h, stack, dead, sti, rq, sq, 
-                                 sj, ww, rsq, bown, bwk, bi, bcur, bw, jq, jj, 
-                                 jwk, fj, dq, dj, oq, oop, omode, oj, yq, yop, 
-                                 tq, top, af, wf, wop, sf, sctx, xf, cop, kj, 
-                                 pp, np, nbp, nres, dp, pf, pctx, pq, pj, pd, 
-                                 nq >>
+                                 sj, ww, rsq, bown, bwk, bi, bcur, bw, bsp, jq, 
+                                 jj, jwk, fj, dq, dj, oq, oop, omode, oj, yq, 
+                                 yop, tq, top, af, wf, wop, sf, sctx, xf, cop, 
+                                 kj, pp, np, nbp, nres, dp, pf, pctx, pq, pj, 
+                                 pd, nq >>
 
 dq_waitwake(self) == /\ pc[self] = "dq_waitwake"
                      /\ qstate' = [qstate EXCEPT ![pq[self]] = "WaitingForWake"]
@@ -5976,8 +6095,8 @@ dq_waitwake(self) == /\ pc[self] = "dq_waitwake"
                                      pthreads, nspawned, palive, busy, 
                                      busyLocked, inbox, chanOpen, pfin, 
                                      thrHeld, maxThreads, jkind, jaw, fres, 
-                                     fwaker, gfired, gwaker, gthreads, dwSt, 
-                                     dwW, dblTaken, dblW1, dblW2, nextDW, 
+                                     fwaker, gfired, gwaker, gthreads, gwhist, 
+                                     dwSt, dwW, dblTaken, dblW1, dblW2, nextDW, 
                                      ready, cwait, cnotif, cvHeld, sdres, 
                                      jpanic, sfst, slotSt, qrSent, qrWaker, 
                                      dnState, dnWaker, parkTok, rv, rwb, rneed, 
@@ -5986,11 +6105,11 @@ dq_waitwake(self) == /\ pc[self] = "dq_waitwake"
                                      ppHeld, inItems, inClosed, inWaker, 
                                      pollFn, chuteFn, pwTaken, nextPoll, 
                                      ppItem, h, stack, dead, sti, rq, sq, sj, 
-                                     ww, rsq, bown, bwk, bi, bcur, bw, jq, jj, 
-                                     jwk, fj, dq, dj, oq, oop, omode, oj, yq, 
-                                     yop, tq, top, af, wf, wop, sf, sctx, xf, 
-                                     cop, kj, pp, np, nbp, nres, dp, pf, pctx, 
-                                     pq, pj, pd, nq >>
+                                     ww, rsq, bown, bwk, bi, bcur, bw, bsp, jq, 
+                                     jj, jwk, fj, dq, dj, oq, oop, omode, oj, 
+                                     yq, yop, tq, top, af, wf, wop, sf, sctx, 
+                                     xf, cop, kj, pp, np, nbp, nres, dp, pf, 
+                                     pctx, pq, pj, pd, nq >>
 
 dq_ww1(self) == /\ pc[self] = "dq_ww1"
                 /\ IF dwSt[pd[self]] = "Woken"
@@ -6009,18 +6128,18 @@ dq_ww1(self) == /\ pc[self] = "dq_ww1"
                                 pthreads, nspawned, palive, busy, busyLocked, 
                                 inbox, chanOpen, pfin, thrHeld, maxThreads, 
                                 jkind, jaw, fres, fwaker, gfired, gwaker, 
-                                gthreads, dblTaken, dblW1, dblW2, nextDW, 
-                                ready, cwait, cnotif, cvHeld, sdres, jpanic, 
-                                sfst, slotSt, qrSent, qrWaker, dnState, 
+                                gthreads, gwhist, dblTaken, dblW1, dblW2, 
+                                nextDW, ready, cwait, cnotif, cvHeld, sdres, 
+                                jpanic, sfst, slotSt, qrSent, qrWaker, dnState, 
                                 dnWaker, parkTok, rv, rwb, rneed, dsl, atomic, 
                                 strong, ppPending, ppClosed, ppNotify, ppNC, 
                                 ppBP, ppDepth, ppAlive, ppHeld, inItems, 
                                 inClosed, inWaker, pollFn, chuteFn, pwTaken, 
                                 nextPoll, ppItem, h, dead, sti, rq, sq, sj, 
-                                rsq, bown, bwk, bi, bcur, bw, jq, jj, jwk, fj, 
-                                dq, dj, oq, oop, omode, oj, yq, yop, tq, top, 
-                                af, wf, wop, sf, sctx, xf, cop, kj, pp, np, 
-                                nbp, nres, dp, pf, pctx, pq, pj, pd, nq >>
+                                rsq, bown, bwk, bi, bcur, bw, bsp, jq, jj, jwk, 
+                                fj, dq, dj, oq, oop, omode, oj, yq, yop, tq, 
+                                top, af, wf, wop, sf, sctx, xf, cop, kj, pp, 
+                                np, nbp, nres, dp, pf, pctx, pq, pj, pd, nq >>
 
 z_dq_ready(self) == /\ pc[self] = "z_dq_ready"
                     /\ pc' = [pc EXCEPT ![self] = Head(stack[self]).pc]
@@ -6034,8 +6153,8 @@ z_dq_ready(self) == /\ pc[self] = "z_dq_ready"
                                     pthreads, nspawned, palive, busy, 
                                     busyLocked, inbox, chanOpen, pfin, thrHeld, 
                                     maxThreads, jkind, jaw, fres, fwaker, 
-                                    gfired, gwaker, gthreads, dwSt, dwW, 
-                                    dblTaken, dblW1, dblW2, nextDW, ready, 
+                                    gfired, gwaker, gthreads, gwhist, dwSt, 
+                                    dwW, dblTaken, dblW1, dblW2, nextDW, ready, 
                                     cwait, cnotif, cvHeld, sdres, jpanic, sfst, 
                                     slotSt, qrSent, qrWaker, dnState, dnWaker, 
                                     parkTok, rv, rwb, rneed, dsl, atomic, 
@@ -6044,10 +6163,10 @@ z_dq_ready(self) == /\ pc[self] = "z_dq_ready"
                                     inItems, inClosed, inWaker, pollFn, 
                                     chuteFn, pwTaken, nextPoll, ppItem, h, 
                                     dead, sti, rq, sq, sj, ww, rsq, bown, bwk, 
-                                    bi, bcur, bw, jq, jj, jwk, fj, dq, dj, oq, 
-                                    oop, omode, oj, yq, yop, tq, top, af, wf, 
-                                    wop, sf, sctx, xf, cop, kj, pp, np, nbp, 
-                                    nres, dp, nq >>
+                                    bi, bcur, bw, bsp, jq, jj, jwk, fj, dq, dj, 
+                                    oq, oop, omode, oj, yq, yop, tq, top, af, 
+                                    wf, wop, sf, sctx, xf, cop, kj, pp, np, 
+                                    nbp, nres, dp, nq >>
 
 dq_setwaker(self) == /\ pc[self] = "dq_setwaker"
                      /\ fwaker' = [fwaker EXCEPT ![pf[self]] = pctx[self]]
@@ -6056,21 +6175,21 @@ dq_setwaker(self) == /\ pc[self] = "dq_setwaker"
                                      schedule, pthreads, nspawned, palive, 
                                      busy, busyLocked, inbox, chanOpen, pfin, 
                                      thrHeld, maxThreads, jkind, jaw, fres, 
-                                     gfired, gwaker, gthreads, dwSt, dwW, 
-                                     dblTaken, dblW1, dblW2, nextDW, ready, 
-                                     cwait, cnotif, cvHeld, sdres, jpanic, 
-                                     sfst, slotSt, qrSent, qrWaker, dnState, 
-                                     dnWaker, parkTok, rv, rwb, rneed, dsl, 
-                                     atomic, strong, ppPending, ppClosed, 
+                                     gfired, gwaker, gthreads, gwhist, dwSt, 
+                                     dwW, dblTaken, dblW1, dblW2, nextDW, 
+                                     ready, cwait, cnotif, cvHeld, sdres, 
+                                     jpanic, sfst, slotSt, qrSent, qrWaker, 
+                                     dnState, dnWaker, parkTok, rv, rwb, rneed, 
+                                     dsl, atomic, strong, ppPending, ppClosed, 
                                      ppNotify, ppNC, ppBP, ppDepth, ppAlive, 
                                      ppHeld, inItems, inClosed, inWaker, 
                                      pollFn, chuteFn, pwTaken, nextPoll, 
                                      ppItem, h, stack, dead, sti, rq, sq, sj, 
-                                     ww, rsq, bown, bwk, bi, bcur, bw, jq, jj, 
-                                     jwk, fj, dq, dj, oq, oop, omode, oj, yq, 
-                                     yop, tq, top, af, wf, wop, sf, sctx, xf, 
-                                     cop, kj, pp, np, nbp, nres, dp, pf, pctx, 
-                                     pq, pj, pd, nq >>
+                                     ww, rsq, bown, bwk, bi, bcur, bw, bsp, jq, 
+                                     jj, jwk, fj, dq, dj, oq, oop, omode, oj, 
+                                     yq, yop, tq, top, af, wf, wop, sf, sctx, 
+                                     xf, cop, kj, pp, np, nbp, nres, dp, pf, 
+                                     pctx, pq, pj, pd, nq >>
 
 dq_waitpoll(self) == /\ pc[self] = "dq_waitpoll"
                      /\ qstate' = [qstate EXCEPT ![pq[self]] = "WaitingForPoll"]
@@ -6080,21 +6199,21 @@ dq_waitpoll(self) == /\ pc[self] = "dq_waitpoll"
                                      nspawned, palive, busy, busyLocked, inbox, 
                                      chanOpen, pfin, thrHeld, maxThreads, 
                                      jkind, jaw, fres, fwaker, gfired, gwaker, 
-                                     gthreads, dwSt, dwW, dblTaken, dblW1, 
-                                     dblW2, nextDW, ready, cwait, cnotif, 
-                                     cvHeld, sdres, jpanic, sfst, slotSt, 
-                                     qrSent, qrWaker, dnState, dnWaker, 
+                                     gthreads, gwhist, dwSt, dwW, dblTaken, 
+                                     dblW1, dblW2, nextDW, ready, cwait, 
+                                     cnotif, cvHeld, sdres, jpanic, sfst, 
+                                     slotSt, qrSent, qrWaker, dnState, dnWaker, 
                                      parkTok, rv, rwb, rneed, dsl, atomic, 
                                      strong, ppPending, ppClosed, ppNotify, 
                                      ppNC, ppBP, ppDepth, ppAlive, ppHeld, 
                                      inItems, inClosed, inWaker, pollFn, 
                                      chuteFn, pwTaken, nextPoll, ppItem, h, 
                                      stack, dead, sti, rq, sq, sj, ww, rsq, 
-                                     bown, bwk, bi, bcur, bw, jq, jj, jwk, fj, 
-                                     dq, dj, oq, oop, omode, oj, yq, yop, tq, 
-                                     top, af, wf, wop, sf, sctx, xf, cop, kj, 
-                                     pp, np, nbp, nres, dp, pf, pctx, pq, pj, 
-                                     pd, nq >>
+                                     bown, bwk, bi, bcur, bw, bsp, jq, jj, jwk, 
+                                     fj, dq, dj, oq, oop, omode, oj, yq, yop, 
+                                     tq, top, af, wf, wop, sf, sctx, xf, cop, 
+                                     kj, pp, np, nbp, nres, dp, pf, pctx, pq, 
+                                     pj, pd, nq >>
 
 dq_ww2(self) == /\ pc[self] = "dq_ww2"
                 /\ dblW1' = [dblW1 EXCEPT ![pd[self]] = WQ(pq[self])]
@@ -6115,18 +6234,18 @@ dq_ww2(self) == /\ pc[self] = "dq_ww2"
                                 pthreads, nspawned, palive, busy, busyLocked, 
                                 inbox, chanOpen, pfin, thrHeld, maxThreads, 
                                 jkind, jaw, fres, fwaker, gfired, gwaker, 
-                                gthreads, dblTaken, nextDW, ready, cwait, 
-                                cnotif, cvHeld, sdres, jpanic, sfst, slotSt, 
-                                qrSent, qrWaker, dnState, dnWaker, parkTok, rv, 
-                                rwb, rneed, dsl, atomic, strong, ppPending, 
-                                ppClosed, ppNotify, ppNC, ppBP, ppDepth, 
-                                ppAlive, ppHeld, inItems, inClosed, inWaker, 
-                                pollFn, chuteFn, pwTaken, nextPoll, ppItem, h, 
-                                dead, sti, rq, sq, sj, rsq, bown, bwk, bi, 
-                                bcur, bw, jq, jj, jwk, fj, dq, dj, oq, oop, 
-                                omode, oj, yq, yop, tq, top, af, wf, wop, sf, 
-                                sctx, xf, cop, kj, pp, np, nbp, nres, dp, pf, 
-                                pctx, pq, pj, pd, nq >>
+                                gthreads, gwhist, dblTaken, nextDW, ready, 
+                                cwait, cnotif, cvHeld, sdres, jpanic, sfst, 
+                                slotSt, qrSent, qrWaker, dnState, dnWaker, 
+                                parkTok, rv, rwb, rneed, dsl, atomic, strong, 
+                                ppPending, ppClosed, ppNotify, ppNC, ppBP, 
+                                ppDepth, ppAlive, ppHeld, inItems, inClosed, 
+                                inWaker, pollFn, chuteFn, pwTaken, nextPoll, 
+                                ppItem, h, dead, sti, rq, sq, sj, rsq, bown, 
+                                bwk, bi, bcur, bw, bsp, jq, jj, jwk, fj, dq, 
+                                dj, oq, oop, omode, oj, yq, yop, tq, top, af, 
+                                wf, wop, sf, sctx, xf, cop, kj, pp, np, nbp, 
+                                nres, dp, pf, pctx, pq, pj, pd, nq >>
 
 z_dq_pending(self) == /\ pc[self] = "z_dq_pending"
                       /\ rv' = [rv EXCEPT ![self] = 5]
@@ -6141,20 +6260,21 @@ z_dq_pending(self) == /\ pc[self] = "z_dq_pending"
                                       schedule, pthreads, nspawned, palive, 
                                       busy, busyLocked, inbox, chanOpen, pfin, 
                                       thrHeld, maxThreads, jkind, jaw, fres, 
-                                      fwaker, gfired, gwaker, gthreads, dwSt, 
-                                      dwW, dblTaken, dblW1, dblW2, nextDW, 
-                                      ready, cwait, cnotif, cvHeld, sdres, 
-                                      jpanic, sfst, slotSt, qrSent, qrWaker, 
-                                      dnState, dnWaker, parkTok, rwb, rneed, 
-                                      dsl, atomic, strong, ppPending, ppClosed, 
-                                      ppNotify, ppNC, ppBP, ppDepth, ppAlive, 
-                                      ppHeld, inItems, inClosed, inWaker, 
-                                      pollFn, chuteFn, pwTaken, nextPoll, 
-                                      ppItem, h, dead, sti, rq, sq, sj, ww, 
-                                      rsq, bown, bwk, bi, bcur, bw, jq, jj, 
-                                      jwk, fj, dq, dj, oq, oop, omode, oj, yq, 
-                                      yop, tq, top, af, wf, wop, sf, sctx, xf, 
-                                      cop, kj, pp, np, nbp, nres, dp, nq >>
+                                      fwaker, gfired, gwaker, gthreads, gwhist, 
+                                      dwSt, dwW, dblTaken, dblW1, dblW2, 
+                                      nextDW, ready, cwait, cnotif, cvHeld, 
+                                      sdres, jpanic, sfst, slotSt, qrSent, 
+                                      qrWaker, dnState, dnWaker, parkTok, rwb, 
+                                      rneed, dsl, atomic, strong, ppPending, 
+                                      ppClosed, ppNotify, ppNC, ppBP, ppDepth, 
+                                      ppAlive, ppHeld, inItems, inClosed, 
+                                      inWaker, pollFn, chuteFn, pwTaken, 
+                                      nextPoll, ppItem, h, dead, sti, rq, sq, 
+                                      sj, ww, rsq, bown, bwk, bi, bcur, bw, 
+                                      bsp, jq, jj, jwk, fj, dq, dj, oq, oop, 
+                                      omode, oj, yq, yop, tq, top, af, wf, wop, 
+                                      sf, sctx, xf, cop, kj, pp, np, nbp, nres, 
+                                      dp, nq >>
 
 dq_empty_w(self) == /\ pc[self] = "dq_empty_w"
                     /\ fwaker' = [fwaker EXCEPT ![pf[self]] = pctx[self]]
@@ -6163,20 +6283,21 @@ dq_empty_w(self) == /\ pc[self] = "dq_empty_w"
                                     pthreads, nspawned, palive, busy, 
                                     busyLocked, inbox, chanOpen, pfin, thrHeld, 
                                     maxThreads, jkind, jaw, fres, gfired, 
-                                    gwaker, gthreads, dwSt, dwW, dblTaken, 
-                                    dblW1, dblW2, nextDW, ready, cwait, cnotif, 
-                                    cvHeld, sdres, jpanic, sfst, slotSt, 
-                                    qrSent, qrWaker, dnState, dnWaker, parkTok, 
-                                    rv, rwb, rneed, dsl, atomic, strong, 
-                                    ppPending, ppClosed, ppNotify, ppNC, ppBP, 
-                                    ppDepth, ppAlive, ppHeld, inItems, 
-                                    inClosed, inWaker, pollFn, chuteFn, 
-                                    pwTaken, nextPoll, ppItem, h, stack, dead, 
-                                    sti, rq, sq, sj, ww, rsq, bown, bwk, bi, 
-                                    bcur, bw, jq, jj, jwk, fj, dq, dj, oq, oop, 
-                                    omode, oj, yq, yop, tq, top, af, wf, wop, 
-                                    sf, sctx, xf, cop, kj, pp, np, nbp, nres, 
-                                    dp, pf, pctx, pq, pj, pd, nq >>
+                                    gwaker, gthreads, gwhist, dwSt, dwW, 
+                                    dblTaken, dblW1, dblW2, nextDW, ready, 
+                                    cwait, cnotif, cvHeld, sdres, jpanic, sfst, 
+                                    slotSt, qrSent, qrWaker, dnState, dnWaker, 
+                                    parkTok, rv, rwb, rneed, dsl, atomic, 
+                                    strong, ppPending, ppClosed, ppNotify, 
+                                    ppNC, ppBP, ppDepth, ppAlive, ppHeld, 
+                                    inItems, inClosed, inWaker, pollFn, 
+                                    chuteFn, pwTaken, nextPoll, ppItem, h, 
+                                    stack, dead, sti, rq, sq, sj, ww, rsq, 
+                                    bown, bwk, bi, bcur, bw, bsp, jq, jj, jwk, 
+                                    fj, dq, dj, oq, oop, omode, oj, yq, yop, 
+                                    tq, top, af, wf, wop, sf, sctx, xf, cop, 
+                                    kj, pp, np, nbp, nres, dp, pf, pctx, pq, 
+                                    pj, pd, nq >>
 
 dq_empty_idle(self) == /\ pc[self] = "dq_empty_idle"
                        /\ qstate' = [qstate EXCEPT ![pq[self]] = "Idle"]
@@ -6190,21 +6311,22 @@ dq_empty_idle(self) == /\ pc[self] = "dq_empty_idle"
                                        pthreads, nspawned, palive, busy, 
                                        busyLocked, inbox, chanOpen, pfin, 
                                        thrHeld, maxThreads, jkind, jaw, fres, 
-                                       fwaker, gfired, gwaker, gthreads, dwSt, 
-                                       dwW, dblTaken, dblW1, dblW2, nextDW, 
-                                       ready, cwait, cnotif, cvHeld, sdres, 
-                                       jpanic, sfst, slotSt, qrSent, qrWaker, 
-                                       dnState, dnWaker, parkTok, rv, rwb, 
-                                       rneed, dsl, atomic, strong, ppPending, 
-                                       ppClosed, ppNotify, ppNC, ppBP, ppDepth, 
-                                       ppAlive, ppHeld, inItems, inClosed, 
-                                       inWaker, pollFn, chuteFn, pwTaken, 
-                                       nextPoll, ppItem, h, dead, sti, sq, sj, 
-                                       ww, rsq, bown, bwk, bi, bcur, bw, jq, 
-                                       jj, jwk, fj, dq, dj, oq, oop, omode, oj, 
-                                       yq, yop, tq, top, af, wf, wop, sf, sctx, 
-                                       xf, cop, kj, pp, np, nbp, nres, dp, pf, 
-                                       pctx, pq, pj, pd, nq >>
+                                       fwaker, gfired, gwaker, gthreads, 
+                                       gwhist, dwSt, dwW, dblTaken, dblW1, 
+                                       dblW2, nextDW, ready, cwait, cnotif, 
+                                       cvHeld, sdres, jpanic, sfst, slotSt, 
+                                       qrSent, qrWaker, dnState, dnWaker, 
+                                       parkTok, rv, rwb, rneed, dsl, atomic, 
+                                       strong, ppPending, ppClosed, ppNotify, 
+                                       ppNC, ppBP, ppDepth, ppAlive, ppHeld, 
+                                       inItems, inClosed, inWaker, pollFn, 
+                                       chuteFn, pwTaken, nextPoll, ppItem, h, 
+                                       dead, sti, sq, sj, ww, rsq, bown, bwk, 
+                                       bi, bcur, bw, bsp, jq, jj, jwk, fj, dq, 
+                                       dj, oq, oop, omode, oj, yq, yop, tq, 
+                                       top, af, wf, wop, sf, sctx, xf, cop, kj, 
+                                       pp, np, nbp, nres, dp, pf, pctx, pq, pj, 
+                                       pd, nq >>
 
 dq_idle(self) == /\ pc[self] = "dq_idle"
                  /\ qstate' = [qstate EXCEPT ![pq[self]] = "Idle"]
@@ -6218,18 +6340,19 @@ dq_idle(self) == /\ pc[self] = "dq_idle"
                                  nspawned, palive, busy, busyLocked, inbox, 
                                  chanOpen, pfin, thrHeld, maxThreads, jkind, 
                                  jaw, fres, fwaker, gfired, gwaker, gthreads, 
-                                 dwSt, dwW, dblTaken, dblW1, dblW2, nextDW, 
-                                 ready, cwait, cnotif, cvHeld, sdres, jpanic, 
-                                 sfst, slotSt, qrSent, qrWaker, dnState, 
-                                 dnWaker, parkTok, rv, rwb, rneed, dsl, atomic, 
-                                 strong, ppPending, ppClosed, ppNotify, ppNC, 
-                                 ppBP, ppDepth, ppAlive, ppHeld, inItems, 
-                                 inClosed, inWaker, pollFn, chuteFn, pwTaken, 
-                                 nextPoll, ppItem, h, dead, sti, sq, sj, ww, 
-                                 rsq, bown, bwk, bi, bcur, bw, jq, jj, jwk, fj, 
-                                 dq, dj, oq, oop, omode, oj, yq, yop, tq, top, 
-                                 af, wf, wop, sf, sctx, xf, cop, kj, pp, np, 
-                                 nbp, nres, dp, pf, pctx, pq, pj, pd, nq >>
+                                 gwhist, dwSt, dwW, dblTaken, dblW1, dblW2, 
+                                 nextDW, ready, cwait, cnotif, cvHeld, sdres, 
+                                 jpanic, sfst, slotSt, qrSent, qrWaker, 
+                                 dnState, dnWaker, parkTok, rv, rwb, rneed, 
+                                 dsl, atomic, strong, ppPending, ppClosed, 
+                                 ppNotify, ppNC, ppBP, ppDepth, ppAlive, 
+                                 ppHeld, inItems, inClosed, inWaker, pollFn, 
+                                 chuteFn, pwTaken, nextPoll, ppItem, h, dead, 
+                                 sti, sq, sj, ww, rsq, bown, bwk, bi, bcur, bw, 
+                                 bsp, jq, jj, jwk, fj, dq, dj, oq, oop, omode, 
+                                 oj, yq, yop, tq, top, af, wf, wop, sf, sctx, 
+                                 xf, cop, kj, pp, np, nbp, nres, dp, pf, pctx, 
+                                 pq, pj, pd, nq >>
 
 dq_panic(self) == /\ pc[self] = "dq_panic"
                   /\ qstate' = [qstate EXCEPT ![pq[self]] = "Panicked"]
@@ -6245,18 +6368,19 @@ dq_panic(self) == /\ pc[self] = "dq_panic"
                                   nspawned, palive, busy, busyLocked, inbox, 
                                   chanOpen, pfin, thrHeld, maxThreads, jkind, 
                                   jaw, fres, fwaker, gfired, gwaker, gthreads, 
-                                  dwSt, dwW, dblTaken, dblW1, dblW2, nextDW, 
-                                  ready, cwait, cnotif, cvHeld, sdres, jpanic, 
-                                  sfst, slotSt, qrSent, qrWaker, dnState, 
-                                  dnWaker, parkTok, rwb, rneed, dsl, atomic, 
-                                  strong, ppPending, ppClosed, ppNotify, ppNC, 
-                                  ppBP, ppDepth, ppAlive, ppHeld, inItems, 
-                                  inClosed, inWaker, pollFn, chuteFn, pwTaken, 
-                                  nextPoll, ppItem, h, dead, sti, rq, sq, sj, 
-                                  ww, rsq, bown, bwk, bi, bcur, bw, jq, jj, 
-                                  jwk, fj, dq, dj, oq, oop, omode, oj, yq, yop, 
-                                  tq, top, af, wf, wop, sf, sctx, xf, cop, kj, 
-                                  pp, np, nbp, nres, dp, nq >>
+                                  gwhist, dwSt, dwW, dblTaken, dblW1, dblW2, 
+                                  nextDW, ready, cwait, cnotif, cvHeld, sdres, 
+                                  jpanic, sfst, slotSt, qrSent, qrWaker, 
+                                  dnState, dnWaker, parkTok, rwb, rneed, dsl, 
+                                  atomic, strong, ppPending, ppClosed, 
+                                  ppNotify, ppNC, ppBP, ppDepth, ppAlive, 
+                                  ppHeld, inItems, inClosed, inWaker, pollFn, 
+                                  chuteFn, pwTaken, nextPoll, ppItem, h, dead, 
+                                  sti, rq, sq, sj, ww, rsq, bown, bwk, bi, 
+                                  bcur, bw, bsp, jq, jj, jwk, fj, dq, dj, oq, 
+                                  oop, omode, oj, yq, yop, tq, top, af, wf, 
+                                  wop, sf, sctx, xf, cop, kj, pp, np, nbp, 
+                                  nres, dp, nq >>
 
 PollFuture(self) == pf_decide(self) \/ dq_res(self) \/ dq_deq(self)
                        \/ z_dq_after(self) \/ dq_requeue(self)
@@ -6276,6 +6400,7 @@ c_start(self) == /\ pc[self] = "c_start"
                                                              bi        |->  bi[self],
                                                              bcur      |->  bcur[self],
                                                              bw        |->  bw[self],
+                                                             bsp       |->  bsp[self],
                                                              rsq       |->  rsq[self],
                                                              bown      |->  bown[self],
                                                              bwk       |->  bwk[self] ] >>
@@ -6283,14 +6408,15 @@ c_start(self) == /\ pc[self] = "c_start"
                  /\ bi' = [bi EXCEPT ![self] = 0]
                  /\ bcur' = [bcur EXCEPT ![self] = 0]
                  /\ bw' = [bw EXCEPT ![self] = NoW]
+                 /\ bsp' = [bsp EXCEPT ![self] = << >>]
                  /\ pc' = [pc EXCEPT ![self] = "rb_step"]
                  /\ UNCHANGED << qstate, qpoll, jobs, wakeBlocked, schedule, 
                                  pthreads, nspawned, palive, busy, busyLocked, 
                                  inbox, chanOpen, pfin, thrHeld, maxThreads, 
                                  jkind, jaw, fres, fwaker, gfired, gwaker, 
-                                 gthreads, dwSt, dwW, dblTaken, dblW1, dblW2, 
-                                 nextDW, ready, cwait, cnotif, cvHeld, sdres, 
-                                 jpanic, sfst, slotSt, qrSent, qrWaker, 
+                                 gthreads, gwhist, dwSt, dwW, dblTaken, dblW1, 
+                                 dblW2, nextDW, ready, cwait, cnotif, cvHeld, 
+                                 sdres, jpanic, sfst, slotSt, qrSent, qrWaker, 
                                  dnState, dnWaker, parkTok, rv, rwb, rneed, 
                                  dsl, atomic, strong, ppPending, ppClosed, 
                                  ppNotify, ppNC, ppBP, ppDepth, ppAlive, 
@@ -6308,17 +6434,17 @@ z_c_exit(self) == /\ pc[self] = "z_c_exit"
                                   pthreads, nspawned, palive, busy, busyLocked, 
                                   inbox, chanOpen, pfin, thrHeld, maxThreads, 
                                   jkind, jaw, fres, fwaker, gfired, gwaker, 
-                                  gthreads, dwSt, dwW, dblTaken, dblW1, dblW2, 
-                                  nextDW, ready, cwait, cnotif, cvHeld, sdres, 
-                                  jpanic, sfst, slotSt, qrSent, qrWaker, 
+                                  gthreads, gwhist, dwSt, dwW, dblTaken, dblW1, 
+                                  dblW2, nextDW, ready, cwait, cnotif, cvHeld, 
+                                  sdres, jpanic, sfst, slotSt, qrSent, qrWaker, 
                                   dnState, dnWaker, parkTok, rv, rwb, rneed, 
                                   dsl, atomic, strong, ppPending, ppClosed, 
                                   ppNotify, ppNC, ppBP, ppDepth, ppAlive, 
                                   ppHeld, inItems, inClosed, inWaker, pollFn, 
                                   chuteFn, pwTaken, nextPoll, ppItem, stack, 
                                   dead, sti, rq, sq, sj, ww, rsq, bown, bwk, 
-                                  bi, bcur, bw, jq, jj, jwk, fj, dq, dj, oq, 
-                                  oop, omode, oj, yq, yop, tq, top, af, wf, 
+                                  bi, bcur, bw, bsp, jq, jj, jwk, fj, dq, dj, 
+                                  oq, oop, omode, oj, yq, yop, tq, top, af, wf, 
                                   wop, sf, sctx, xf, cop, kj, pp, np, nbp, 
                                   nres, dp, pf, pctx, pq, pj, pd, nq >>
 
@@ -6337,19 +6463,20 @@ pt_recv(self) == /\ pc[self] = "pt_recv"
                  /\ UNCHANGED << qstate, qpoll, jobs, wakeBlocked, schedule, 
                                  pthreads, nspawned, palive, busy, busyLocked, 
                                  chanOpen, thrHeld, maxThreads, jkind, jaw, 
-                                 fres, fwaker, gfired, gwaker, gthreads, dwSt, 
-                                 dwW, dblTaken, dblW1, dblW2, nextDW, ready, 
-                                 cwait, cnotif, cvHeld, sdres, jpanic, sfst, 
-                                 slotSt, qrSent, qrWaker, dnState, dnWaker, 
-                                 parkTok, rv, rwb, rneed, dsl, atomic, strong, 
-                                 ppPending, ppClosed, ppNotify, ppNC, ppBP, 
-                                 ppDepth, ppAlive, ppHeld, inItems, inClosed, 
-                                 inWaker, pollFn, chuteFn, pwTaken, nextPoll, 
-                                 ppItem, stack, dead, sti, rq, sq, sj, ww, rsq, 
-                                 bown, bwk, bi, bcur, bw, jq, jj, jwk, fj, dq, 
-                                 dj, oq, oop, omode, oj, yq, yop, tq, top, af, 
-                                 wf, wop, sf, sctx, xf, cop, kj, pp, np, nbp, 
-                                 nres, dp, pf, pctx, pq, pj, pd, nq >>
+                                 fres, fwaker, gfired, gwaker, gthreads, 
+                                 gwhist, dwSt, dwW, dblTaken, dblW1, dblW2, 
+                                 nextDW, ready, cwait, cnotif, cvHeld, sdres, 
+                                 jpanic, sfst, slotSt, qrSent, qrWaker, 
+                                 dnState, dnWaker, parkTok, rv, rwb, rneed, 
+                                 dsl, atomic, strong, ppPending, ppClosed, 
+                                 ppNotify, ppNC, ppBP, ppDepth, ppAlive, 
+                                 ppHeld, inItems, inClosed, inWaker, pollFn, 
+                                 chuteFn, pwTaken, nextPoll, ppItem, stack, 
+                                 dead, sti, rq, sq, sj, ww, rsq, bown, bwk, bi, 
+                                 bcur, bw, bsp, jq, jj, jwk, fj, dq, dj, oq, 
+                                 oop, omode, oj, yq, yop, tq, top, af, wf, wop, 
+                                 sf, sctx, xf, cop, kj, pp, np, nbp, nres, dp, 
+                                 pf, pctx, pq, pj, pd, nq >>
 
 pt_next(self) == /\ pc[self] = "pt_next"
                  /\ LET r == NTR(schedule) IN
@@ -6365,19 +6492,19 @@ pt_next(self) == /\ pc[self] = "pt_next"
                  /\ UNCHANGED << jobs, wakeBlocked, pthreads, nspawned, palive, 
                                  busy, inbox, chanOpen, pfin, thrHeld, 
                                  maxThreads, jkind, jaw, fres, fwaker, gfired, 
-                                 gwaker, gthreads, dwSt, dwW, dblTaken, dblW1, 
-                                 dblW2, nextDW, ready, cwait, cnotif, cvHeld, 
-                                 sdres, jpanic, sfst, slotSt, qrSent, qrWaker, 
-                                 dnState, dnWaker, parkTok, rv, rwb, rneed, 
-                                 dsl, atomic, strong, ppPending, ppClosed, 
-                                 ppNotify, ppNC, ppBP, ppDepth, ppAlive, 
-                                 ppHeld, inItems, inClosed, inWaker, pollFn, 
-                                 chuteFn, pwTaken, nextPoll, ppItem, h, stack, 
-                                 dead, sti, rq, sq, sj, ww, rsq, bown, bwk, bi, 
-                                 bcur, bw, jq, jj, jwk, fj, dq, dj, oq, oop, 
-                                 omode, oj, yq, yop, tq, top, af, wf, wop, sf, 
-                                 sctx, xf, cop, kj, pp, np, nbp, nres, dp, pf, 
-                                 pctx, pq, pj, pd >>
+                                 gwaker, gthreads, gwhist, dwSt, dwW, dblTaken, 
+                                 dblW1, dblW2, nextDW, ready, cwait, cnotif, 
+                                 cvHeld, sdres, jpanic, sfst, slotSt, qrSent, 
+                                 qrWaker, dnState, dnWaker, parkTok, rv, rwb, 
+                                 rneed, dsl, atomic, strong, ppPending, 
+                                 ppClosed, ppNotify, ppNC, ppBP, ppDepth, 
+                                 ppAlive, ppHeld, inItems, inClosed, inWaker, 
+                                 pollFn, chuteFn, pwTaken, nextPoll, ppItem, h, 
+                                 stack, dead, sti, rq, sq, sj, ww, rsq, bown, 
+                                 bwk, bi, bcur, bw, bsp, jq, jj, jwk, fj, dq, 
+                                 dj, oq, oop, omode, oj, yq, yop, tq, top, af, 
+                                 wf, wop, sf, sctx, xf, cop, kj, pp, np, nbp, 
+                                 nres, dp, pf, pctx, pq, pj, pd >>
 
 pt_after(self) == /\ pc[self] = "pt_after"
                   /\ busyLocked' = [busyLocked EXCEPT ![self] = FALSE]
@@ -6397,19 +6524,20 @@ pt_after(self) == /\ pc[self] = "pt_after"
                   /\ UNCHANGED << qstate, qpoll, jobs, wakeBlocked, schedule, 
                                   pthreads, nspawned, palive, inbox, chanOpen, 
                                   pfin, thrHeld, maxThreads, jkind, jaw, fres, 
-                                  fwaker, gfired, gwaker, gthreads, dwSt, dwW, 
-                                  dblTaken, dblW1, dblW2, nextDW, ready, cwait, 
-                                  cnotif, cvHeld, sdres, jpanic, sfst, slotSt, 
-                                  qrSent, qrWaker, dnState, dnWaker, parkTok, 
-                                  rv, rwb, rneed, dsl, atomic, strong, 
-                                  ppPending, ppClosed, ppNotify, ppNC, ppBP, 
-                                  ppDepth, ppAlive, ppHeld, inItems, inClosed, 
-                                  inWaker, pollFn, chuteFn, pwTaken, nextPoll, 
-                                  ppItem, h, dead, sti, rq, sq, sj, ww, rsq, 
-                                  bown, bwk, bi, bcur, bw, jq, jj, jwk, fj, oq, 
-                                  oop, omode, oj, yq, yop, tq, top, af, wf, 
-                                  wop, sf, sctx, xf, cop, kj, pp, np, nbp, 
-                                  nres, dp, pf, pctx, pq, pj, pd, nq >>
+                                  fwaker, gfired, gwaker, gthreads, gwhist, 
+                                  dwSt, dwW, dblTaken, dblW1, dblW2, nextDW, 
+                                  ready, cwait, cnotif, cvHeld, sdres, jpanic, 
+                                  sfst, slotSt, qrSent, qrWaker, dnState, 
+                                  dnWaker, parkTok, rv, rwb, rneed, dsl, 
+                                  atomic, strong, ppPending, ppClosed, 
+                                  ppNotify, ppNC, ppBP, ppDepth, ppAlive, 
+                                  ppHeld, inItems, inClosed, inWaker, pollFn, 
+                                  chuteFn, pwTaken, nextPoll, ppItem, h, dead, 
+                                  sti, rq, sq, sj, ww, rsq, bown, bwk, bi, 
+                                  bcur, bw, bsp, jq, jj, jwk, fj, oq, oop, 
+                                  omode, oj, yq, yop, tq, top, af, wf, wop, sf, 
+                                  sctx, xf, cop, kj, pp, np, nbp, nres, dp, pf, 
+                                  pctx, pq, pj, pd, nq >>
 
 z_pt_chk(self) == /\ pc[self] = "z_pt_chk"
                   /\ IF rv[self] = 9
@@ -6422,17 +6550,17 @@ z_pt_chk(self) == /\ pc[self] = "z_pt_chk"
                                   pthreads, nspawned, palive, busy, busyLocked, 
                                   inbox, chanOpen, thrHeld, maxThreads, jkind, 
                                   jaw, fres, fwaker, gfired, gwaker, gthreads, 
-                                  dwSt, dwW, dblTaken, dblW1, dblW2, nextDW, 
-                                  ready, cwait, cnotif, cvHeld, sdres, jpanic, 
-                                  sfst, slotSt, qrSent, qrWaker, dnState, 
-                                  dnWaker, parkTok, rv, rwb, rneed, dsl, 
-                                  atomic, strong, ppPending, ppClosed, 
+                                  gwhist, dwSt, dwW, dblTaken, dblW1, dblW2, 
+                                  nextDW, ready, cwait, cnotif, cvHeld, sdres, 
+                                  jpanic, sfst, slotSt, qrSent, qrWaker, 
+                                  dnState, dnWaker, parkTok, rv, rwb, rneed, 
+                                  dsl, atomic, strong, ppPending, ppClosed, 
                                   ppNotify, ppNC, ppBP, ppDepth, ppAlive, 
                                   ppHeld, inItems, inClosed, inWaker, pollFn, 
                                   chuteFn, pwTaken, nextPoll, ppItem, stack, 
                                   dead, sti, rq, sq, sj, ww, rsq, bown, bwk, 
-                                  bi, bcur, bw, jq, jj, jwk, fj, dq, dj, oq, 
-                                  oop, omode, oj, yq, yop, tq, top, af, wf, 
+                                  bi, bcur, bw, bsp, jq, jj, jwk, fj, dq, dj, 
+                                  oq, oop, omode, oj, yq, yop, tq, top, af, wf, 
                                   wop, sf, sctx, xf, cop, kj, pp, np, nbp, 
                                   nres, dp, pf, pctx, pq, pj, pd, nq >>
 
@@ -6443,7 +6571,7 @@ z_pt_done(self) == /\ pc[self] = "z_pt_done"
                                    pthreads, nspawned, palive, busy, 
                                    busyLocked, inbox, chanOpen, pfin, thrHeld, 
                                    maxThreads, jkind, jaw, fres, fwaker, 
-                                   gfired, gwaker, gthreads, dwSt, dwW, 
+                                   gfired, gwaker, gthreads, gwhist, dwSt, dwW, 
                                    dblTaken, dblW1, dblW2, nextDW, ready, 
                                    cwait, cnotif, cvHeld, sdres, jpanic, sfst, 
                                    slotSt, qrSent, qrWaker, dnState, dnWaker, 
@@ -6453,10 +6581,10 @@ z_pt_done(self) == /\ pc[self] = "z_pt_done"
                                    inClosed, inWaker, pollFn, chuteFn, pwTaken, 
                                    nextPoll, ppItem, h, stack, dead, sti, rq, 
                                    sq, sj, ww, rsq, bown, bwk, bi, bcur, bw, 
-                                   jq, jj, jwk, fj, dq, dj, oq, oop, omode, oj, 
-                                   yq, yop, tq, top, af, wf, wop, sf, sctx, xf, 
-                                   cop, kj, pp, np, nbp, nres, dp, pf, pctx, 
-                                   pq, pj, pd, nq >>
+                                   bsp, jq, jj, jwk, fj, dq, dj, oq, oop, 
+                                   omode, oj, yq, yop, tq, top, af, wf, wop, 
+                                   sf, sctx, xf, cop, kj, pp, np, nbp, nres, 
+                                   dp, pf, pctx, pq, pj, pd, nq >>
 
 pool(self) == pt_recv(self) \/ pt_next(self) \/ pt_after(self)
                  \/ z_pt_chk(self) \/ z_pt_done(self)
